@@ -16,1383 +16,1453 @@ Definition terms (ts : list tok) (t : pt) : string :=
   digest (show_toks (Some ts)) ++ " " ++ digest (show_pt (Some t)) ++ " " ++ digest (show_pt (parse ts)).
 Definition terms_full (ts : list tok) (t : pt) : string :=
   show_toks (Some ts) ++ nl ++ show_pt (Some t) ++ nl ++ show_pt (parse ts).
-Eval vm_compute in ("<<<M19>>>" ++ check (runes_of_ascii "// packet A { u8 x, }
-options{lengthOf= 255 // " ++ [27880; 37322]%N ++ runes_of_ascii "
-; /// triple
-}packet MetaDataX {int32  body
-, }")).
-Eval vm_compute in ("<<<M51>>>" ++ check (runes_of_ascii "packet
-i8i8 {
-    char[]
-    string_
-// " ++ [27880; 37322]%N ++ runes_of_ascii "
-//
-`tab	here` //
-, @lengthOf(
-    T )
-    @lengthOf(
-uint8x)@rightPad ( '\x00' ) zchar[ 4294967296 // packet A { u8 x, }
-]	f32a @calculatedFrom(
-// " ++ [27880; 37322]%N ++ runes_of_ascii "
-//x
-""CRC32"")
-    `it's`	, } // @lengthOf(
-root // packet A { u8 x, }
-packet	A
-    { @rightPad
+Eval vm_compute in ("<<<M19>>>" ++ check (runes_of_ascii "packet string_	{ }packet
+    matchKey
+    { }
+")).
+Eval vm_compute in ("<<<M51>>>" ++ check (runes_of_ascii "MetaData
+x_y_z
+{zchar[ 3
+    ] // c
+body ,}
+")).
+Eval vm_compute in ("<<<M83>>>" ++ check (runes_of_ascii "options
+    {f32a	= zchar[ 65535 ]	;
 //	t
-// packet A { u8 x, }
-( )
-    @calculatedFrom(""" ++ [233]%N ++ runes_of_ascii "t" ++ [233]%N ++ runes_of_ascii """ )	string T`crlf
-line`
-    ,
-    u64 falsey `two words`
-//x
 // trailing space 
-,zchar[ 65535	] lengthOf
-`doc` , match // `tick` ""quote"" 'q'
-crc
-as int { [ ""packet"",
-    ""it's""
-    ]
-: body ,007
-:
-    // a // b
-    leftPad
-,	""{,}"" :
-    Z9_, [ 0123456789
-    , 00
-    , ""a\\"" // " ++ [128512]%N ++ runes_of_ascii " emoji
-, """ ++ [128512]%N ++ runes_of_ascii """  , ""\" ++ [233]%N ++ runes_of_ascii """
-    , ""`tick`"", ""it's"",
-    """ ++ [233]%N ++ runes_of_ascii "t" ++ [233]%N ++ runes_of_ascii """]
-: x_y_z,} // c
-,}
-")).
-Eval vm_compute in ("<<<M83>>>" ++ check (runes_of_ascii "
-root packet // `tick` ""quote"" 'q'
-rootA { @rightPad (
-) @leftPad(	) @lengthOf(  MetaDataX  )float// c
-u128`a\` , // `tick` ""quote"" 'q'
-}
-")).
-Eval vm_compute in ("<<<T83>>>" ++ terms [mkTok 34 "root" 2 0 false; mkTok 35 "packet" 2 5 false; mkTok 44 "// `tick` ""quote"" 'q'" 2 12 true; mkTok 42 "rootA" 3 0 false; mkTok 2 "{" 3 6 false; mkTok 32 "@rightPad" 3 8 false; mkTok 8 "(" 3 18 false; mkTok 6 ")" 4 0 false; mkTok 32 "@leftPad" 4 2 false; mkTok 8 "(" 4 10 false; mkTok 6 ")" 4 12 false; mkTok 7 "@lengthOf(" 4 14 false; mkTok 42 "MetaDataX" 4 26 false; mkTok 6 ")" 4 37 false; mkTok 42 "float" 4 38 false; mkTok 44 "// c" 4 43 true; mkTok 42 "u128" 5 0 false; mkTok 43 "`a\`" 5 4 false; mkTok 40 "," 5 9 false; mkTok 44 "// `tick` ""quote"" 'q'" 5 11 true; mkTok 3 "}" 6 0 false; mkTok 0 "<EOF>" 7 0 false] (mkPacket (mkPtok 34 "root" 2 0 0) (Some (mkPtok 3 "}" 6 0 20)) [(DPacket (mkPacketDef (mkSpan (mkPtok 34 "root" 2 0 0) (mkPtok 3 "}" 6 0 20)) (Some (mkPtok 34 "root" 2 0 0)) (mkPtok 35 "packet" 2 5 1) (mkPtok 42 "rootA" 3 0 3) (mkPtok 2 "{" 3 6 4) [(mkFieldWithAttr (mkSpan (mkPtok 32 "@rightPad" 3 8 5) (mkPtok 40 "," 5 9 18)) [(FAPadding (mkSpan (mkPtok 32 "@rightPad" 3 8 5) (mkPtok 6 ")" 4 0 7)) (mkPaddingAttr (mkSpan (mkPtok 32 "@rightPad" 3 8 5) (mkPtok 6 ")" 4 0 7)) (mkPtok 32 "@rightPad" 3 8 5) (mkPtok 8 "(" 3 18 6) None (mkPtok 6 ")" 4 0 7))); (FAPadding (mkSpan (mkPtok 32 "@leftPad" 4 2 8) (mkPtok 6 ")" 4 12 10)) (mkPaddingAttr (mkSpan (mkPtok 32 "@leftPad" 4 2 8) (mkPtok 6 ")" 4 12 10)) (mkPtok 32 "@leftPad" 4 2 8) (mkPtok 8 "(" 4 10 9) None (mkPtok 6 ")" 4 12 10))); (FALengthOf (mkSpan (mkPtok 7 "@lengthOf(" 4 14 11) (mkPtok 6 ")" 4 37 13)) (mkLengthOf (mkSpan (mkPtok 7 "@lengthOf(" 4 14 11) (mkPtok 6 ")" 4 37 13)) (mkPtok 7 "@lengthOf(" 4 14 11) (mkPtok 42 "MetaDataX" 4 26 12) (mkPtok 6 ")" 4 37 13)))] (ObjectField (mkSpan (mkPtok 42 "float" 4 38 14) (mkPtok 40 "," 5 9 18)) None (mkPtok 42 "float" 4 38 14) (Some (mkPtok 42 "u128" 5 0 16)) (Some (mkPtok 43 "`a\`" 5 4 17)) (mkPtok 40 "," 5 9 18)))] (mkPtok 3 "}" 6 0 20)))])).
-Eval vm_compute in ("<<<M115>>>" ++ check (@nil rune)).
-Eval vm_compute in ("<<<M147>>>" ++ check (runes_of_ascii "packet Header {
-    }
-")).
-Eval vm_compute in ("<<<M179>>>" ++ check (runes_of_ascii "
-options
-    // " ++ [128512]%N ++ runes_of_ascii " emoji
-    {  roots= false ; f32a = ""// no comment""
-// " ++ [128512]%N ++ runes_of_ascii " emoji
-// a // b
-;
-}
-")).
-Eval vm_compute in ("<<<M211>>>" ++ check (runes_of_ascii "options {
-chars  =
-    //x
-    ' '	}
-root packet	string_ {i8i8 @lengthOf(
-Z9_ )
-,	match int as chars // c
-{ 007: body	,[ // packet A { u8 x, }
-42 ] : int	, ""`tick`"" : options1
-, } ,
-@leftPad ( ' ' )uint16 crc `it's` , // a // b
-float64  packetx
-@lengthOf( crc // " ++ [27880; 37322]%N ++ runes_of_ascii "
-)// trailing space 
-, @tag(4294967296
-) match int
-as chars{4294967296
-    : Foo ,
-1:
-asx 10
-: Pad
-    0123456789	: string_
-,
-3
-// " ++ [27880; 37322]%N ++ runes_of_ascii "
-// " ++ [128512]%N ++ runes_of_ascii " emoji
-: T , ""it's""  : As  } , repeat  float falsey `say ""hi""`  ,
-match uint8x as zchar { ""// no comment""
-    : body
-, 0123456789 : crc , ""{,}"" : o } ,repeat o chars ,uint32
-As
-`doc` ,
-repeat trueish
-{ char[
-    7
-] i64_
-`{ , }`  , }
-, } packet
-    Packet {
-zchar[ 0123456789 ] matchKey @lengthOf( chars
-)  ,  x
-//	t
-// a // b
-{
-u64 o ,} , zchar[
-    // a // b
-    1 ]
-    MetaDataX
-@calculatedFrom(
-"""" ), char[]lengthOf// trailing space 
-@calculatedFrom( // " ++ [27880; 37322]%N ++ runes_of_ascii "
-""a\""b""
-) `
-` ,@rightPad( ' ' ) //	t
-uint16
-len `a\` , @lengthOf( //x
-tag )
-char[ 65535
-] pack ``, }
-")).
-Eval vm_compute in ("<<<M243>>>" ++ check (runes_of_ascii "options
-{ f32a= zchar[3
-//
-// c
-]
-// " ++ [128512]%N ++ runes_of_ascii " emoji
-//	t
-}	packet falsey
-{
-Z9_ ,body
-    @calculatedFrom( //
-""\n""
-// packet A { u8 x, }
-// c
-)
-    ,} options { }
-")).
-Eval vm_compute in ("<<<M275>>>" ++ check (runes_of_ascii "
-root packet u128 { @calculatedFrom( ""// no comment"" ) @tag(	10//	t
-) @calculatedFrom( ""packet"" ) BodyLength ``
-    , char BodyLength `two words`	, repeat uint32 f32a // trailing space 
-, crc {	repeat
-repeatCount Packet , MetaDataX@lengthOf(
-    chars
-),
-options1 _x ,
-repeat float64 T//x
-,} ,@tag( 3 )
-    @leftPad
-( '\x00') @rightPad
-(
-// @lengthOf(
-/// triple
-)
-    match string_ as MetaDataX { ""packet"" : float ,[
-    ""abc"" // @lengthOf(
-, """"
-    // packet A { u8 x, }
-    ,	3
-,
-    //x
-    65535 ,
-    ""a	b""
-,//	t
-42
-    ,
-    1 ,
-    ""packet"" ]:
-i64_
+Logon
+    = // `tick` ""quote"" 'q'
+""1"" x_y_z /// triple
+=65535 u=
+    ""// no comment""
+    ; A = ""a\\""
+; } //	t
+root packet BodyLength { match	crc
+as charz { """ ++ [128512]%N ++ runes_of_ascii """ : matchKey, 0123456789 :
+T, ""it's"" // " ++ [27880; 37322]%N ++ runes_of_ascii "
+: f32a,
+7
 // `tick` ""quote"" 'q'
+// a // b
+: body , [ 7 ]  : x_y_z, }
+,  }
+    MetaData
+    string_ { len metadata `line1
+line2` ,
+    f64 calculatedFrom ,x_y_z x
+, char[ 0123456789] Header  , }
+")).
+Eval vm_compute in ("<<<T83>>>" ++ terms [mkTok 1 "options" 1 0 false; mkTok 2 "{" 2 4 false; mkTok 42 "f32a" 2 5 false; mkTok 4 "=" 2 10 false; mkTok 14 "zchar[" 2 12 false; mkTok 30 "65535" 2 19 false; mkTok 13 "]" 2 25 false; mkTok 41 ";" 2 27 false; mkTok 44 (string_of_bytes [47; 47; 9; 116]%N) 3 0 true; mkTok 44 "// trailing space " 4 0 true; mkTok 42 "Logon" 5 0 false; mkTok 4 "=" 6 4 false; mkTok 44 "// `tick` ""quote"" 'q'" 6 6 true; mkTok 31 """1""" 7 0 false; mkTok 42 "x_y_z" 7 4 false; mkTok 44 "/// triple" 7 10 true; mkTok 4 "=" 8 0 false; mkTok 30 "65535" 8 1 false; mkTok 42 "u" 8 7 false; mkTok 4 "=" 8 8 false; mkTok 31 """// no comment""" 9 4 false; mkTok 41 ";" 10 4 false; mkTok 42 "A" 10 6 false; mkTok 4 "=" 10 8 false; mkTok 31 """a\\""" 10 10 false; mkTok 41 ";" 11 0 false; mkTok 3 "}" 11 2 false; mkTok 44 (string_of_bytes [47; 47; 9; 116]%N) 11 4 true; mkTok 34 "root" 12 0 false; mkTok 35 "packet" 12 5 false; mkTok 42 "BodyLength" 12 12 false; mkTok 2 "{" 12 23 false; mkTok 38 "match" 12 25 false; mkTok 42 "crc" 12 31 false; mkTok 17 "as" 13 0 false; mkTok 42 "charz" 13 3 false; mkTok 2 "{" 13 9 false; mkTok 31 (string_of_bytes [34; 240; 159; 152; 128; 34]%N) 13 11 false; mkTok 39 ":" 13 15 false; mkTok 42 "matchKey" 13 17 false; mkTok 40 "," 13 25 false; mkTok 30 "0123456789" 13 27 false; mkTok 39 ":" 13 38 false; mkTok 42 "T" 14 0 false; mkTok 40 "," 14 1 false; mkTok 31 """it's""" 14 3 false; mkTok 44 (string_of_bytes [47; 47; 32; 230; 179; 168; 233; 135; 138]%N) 14 10 true; mkTok 39 ":" 15 0 false; mkTok 42 "f32a" 15 2 false; mkTok 40 "," 15 6 false; mkTok 30 "7" 16 0 false; mkTok 44 "// `tick` ""quote"" 'q'" 17 0 true; mkTok 44 "// a // b" 18 0 true; mkTok 39 ":" 19 0 false; mkTok 42 "body" 19 2 false; mkTok 40 "," 19 7 false; mkTok 18 "[" 19 9 false; mkTok 30 "7" 19 11 false; mkTok 13 "]" 19 13 false; mkTok 39 ":" 19 16 false; mkTok 42 "x_y_z" 19 18 false; mkTok 40 "," 19 23 false; mkTok 3 "}" 19 25 false; mkTok 40 "," 20 0 false; mkTok 3 "}" 20 3 false; mkTok 37 "MetaData" 21 4 false; mkTok 42 "string_" 22 4 false; mkTok 2 "{" 22 12 false; mkTok 42 "len" 22 14 false; mkTok 42 "metadata" 22 18 false; mkTok 43 (string_of_bytes [96; 108; 105; 110; 101; 49; 10; 108; 105; 110; 101; 50; 96]%N) 22 27 false; mkTok 40 "," 23 7 false; mkTok 29 "f64" 24 4 false; mkTok 42 "calculatedFrom" 24 8 false; mkTok 40 "," 24 23 false; mkTok 42 "x_y_z" 24 24 false; mkTok 42 "x" 24 30 false; mkTok 40 "," 25 0 false; mkTok 12 "char[" 25 2 false; mkTok 30 "0123456789" 25 8 false; mkTok 13 "]" 25 18 false; mkTok 42 "Header" 25 20 false; mkTok 40 "," 25 28 false; mkTok 3 "}" 25 30 false; mkTok 0 "<EOF>" 26 0 false] (mkPacket (mkPtok 1 "options" 1 0 0) (Some (mkPtok 3 "}" 25 30 83)) [(DOption (mkOptionDef (mkSpan (mkPtok 1 "options" 1 0 0) (mkPtok 3 "}" 11 2 26)) (mkPtok 1 "options" 1 0 0) (mkPtok 2 "{" 2 4 1) [(mkOptionDecl (mkSpan (mkPtok 42 "f32a" 2 5 2) (mkPtok 41 ";" 2 27 7)) (mkPtok 42 "f32a" 2 5 2) (mkPtok 4 "=" 2 10 3) (VType (mkSpan (mkPtok 14 "zchar[" 2 12 4) (mkPtok 13 "]" 2 25 6)) (TyFixed (mkSpan (mkPtok 14 "zchar[" 2 12 4) (mkPtok 13 "]" 2 25 6)) (mkFixedString (mkSpan (mkPtok 14 "zchar[" 2 12 4) (mkPtok 13 "]" 2 25 6)) (mkPtok 14 "zchar[" 2 12 4) (mkPtok 30 "65535" 2 19 5) (mkPtok 13 "]" 2 25 6)))) (Some (mkPtok 41 ";" 2 27 7))); (mkOptionDecl (mkSpan (mkPtok 42 "Logon" 5 0 10) (mkPtok 31 """1""" 7 0 13)) (mkPtok 42 "Logon" 5 0 10) (mkPtok 4 "=" 6 4 11) (VString (mkSpan (mkPtok 31 """1""" 7 0 13) (mkPtok 31 """1""" 7 0 13)) (mkPtok 31 """1""" 7 0 13)) None); (mkOptionDecl (mkSpan (mkPtok 42 "x_y_z" 7 4 14) (mkPtok 30 "65535" 8 1 17)) (mkPtok 42 "x_y_z" 7 4 14) (mkPtok 4 "=" 8 0 16) (VDigits (mkSpan (mkPtok 30 "65535" 8 1 17) (mkPtok 30 "65535" 8 1 17)) (mkPtok 30 "65535" 8 1 17)) None); (mkOptionDecl (mkSpan (mkPtok 42 "u" 8 7 18) (mkPtok 41 ";" 10 4 21)) (mkPtok 42 "u" 8 7 18) (mkPtok 4 "=" 8 8 19) (VString (mkSpan (mkPtok 31 """// no comment""" 9 4 20) (mkPtok 31 """// no comment""" 9 4 20)) (mkPtok 31 """// no comment""" 9 4 20)) (Some (mkPtok 41 ";" 10 4 21))); (mkOptionDecl (mkSpan (mkPtok 42 "A" 10 6 22) (mkPtok 41 ";" 11 0 25)) (mkPtok 42 "A" 10 6 22) (mkPtok 4 "=" 10 8 23) (VString (mkSpan (mkPtok 31 """a\\""" 10 10 24) (mkPtok 31 """a\\""" 10 10 24)) (mkPtok 31 """a\\""" 10 10 24)) (Some (mkPtok 41 ";" 11 0 25)))] (mkPtok 3 "}" 11 2 26))); (DPacket (mkPacketDef (mkSpan (mkPtok 34 "root" 12 0 28) (mkPtok 3 "}" 20 3 64)) (Some (mkPtok 34 "root" 12 0 28)) (mkPtok 35 "packet" 12 5 29) (mkPtok 42 "BodyLength" 12 12 30) (mkPtok 2 "{" 12 23 31) [(mkFieldWithAttr (mkSpan (mkPtok 38 "match" 12 25 32) (mkPtok 40 "," 20 0 63)) [] (MatchField (mkSpan (mkPtok 38 "match" 12 25 32) (mkPtok 40 "," 20 0 63)) (mkMatchFieldDecl (mkSpan (mkPtok 38 "match" 12 25 32) (mkPtok 3 "}" 19 25 62)) (mkPtok 38 "match" 12 25 32) (mkPtok 42 "crc" 12 31 33) (mkPtok 17 "as" 13 0 34) (mkPtok 42 "charz" 13 3 35) (mkPtok 2 "{" 13 9 36) [(mkMatchPair (mkSpan (mkPtok 31 (string_of_bytes [34; 240; 159; 152; 128; 34]%N) 13 11 37) (mkPtok 40 "," 13 25 40)) (MKString (mkPtok 31 (string_of_bytes [34; 240; 159; 152; 128; 34]%N) 13 11 37)) (mkPtok 39 ":" 13 15 38) (mkPtok 42 "matchKey" 13 17 39) (Some (mkPtok 40 "," 13 25 40))); (mkMatchPair (mkSpan (mkPtok 30 "0123456789" 13 27 41) (mkPtok 40 "," 14 1 44)) (MKDigits (mkPtok 30 "0123456789" 13 27 41)) (mkPtok 39 ":" 13 38 42) (mkPtok 42 "T" 14 0 43) (Some (mkPtok 40 "," 14 1 44))); (mkMatchPair (mkSpan (mkPtok 31 """it's""" 14 3 45) (mkPtok 40 "," 15 6 49)) (MKString (mkPtok 31 """it's""" 14 3 45)) (mkPtok 39 ":" 15 0 47) (mkPtok 42 "f32a" 15 2 48) (Some (mkPtok 40 "," 15 6 49))); (mkMatchPair (mkSpan (mkPtok 30 "7" 16 0 50) (mkPtok 40 "," 19 7 55)) (MKDigits (mkPtok 30 "7" 16 0 50)) (mkPtok 39 ":" 19 0 53) (mkPtok 42 "body" 19 2 54) (Some (mkPtok 40 "," 19 7 55))); (mkMatchPair (mkSpan (mkPtok 18 "[" 19 9 56) (mkPtok 40 "," 19 23 61)) (MKList (mkKeyList (mkSpan (mkPtok 18 "[" 19 9 56) (mkPtok 13 "]" 19 13 58)) (mkPtok 18 "[" 19 9 56) (mkPtok 30 "7" 19 11 57) [] (mkPtok 13 "]" 19 13 58))) (mkPtok 39 ":" 19 16 59) (mkPtok 42 "x_y_z" 19 18 60) (Some (mkPtok 40 "," 19 23 61)))] (mkPtok 3 "}" 19 25 62)) (mkPtok 40 "," 20 0 63)))] (mkPtok 3 "}" 20 3 64))); (DMeta (mkMetaDef (mkSpan (mkPtok 37 "MetaData" 21 4 65) (mkPtok 3 "}" 25 30 83)) (mkPtok 37 "MetaData" 21 4 65) (mkPtok 42 "string_" 22 4 66) (mkPtok 2 "{" 22 12 67) [(MIRef (mkRefMetaDecl (mkSpan (mkPtok 42 "len" 22 14 68) (mkPtok 40 "," 23 7 71)) (mkPtok 42 "len" 22 14 68) (mkPtok 42 "metadata" 22 18 69) (Some (mkPtok 43 (string_of_bytes [96; 108; 105; 110; 101; 49; 10; 108; 105; 110; 101; 50; 96]%N) 22 27 70)) (mkPtok 40 "," 23 7 71))); (MIDecl (mkMetaDecl (mkSpan (mkPtok 29 "f64" 24 4 72) (mkPtok 40 "," 24 23 74)) (TyBasic (mkSpan (mkPtok 29 "f64" 24 4 72) (mkPtok 29 "f64" 24 4 72)) (mkBasicType (mkSpan (mkPtok 29 "f64" 24 4 72) (mkPtok 29 "f64" 24 4 72)) (mkPtok 29 "f64" 24 4 72))) (mkPtok 42 "calculatedFrom" 24 8 73) None (mkPtok 40 "," 24 23 74))); (MIRef (mkRefMetaDecl (mkSpan (mkPtok 42 "x_y_z" 24 24 75) (mkPtok 40 "," 25 0 77)) (mkPtok 42 "x_y_z" 24 24 75) (mkPtok 42 "x" 24 30 76) None (mkPtok 40 "," 25 0 77))); (MIDecl (mkMetaDecl (mkSpan (mkPtok 12 "char[" 25 2 78) (mkPtok 40 "," 25 28 82)) (TyFixed (mkSpan (mkPtok 12 "char[" 25 2 78) (mkPtok 13 "]" 25 18 80)) (mkFixedString (mkSpan (mkPtok 12 "char[" 25 2 78) (mkPtok 13 "]" 25 18 80)) (mkPtok 12 "char[" 25 2 78) (mkPtok 30 "0123456789" 25 8 79) (mkPtok 13 "]" 25 18 80))) (mkPtok 42 "Header" 25 20 81) None (mkPtok 40 "," 25 28 82)))] (mkPtok 3 "}" 25 30 83)))])).
+Eval vm_compute in ("<<<M115>>>" ++ check (runes_of_ascii "
+packet repeatCount {
+    matchKey roots`crlf
+line` , char
+    int@lengthOf(
+x_y_z  ) , calculatedFrom @calculatedFrom(
+""a\""b"" // packet A { u8 x, }
+) , }
+root packet f32a
+    {
 /// triple
-,
-// " ++ [27880; 37322]%N ++ runes_of_ascii "
 // trailing space 
-7 :lengthOf 0:
-len
-// trailing space 
+@rightPad (
+'0' // " ++ [27880; 37322]%N ++ runes_of_ascii "
+) repeat u8 Pad, trueish calculatedFrom
+    // `tick` ""quote"" 'q'
+    , @calculatedFrom(
+""" ++ [28040; 24687]%N ++ runes_of_ascii """ ) match msg_type
+    as pack {""abc""
+:
+repeatCount ,
+""{,}"" : repeatCount  ""a	b"" : calculatedFrom } ,} root packet repeatCount  { int32
+    //
+    stringy ,/// triple
+}
+root packet//	t
+BodyLength {@lengthOf( As )//x
+repeat charz { match chars
+as chars { 0
+: MetaDataX ""\n"" :
+    // trailing space 
+    crc	,
+    } , } , }")).
+Eval vm_compute in ("<<<M147>>>" ++ check (runes_of_ascii "MetaData
+Logon {string //x
+a1`{ , }`
+    , string
+a1,Logon charz,zchar[ 42 ]Z9_ ,
 // packet A { u8 x, }
-,
-10 :  len , [ //	t
-0
-] : A
-    //	t
-    , }, }")).
-Eval vm_compute in ("<<<M307>>>" ++ check (runes_of_ascii "root
-    packet
-//	t
+//
+} options { packetx =
+    00; tag = zchar[
+    0123456789]
+    i64_	=
+    ""\" ++ [233]%N ++ runes_of_ascii """ As
+    =""CRC32"" ;body
+=
+255 ;}// 50% %s
+MetaData Packet { u64
+    // 50% %s
+    x
+, zchar[ 7 ] matchKey
+`" ++ [28040; 24687; 31867; 22411]%N ++ runes_of_ascii "` ,
+    string_
+    As ,	} // @lengthOf(")).
+Eval vm_compute in ("<<<M179>>>" ++ check (runes_of_ascii "
+")).
+Eval vm_compute in ("<<<M211>>>" ++ check (runes_of_ascii "packet MetaDataX { int @calculatedFrom( ""`tick`"" ) ,
+}")).
+Eval vm_compute in ("<<<M243>>>" ++ check (runes_of_ascii "packet
+stringy
+{ @lengthOf( string_
+)matchKey
+    @lengthOf( float
+)
+, @leftPad
+(  '0' ) match i8i8 as x
+    {[65535 , 10 , 4294967296] : repeatCount,""// no comment"" : // 50% %s
+stringy ,
+} , }MetaData repeatCount { u32 metadata, } MetaData	crc {
+repeatCount f32a ``
+    , }")).
+Eval vm_compute in ("<<<M275>>>" ++ check (runes_of_ascii "root packet body { o {a1
+rootA , },@leftPad
+( ' ' // a // b
+)
+    // packet A { u8 x, }
+    charz int, repeat packetx
+// trailing space 
+// " ++ [128512]%N ++ runes_of_ascii " emoji
+{ repeat Z9_{  lengthOf @calculatedFrom( ""`tick`""
+    )
+`a\` ,
+} ,int8 i64_
+// `tick` ""quote"" 'q'
+// 50% %s
+,} , @lengthOf(
+    len ) repeat
+    zchar{
+    /// triple
+    Pad a1 , int16 a1 @calculatedFrom(
+    ""1""// 50% %s
+) `` ,	rootA	{ match a1 as options1	{ 4294967296 :  Header ,""{,}""
+    :i8i8 [ """ ++ [28040; 24687]%N ++ runes_of_ascii """ , 7 ] :x , """":i64_ , }
+, f32a // " ++ [27880; 37322]%N ++ runes_of_ascii "
+{
+    repeat
+    a1 ,
+    // c
+    len // c
+@calculatedFrom( ""abc"") , } ,// `tick` ""quote"" 'q'
+repeat	zchar[10 ] stringy	`a\`,
+repeat calculatedFrom // " ++ [128512]%N ++ runes_of_ascii " emoji
+{ repeat repeatCount
 // c
-charz{
-f32 stringy // @lengthOf(
-, @rightPad ( '\x00'
-    ) metadata
-    { MetaDataX
-A
+//	t
+, repeat i32 Pad `" ++ [28040; 24687; 31867; 22411]%N ++ runes_of_ascii "` ,	}
+,} ,
+lengthOf{ lengthOf @calculatedFrom( ""it's"") ,  char[]  Pad`say ""hi""`
+, },
+} ,
+zchar[
+0123456789 ]
+chars,	float
+@lengthOf(
+asx )
+, zchar{
+    match msg_type as Packet { ""packet"" : packetx 1: chars , 0123456789
+: metadata 255 : lengthOf
+// trailing space 
+/// triple
+,""// no comment"": a1,// 50% %s
+4294967296 :  pack , } ,
+    }	, @leftPad (  ) char[ 00
+    ] rootA ,
+    MetaDataX { match float
+    as body{
+// `tick` ""quote"" 'q'
+// @lengthOf(
+[ ""a\""b"" , 007] :
+// @lengthOf(
+// 50% %s
+_x  , } , match calculatedFrom as
+x_y_z { // a // b
+0123456789 :o 0 : a1 , }  ,_x{ match body// a // b
+as	As	{
+7: pack
+,
+// trailing space 
+// `tick` ""quote"" 'q'
+""it's""
+    : f32a , } , }
+, repeat
+char[] x
+    `a\`, } , }
+packet x_y_z{repeat
+Pad
+    // c
+    { int32 int
+//	t
+// a // b
+@calculatedFrom( ""CRC32""
+    )
+    // c
+    , }  , @tag( 3	)
+    @lengthOf(roots )	@tag( 00 ) match rootA
+    as
+// trailing space 
+// c
+u{ [7] : string_ [// " ++ [128512]%N ++ runes_of_ascii " emoji
+10
+, ""CRC32""
+,
+007
+]
+    :
+Logon
+, 007
+:metadata // `tick` ""quote"" 'q'
+,
+255:
+/// triple
+// c
+As [ // " ++ [27880; 37322]%N ++ runes_of_ascii "
+""packet""
+    ]:zchar}
+//x
+// a // b
+, }	packet roots	{	float64
+/// triple
+// `tick` ""quote"" 'q'
+Packet, }
+")).
+Eval vm_compute in ("<<<M307>>>" ++ check (runes_of_ascii "packet falsey { options1 float , i8i8
+{ a1  @lengthOf( calculatedFrom ) ,	zchar[	0  ]Foo
+    // packet A { u8 x, }
+    ,repeat T
+    //
+    {
+    match trueish as crc
+{ 42 : T
+, } ,string	_x `tab	here` ,repeatCount // trailing space 
+{ char[]
+// `tick` ""quote"" 'q'
+// " ++ [128512]%N ++ runes_of_ascii " emoji
+u,u16 msg_type `{ , }` , }
+, } , match
+    /// triple
+    x_y_z
+as	zchar  { [ 00 ]: Z9_, }
+, } ,
+repeat u8 charz , @tag(
+    255 ) match lengthOf as
+tag
+{  ""1"" :  u8x , """ ++ [28040; 24687]%N ++ runes_of_ascii """ :msg_type[ 7 ,
+""\n"" ] : Z9_ , 10: leftPad ,
+    }
+, @calculatedFrom( ""a\\"")	string
+    rootA @calculatedFrom( ""a	b"") `` , u8x `a\`
+    // `tick` ""quote"" 'q'
+    ,}
+")).
+Eval vm_compute in ("<<<T307>>>" ++ terms [mkTok 35 "packet" 1 0 false; mkTok 42 "falsey" 1 7 false; mkTok 2 "{" 1 14 false; mkTok 42 "options1" 1 16 false; mkTok 42 "float" 1 25 false; mkTok 40 "," 1 31 false; mkTok 42 "i8i8" 1 33 false; mkTok 2 "{" 2 0 false; mkTok 42 "a1" 2 2 false; mkTok 7 "@lengthOf(" 2 6 false; mkTok 42 "calculatedFrom" 2 17 false; mkTok 6 ")" 2 32 false; mkTok 40 "," 2 34 false; mkTok 14 "zchar[" 2 36 false; mkTok 30 "0" 2 43 false; mkTok 13 "]" 2 46 false; mkTok 42 "Foo" 2 47 false; mkTok 44 "// packet A { u8 x, }" 3 4 true; mkTok 40 "," 4 4 false; mkTok 36 "repeat" 4 5 false; mkTok 42 "T" 4 12 false; mkTok 44 "//" 5 4 true; mkTok 2 "{" 6 4 false; mkTok 38 "match" 7 4 false; mkTok 42 "trueish" 7 10 false; mkTok 17 "as" 7 18 false; mkTok 42 "crc" 7 21 false; mkTok 2 "{" 8 0 false; mkTok 30 "42" 8 2 false; mkTok 39 ":" 8 5 false; mkTok 42 "T" 8 7 false; mkTok 40 "," 9 0 false; mkTok 3 "}" 9 2 false; mkTok 40 "," 9 4 false; mkTok 15 "string" 9 5 false; mkTok 42 "_x" 9 12 false; mkTok 43 (string_of_bytes [96; 116; 97; 98; 9; 104; 101; 114; 101; 96]%N) 9 15 false; mkTok 40 "," 9 26 false; mkTok 42 "repeatCount" 9 27 false; mkTok 44 "// trailing space " 9 39 true; mkTok 2 "{" 10 0 false; mkTok 16 "char[]" 10 2 false; mkTok 44 "// `tick` ""quote"" 'q'" 11 0 true; mkTok 44 (string_of_bytes [47; 47; 32; 240; 159; 152; 128; 32; 101; 109; 111; 106; 105]%N) 12 0 true; mkTok 42 "u" 13 0 false; mkTok 40 "," 13 1 false; mkTok 21 "u16" 13 2 false; mkTok 42 "msg_type" 13 6 false; mkTok 43 "`{ , }`" 13 15 false; mkTok 40 "," 13 23 false; mkTok 3 "}" 13 25 false; mkTok 40 "," 14 0 false; mkTok 3 "}" 14 2 false; mkTok 40 "," 14 4 false; mkTok 38 "match" 14 6 false; mkTok 44 "/// triple" 15 4 true; mkTok 42 "x_y_z" 16 4 false; mkTok 17 "as" 17 0 false; mkTok 42 "zchar" 17 3 false; mkTok 2 "{" 17 10 false; mkTok 18 "[" 17 12 false; mkTok 30 "00" 17 14 false; mkTok 13 "]" 17 17 false; mkTok 39 ":" 17 18 false; mkTok 42 "Z9_" 17 20 false; mkTok 40 "," 17 23 false; mkTok 3 "}" 17 25 false; mkTok 40 "," 18 0 false; mkTok 3 "}" 18 2 false; mkTok 40 "," 18 4 false; mkTok 36 "repeat" 19 0 false; mkTok 20 "u8" 19 7 false; mkTok 42 "charz" 19 10 false; mkTok 40 "," 19 16 false; mkTok 9 "@tag(" 19 18 false; mkTok 30 "255" 20 4 false; mkTok 6 ")" 20 8 false; mkTok 38 "match" 20 10 false; mkTok 42 "lengthOf" 20 16 false; mkTok 17 "as" 20 25 false; mkTok 42 "tag" 21 0 false; mkTok 2 "{" 22 0 false; mkTok 31 """1""" 22 3 false; mkTok 39 ":" 22 7 false; mkTok 42 "u8x" 22 10 false; mkTok 40 "," 22 14 false; mkTok 31 (string_of_bytes [34; 230; 182; 136; 230; 129; 175; 34]%N) 22 16 false; mkTok 39 ":" 22 21 false; mkTok 42 "msg_type" 22 22 false; mkTok 18 "[" 22 30 false; mkTok 30 "7" 22 32 false; mkTok 40 "," 22 34 false; mkTok 31 """\n""" 23 0 false; mkTok 13 "]" 23 5 false; mkTok 39 ":" 23 7 false; mkTok 42 "Z9_" 23 9 false; mkTok 40 "," 23 13 false; mkTok 30 "10" 23 15 false; mkTok 39 ":" 23 17 false; mkTok 42 "leftPad" 23 19 false; mkTok 40 "," 23 27 false; mkTok 3 "}" 24 4 false; mkTok 40 "," 25 0 false; mkTok 5 "@calculatedFrom(" 25 2 false; mkTok 31 """a\\""" 25 19 false; mkTok 6 ")" 25 24 false; mkTok 15 "string" 25 26 false; mkTok 42 "rootA" 26 4 false; mkTok 5 "@calculatedFrom(" 26 10 false; mkTok 31 (string_of_bytes [34; 97; 9; 98; 34]%N) 26 27 false; mkTok 6 ")" 26 32 false; mkTok 43 "``" 26 34 false; mkTok 40 "," 26 37 false; mkTok 42 "u8x" 26 39 false; mkTok 43 "`a\`" 26 43 false; mkTok 44 "// `tick` ""quote"" 'q'" 27 4 true; mkTok 40 "," 28 4 false; mkTok 3 "}" 28 5 false; mkTok 0 "<EOF>" 29 0 false] (mkPacket (mkPtok 35 "packet" 1 0 0) (Some (mkPtok 3 "}" 28 5 117)) [(DPacket (mkPacketDef (mkSpan (mkPtok 35 "packet" 1 0 0) (mkPtok 3 "}" 28 5 117)) None (mkPtok 35 "packet" 1 0 0) (mkPtok 42 "falsey" 1 7 1) (mkPtok 2 "{" 1 14 2) [(mkFieldWithAttr (mkSpan (mkPtok 42 "options1" 1 16 3) (mkPtok 40 "," 1 31 5)) [] (ObjectField (mkSpan (mkPtok 42 "options1" 1 16 3) (mkPtok 40 "," 1 31 5)) None (mkPtok 42 "options1" 1 16 3) (Some (mkPtok 42 "float" 1 25 4)) None (mkPtok 40 "," 1 31 5))); (mkFieldWithAttr (mkSpan (mkPtok 42 "i8i8" 1 33 6) (mkPtok 40 "," 18 4 69)) [] (InerObjectField (mkSpan (mkPtok 42 "i8i8" 1 33 6) (mkPtok 40 "," 18 4 69)) None (InerObjectDecl (mkSpan (mkPtok 42 "i8i8" 1 33 6) (mkPtok 3 "}" 18 2 68)) (mkPtok 42 "i8i8" 1 33 6) (mkPtok 2 "{" 2 0 7) [(LengthField (mkSpan (mkPtok 42 "a1" 2 2 8) (mkPtok 40 "," 2 34 12)) (mkLengthFieldDecl (mkSpan (mkPtok 42 "a1" 2 2 8) (mkPtok 40 "," 2 34 12)) None (mkPtok 42 "a1" 2 2 8) (mkLengthOf (mkSpan (mkPtok 7 "@lengthOf(" 2 6 9) (mkPtok 6 ")" 2 32 11)) (mkPtok 7 "@lengthOf(" 2 6 9) (mkPtok 42 "calculatedFrom" 2 17 10) (mkPtok 6 ")" 2 32 11)) None (mkPtok 40 "," 2 34 12))); (MetaField (mkSpan (mkPtok 14 "zchar[" 2 36 13) (mkPtok 40 "," 4 4 18)) None (mkMetaDecl (mkSpan (mkPtok 14 "zchar[" 2 36 13) (mkPtok 40 "," 4 4 18)) (TyFixed (mkSpan (mkPtok 14 "zchar[" 2 36 13) (mkPtok 13 "]" 2 46 15)) (mkFixedString (mkSpan (mkPtok 14 "zchar[" 2 36 13) (mkPtok 13 "]" 2 46 15)) (mkPtok 14 "zchar[" 2 36 13) (mkPtok 30 "0" 2 43 14) (mkPtok 13 "]" 2 46 15))) (mkPtok 42 "Foo" 2 47 16) None (mkPtok 40 "," 4 4 18))); (InerObjectField (mkSpan (mkPtok 36 "repeat" 4 5 19) (mkPtok 40 "," 14 4 53)) (Some (mkPtok 36 "repeat" 4 5 19)) (InerObjectDecl (mkSpan (mkPtok 42 "T" 4 12 20) (mkPtok 3 "}" 14 2 52)) (mkPtok 42 "T" 4 12 20) (mkPtok 2 "{" 6 4 22) [(MatchField (mkSpan (mkPtok 38 "match" 7 4 23) (mkPtok 40 "," 9 4 33)) (mkMatchFieldDecl (mkSpan (mkPtok 38 "match" 7 4 23) (mkPtok 3 "}" 9 2 32)) (mkPtok 38 "match" 7 4 23) (mkPtok 42 "trueish" 7 10 24) (mkPtok 17 "as" 7 18 25) (mkPtok 42 "crc" 7 21 26) (mkPtok 2 "{" 8 0 27) [(mkMatchPair (mkSpan (mkPtok 30 "42" 8 2 28) (mkPtok 40 "," 9 0 31)) (MKDigits (mkPtok 30 "42" 8 2 28)) (mkPtok 39 ":" 8 5 29) (mkPtok 42 "T" 8 7 30) (Some (mkPtok 40 "," 9 0 31)))] (mkPtok 3 "}" 9 2 32)) (mkPtok 40 "," 9 4 33)); (MetaField (mkSpan (mkPtok 15 "string" 9 5 34) (mkPtok 40 "," 9 26 37)) None (mkMetaDecl (mkSpan (mkPtok 15 "string" 9 5 34) (mkPtok 40 "," 9 26 37)) (TyDynamic (mkSpan (mkPtok 15 "string" 9 5 34) (mkPtok 15 "string" 9 5 34)) (mkDynamicString (mkSpan (mkPtok 15 "string" 9 5 34) (mkPtok 15 "string" 9 5 34)) (mkPtok 15 "string" 9 5 34))) (mkPtok 42 "_x" 9 12 35) (Some (mkPtok 43 (string_of_bytes [96; 116; 97; 98; 9; 104; 101; 114; 101; 96]%N) 9 15 36)) (mkPtok 40 "," 9 26 37))); (InerObjectField (mkSpan (mkPtok 42 "repeatCount" 9 27 38) (mkPtok 40 "," 14 0 51)) None (InerObjectDecl (mkSpan (mkPtok 42 "repeatCount" 9 27 38) (mkPtok 3 "}" 13 25 50)) (mkPtok 42 "repeatCount" 9 27 38) (mkPtok 2 "{" 10 0 40) [(MetaField (mkSpan (mkPtok 16 "char[]" 10 2 41) (mkPtok 40 "," 13 1 45)) None (mkMetaDecl (mkSpan (mkPtok 16 "char[]" 10 2 41) (mkPtok 40 "," 13 1 45)) (TyDynamic (mkSpan (mkPtok 16 "char[]" 10 2 41) (mkPtok 16 "char[]" 10 2 41)) (mkDynamicString (mkSpan (mkPtok 16 "char[]" 10 2 41) (mkPtok 16 "char[]" 10 2 41)) (mkPtok 16 "char[]" 10 2 41))) (mkPtok 42 "u" 13 0 44) None (mkPtok 40 "," 13 1 45))); (MetaField (mkSpan (mkPtok 21 "u16" 13 2 46) (mkPtok 40 "," 13 23 49)) None (mkMetaDecl (mkSpan (mkPtok 21 "u16" 13 2 46) (mkPtok 40 "," 13 23 49)) (TyBasic (mkSpan (mkPtok 21 "u16" 13 2 46) (mkPtok 21 "u16" 13 2 46)) (mkBasicType (mkSpan (mkPtok 21 "u16" 13 2 46) (mkPtok 21 "u16" 13 2 46)) (mkPtok 21 "u16" 13 2 46))) (mkPtok 42 "msg_type" 13 6 47) (Some (mkPtok 43 "`{ , }`" 13 15 48)) (mkPtok 40 "," 13 23 49)))] (mkPtok 3 "}" 13 25 50)) (mkPtok 40 "," 14 0 51))] (mkPtok 3 "}" 14 2 52)) (mkPtok 40 "," 14 4 53)); (MatchField (mkSpan (mkPtok 38 "match" 14 6 54) (mkPtok 40 "," 18 0 67)) (mkMatchFieldDecl (mkSpan (mkPtok 38 "match" 14 6 54) (mkPtok 3 "}" 17 25 66)) (mkPtok 38 "match" 14 6 54) (mkPtok 42 "x_y_z" 16 4 56) (mkPtok 17 "as" 17 0 57) (mkPtok 42 "zchar" 17 3 58) (mkPtok 2 "{" 17 10 59) [(mkMatchPair (mkSpan (mkPtok 18 "[" 17 12 60) (mkPtok 40 "," 17 23 65)) (MKList (mkKeyList (mkSpan (mkPtok 18 "[" 17 12 60) (mkPtok 13 "]" 17 17 62)) (mkPtok 18 "[" 17 12 60) (mkPtok 30 "00" 17 14 61) [] (mkPtok 13 "]" 17 17 62))) (mkPtok 39 ":" 17 18 63) (mkPtok 42 "Z9_" 17 20 64) (Some (mkPtok 40 "," 17 23 65)))] (mkPtok 3 "}" 17 25 66)) (mkPtok 40 "," 18 0 67))] (mkPtok 3 "}" 18 2 68)) (mkPtok 40 "," 18 4 69))); (mkFieldWithAttr (mkSpan (mkPtok 36 "repeat" 19 0 70) (mkPtok 40 "," 19 16 73)) [] (MetaField (mkSpan (mkPtok 36 "repeat" 19 0 70) (mkPtok 40 "," 19 16 73)) (Some (mkPtok 36 "repeat" 19 0 70)) (mkMetaDecl (mkSpan (mkPtok 20 "u8" 19 7 71) (mkPtok 40 "," 19 16 73)) (TyBasic (mkSpan (mkPtok 20 "u8" 19 7 71) (mkPtok 20 "u8" 19 7 71)) (mkBasicType (mkSpan (mkPtok 20 "u8" 19 7 71) (mkPtok 20 "u8" 19 7 71)) (mkPtok 20 "u8" 19 7 71))) (mkPtok 42 "charz" 19 10 72) None (mkPtok 40 "," 19 16 73)))); (mkFieldWithAttr (mkSpan (mkPtok 9 "@tag(" 19 18 74) (mkPtok 40 "," 25 0 102)) [(FATag (mkSpan (mkPtok 9 "@tag(" 19 18 74) (mkPtok 6 ")" 20 8 76)) (mkTagAttr (mkSpan (mkPtok 9 "@tag(" 19 18 74) (mkPtok 6 ")" 20 8 76)) (mkPtok 9 "@tag(" 19 18 74) (mkPtok 30 "255" 20 4 75) (mkPtok 6 ")" 20 8 76)))] (MatchField (mkSpan (mkPtok 38 "match" 20 10 77) (mkPtok 40 "," 25 0 102)) (mkMatchFieldDecl (mkSpan (mkPtok 38 "match" 20 10 77) (mkPtok 3 "}" 24 4 101)) (mkPtok 38 "match" 20 10 77) (mkPtok 42 "lengthOf" 20 16 78) (mkPtok 17 "as" 20 25 79) (mkPtok 42 "tag" 21 0 80) (mkPtok 2 "{" 22 0 81) [(mkMatchPair (mkSpan (mkPtok 31 """1""" 22 3 82) (mkPtok 40 "," 22 14 85)) (MKString (mkPtok 31 """1""" 22 3 82)) (mkPtok 39 ":" 22 7 83) (mkPtok 42 "u8x" 22 10 84) (Some (mkPtok 40 "," 22 14 85))); (mkMatchPair (mkSpan (mkPtok 31 (string_of_bytes [34; 230; 182; 136; 230; 129; 175; 34]%N) 22 16 86) (mkPtok 42 "msg_type" 22 22 88)) (MKString (mkPtok 31 (string_of_bytes [34; 230; 182; 136; 230; 129; 175; 34]%N) 22 16 86)) (mkPtok 39 ":" 22 21 87) (mkPtok 42 "msg_type" 22 22 88) None); (mkMatchPair (mkSpan (mkPtok 18 "[" 22 30 89) (mkPtok 40 "," 23 13 96)) (MKList (mkKeyList (mkSpan (mkPtok 18 "[" 22 30 89) (mkPtok 13 "]" 23 5 93)) (mkPtok 18 "[" 22 30 89) (mkPtok 30 "7" 22 32 90) [((mkPtok 40 "," 22 34 91), (mkPtok 31 """\n""" 23 0 92))] (mkPtok 13 "]" 23 5 93))) (mkPtok 39 ":" 23 7 94) (mkPtok 42 "Z9_" 23 9 95) (Some (mkPtok 40 "," 23 13 96))); (mkMatchPair (mkSpan (mkPtok 30 "10" 23 15 97) (mkPtok 40 "," 23 27 100)) (MKDigits (mkPtok 30 "10" 23 15 97)) (mkPtok 39 ":" 23 17 98) (mkPtok 42 "leftPad" 23 19 99) (Some (mkPtok 40 "," 23 27 100)))] (mkPtok 3 "}" 24 4 101)) (mkPtok 40 "," 25 0 102))); (mkFieldWithAttr (mkSpan (mkPtok 5 "@calculatedFrom(" 25 2 103) (mkPtok 40 "," 26 37 112)) [(FACalculatedFrom (mkSpan (mkPtok 5 "@calculatedFrom(" 25 2 103) (mkPtok 6 ")" 25 24 105)) (mkCalculatedFrom (mkSpan (mkPtok 5 "@calculatedFrom(" 25 2 103) (mkPtok 6 ")" 25 24 105)) (mkPtok 5 "@calculatedFrom(" 25 2 103) (mkPtok 31 """a\\""" 25 19 104) (mkPtok 6 ")" 25 24 105)))] (CheckSumField (mkSpan (mkPtok 15 "string" 25 26 106) (mkPtok 40 "," 26 37 112)) (mkChecksumFieldDecl (mkSpan (mkPtok 15 "string" 25 26 106) (mkPtok 40 "," 26 37 112)) (Some (TyDynamic (mkSpan (mkPtok 15 "string" 25 26 106) (mkPtok 15 "string" 25 26 106)) (mkDynamicString (mkSpan (mkPtok 15 "string" 25 26 106) (mkPtok 15 "string" 25 26 106)) (mkPtok 15 "string" 25 26 106)))) (mkPtok 42 "rootA" 26 4 107) (mkCalculatedFrom (mkSpan (mkPtok 5 "@calculatedFrom(" 26 10 108) (mkPtok 6 ")" 26 32 110)) (mkPtok 5 "@calculatedFrom(" 26 10 108) (mkPtok 31 (string_of_bytes [34; 97; 9; 98; 34]%N) 26 27 109) (mkPtok 6 ")" 26 32 110)) (Some (mkPtok 43 "``" 26 34 111)) (mkPtok 40 "," 26 37 112)))); (mkFieldWithAttr (mkSpan (mkPtok 42 "u8x" 26 39 113) (mkPtok 40 "," 28 4 116)) [] (ObjectField (mkSpan (mkPtok 42 "u8x" 26 39 113) (mkPtok 40 "," 28 4 116)) None (mkPtok 42 "u8x" 26 39 113) None (Some (mkPtok 43 "`a\`" 26 43 114)) (mkPtok 40 "," 28 4 116)))] (mkPtok 3 "}" 28 5 117)))])).
+Eval vm_compute in ("<<<M339>>>" ++ check (@nil rune)).
+Eval vm_compute in ("<<<M371>>>" ++ check (runes_of_ascii "root packet
+len
+{ // " ++ [27880; 37322]%N ++ runes_of_ascii "
+@lengthOf( falsey ) @calculatedFrom( """ ++ [128512]%N ++ runes_of_ascii """
+)	@tag(10 )
+int32//	t
+pack `// not a comment` , repeat char[]
+crc, match u8x as
+    asx
+{ // c
+7 :int// trailing space 
+,	3 : repeatCount 10
+: /// triple
+a1 ,
+""CRC32"" :msg_type} ,}
+MetaData int {char[ 255
+    ] metadata
+    `100% of %d` , }")).
+Eval vm_compute in ("<<<M403>>>" ++ check (runes_of_ascii "MetaData Foo
+// " ++ [27880; 37322]%N ++ runes_of_ascii "
+// 50% %s
+{ }")).
+Eval vm_compute in ("<<<M435>>>" ++ check (runes_of_ascii "packet float
+    {  }")).
+Eval vm_compute in ("<<<M467>>>" ++ check (runes_of_ascii "
+packet uint8x { match stringy as
+lengthOf
+{ 00 : roots,
+    } ,match zchar as body {
+""// no comment"": // packet A { u8 x, }
+MetaDataX [""`tick`"" ,
+""\n""] : i8i8 , ""// no comment"" :
+    float
+""x y"" : body
+, } ,
+@tag( 00 )
+    f32a@calculatedFrom( ""CRC32"") ,  uint32
+i8i8
+    ,
+@rightPad( ' ' ) zchar[4294967296]
+rootA ,} packet // c
+metadata { // a // b
+T  {
+    u8x {match
+    As as trueish
+    { // packet A { u8 x, }
+[
+    ""\" ++ [233]%N ++ runes_of_ascii """ ] : Header // " ++ [128512]%N ++ runes_of_ascii " emoji
+, },
+repeat stringy //
+options1 , repeat u8x{
+float32
+int @lengthOf( BodyLength) `line1
+line2`
     // `tick` ""quote"" 'q'
     , }
 ,
-repeat zchar[ 0/// triple
-] u8x , @calculatedFrom( // @lengthOf(
-""it's"")
-    match trueish as
-u128 { ""{,}"" :
-    stringy
-} ,}
-    packet Packet
-{char[ 3]  int @calculatedFrom( ""x y""
-) ,
-}
-MetaData Packet { u128 trueish `" ++ [28040; 24687; 31867; 22411]%N ++ runes_of_ascii "` , int8 pack,
-    // packet A { u8 x, }
-    zchar[ 00 //x
-] repeatCount `a\` ,
-    // c
-    }
-")).
-Eval vm_compute in ("<<<T307>>>" ++ terms [mkTok 34 "root" 1 0 false; mkTok 35 "packet" 2 4 false; mkTok 44 (string_of_bytes [47; 47; 9; 116]%N) 3 0 true; mkTok 44 "// c" 4 0 true; mkTok 42 "charz" 5 0 false; mkTok 2 "{" 5 5 false; mkTok 28 "f32" 6 0 false; mkTok 42 "stringy" 6 4 false; mkTok 44 "// @lengthOf(" 6 12 true; mkTok 40 "," 7 0 false; mkTok 32 "@rightPad" 7 2 false; mkTok 8 "(" 7 12 false; mkTok 33 "'\x00'" 7 14 false; mkTok 6 ")" 8 4 false; mkTok 42 "metadata" 8 6 false; mkTok 2 "{" 9 4 false; mkTok 42 "MetaDataX" 9 6 false; mkTok 42 "A" 10 0 false; mkTok 44 "// `tick` ""quote"" 'q'" 11 4 true; mkTok 40 "," 12 4 false; mkTok 3 "}" 12 6 false; mkTok 40 "," 13 0 false; mkTok 36 "repeat" 14 0 false; mkTok 14 "zchar[" 14 7 false; mkTok 30 "0" 14 14 false; mkTok 44 "/// triple" 14 15 true; mkTok 13 "]" 15 0 false; mkTok 42 "u8x" 15 2 false; mkTok 40 "," 15 6 false; mkTok 5 "@calculatedFrom(" 15 8 false; mkTok 44 "// @lengthOf(" 15 25 true; mkTok 31 """it's""" 16 0 false; mkTok 6 ")" 16 6 false; mkTok 38 "match" 17 4 false; mkTok 42 "trueish" 17 10 false; mkTok 17 "as" 17 18 false; mkTok 42 "u128" 18 0 false; mkTok 2 "{" 18 5 false; mkTok 31 """{,}""" 18 7 false; mkTok 39 ":" 18 13 false; mkTok 42 "stringy" 19 4 false; mkTok 3 "}" 20 0 false; mkTok 40 "," 20 2 false; mkTok 3 "}" 20 3 false; mkTok 35 "packet" 21 4 false; mkTok 42 "Packet" 21 11 false; mkTok 2 "{" 22 0 false; mkTok 12 "char[" 22 1 false; mkTok 30 "3" 22 7 false; mkTok 13 "]" 22 8 false; mkTok 42 "int" 22 11 false; mkTok 5 "@calculatedFrom(" 22 15 false; mkTok 31 """x y""" 22 32 false; mkTok 6 ")" 23 0 false; mkTok 40 "," 23 2 false; mkTok 3 "}" 24 0 false; mkTok 37 "MetaData" 25 0 false; mkTok 42 "Packet" 25 9 false; mkTok 2 "{" 25 16 false; mkTok 42 "u128" 25 18 false; mkTok 42 "trueish" 25 23 false; mkTok 43 (string_of_bytes [96; 230; 182; 136; 230; 129; 175; 231; 177; 187; 229; 158; 139; 96]%N) 25 31 false; mkTok 40 "," 25 38 false; mkTok 24 "int8" 25 40 false; mkTok 42 "pack" 25 45 false; mkTok 40 "," 25 49 false; mkTok 44 "// packet A { u8 x, }" 26 4 true; mkTok 14 "zchar[" 27 4 false; mkTok 30 "00" 27 11 false; mkTok 44 "//x" 27 14 true; mkTok 13 "]" 28 0 false; mkTok 42 "repeatCount" 28 2 false; mkTok 43 "`a\`" 28 14 false; mkTok 40 "," 28 19 false; mkTok 44 "// c" 29 4 true; mkTok 3 "}" 30 4 false; mkTok 0 "<EOF>" 31 0 false] (mkPacket (mkPtok 34 "root" 1 0 0) (Some (mkPtok 3 "}" 30 4 75)) [(DPacket (mkPacketDef (mkSpan (mkPtok 34 "root" 1 0 0) (mkPtok 3 "}" 20 3 43)) (Some (mkPtok 34 "root" 1 0 0)) (mkPtok 35 "packet" 2 4 1) (mkPtok 42 "charz" 5 0 4) (mkPtok 2 "{" 5 5 5) [(mkFieldWithAttr (mkSpan (mkPtok 28 "f32" 6 0 6) (mkPtok 40 "," 7 0 9)) [] (MetaField (mkSpan (mkPtok 28 "f32" 6 0 6) (mkPtok 40 "," 7 0 9)) None (mkMetaDecl (mkSpan (mkPtok 28 "f32" 6 0 6) (mkPtok 40 "," 7 0 9)) (TyBasic (mkSpan (mkPtok 28 "f32" 6 0 6) (mkPtok 28 "f32" 6 0 6)) (mkBasicType (mkSpan (mkPtok 28 "f32" 6 0 6) (mkPtok 28 "f32" 6 0 6)) (mkPtok 28 "f32" 6 0 6))) (mkPtok 42 "stringy" 6 4 7) None (mkPtok 40 "," 7 0 9)))); (mkFieldWithAttr (mkSpan (mkPtok 32 "@rightPad" 7 2 10) (mkPtok 40 "," 13 0 21)) [(FAPadding (mkSpan (mkPtok 32 "@rightPad" 7 2 10) (mkPtok 6 ")" 8 4 13)) (mkPaddingAttr (mkSpan (mkPtok 32 "@rightPad" 7 2 10) (mkPtok 6 ")" 8 4 13)) (mkPtok 32 "@rightPad" 7 2 10) (mkPtok 8 "(" 7 12 11) (Some (mkPtok 33 "'\x00'" 7 14 12)) (mkPtok 6 ")" 8 4 13)))] (InerObjectField (mkSpan (mkPtok 42 "metadata" 8 6 14) (mkPtok 40 "," 13 0 21)) None (InerObjectDecl (mkSpan (mkPtok 42 "metadata" 8 6 14) (mkPtok 3 "}" 12 6 20)) (mkPtok 42 "metadata" 8 6 14) (mkPtok 2 "{" 9 4 15) [(ObjectField (mkSpan (mkPtok 42 "MetaDataX" 9 6 16) (mkPtok 40 "," 12 4 19)) None (mkPtok 42 "MetaDataX" 9 6 16) (Some (mkPtok 42 "A" 10 0 17)) None (mkPtok 40 "," 12 4 19))] (mkPtok 3 "}" 12 6 20)) (mkPtok 40 "," 13 0 21))); (mkFieldWithAttr (mkSpan (mkPtok 36 "repeat" 14 0 22) (mkPtok 40 "," 15 6 28)) [] (MetaField (mkSpan (mkPtok 36 "repeat" 14 0 22) (mkPtok 40 "," 15 6 28)) (Some (mkPtok 36 "repeat" 14 0 22)) (mkMetaDecl (mkSpan (mkPtok 14 "zchar[" 14 7 23) (mkPtok 40 "," 15 6 28)) (TyFixed (mkSpan (mkPtok 14 "zchar[" 14 7 23) (mkPtok 13 "]" 15 0 26)) (mkFixedString (mkSpan (mkPtok 14 "zchar[" 14 7 23) (mkPtok 13 "]" 15 0 26)) (mkPtok 14 "zchar[" 14 7 23) (mkPtok 30 "0" 14 14 24) (mkPtok 13 "]" 15 0 26))) (mkPtok 42 "u8x" 15 2 27) None (mkPtok 40 "," 15 6 28)))); (mkFieldWithAttr (mkSpan (mkPtok 5 "@calculatedFrom(" 15 8 29) (mkPtok 40 "," 20 2 42)) [(FACalculatedFrom (mkSpan (mkPtok 5 "@calculatedFrom(" 15 8 29) (mkPtok 6 ")" 16 6 32)) (mkCalculatedFrom (mkSpan (mkPtok 5 "@calculatedFrom(" 15 8 29) (mkPtok 6 ")" 16 6 32)) (mkPtok 5 "@calculatedFrom(" 15 8 29) (mkPtok 31 """it's""" 16 0 31) (mkPtok 6 ")" 16 6 32)))] (MatchField (mkSpan (mkPtok 38 "match" 17 4 33) (mkPtok 40 "," 20 2 42)) (mkMatchFieldDecl (mkSpan (mkPtok 38 "match" 17 4 33) (mkPtok 3 "}" 20 0 41)) (mkPtok 38 "match" 17 4 33) (mkPtok 42 "trueish" 17 10 34) (mkPtok 17 "as" 17 18 35) (mkPtok 42 "u128" 18 0 36) (mkPtok 2 "{" 18 5 37) [(mkMatchPair (mkSpan (mkPtok 31 """{,}""" 18 7 38) (mkPtok 42 "stringy" 19 4 40)) (MKString (mkPtok 31 """{,}""" 18 7 38)) (mkPtok 39 ":" 18 13 39) (mkPtok 42 "stringy" 19 4 40) None)] (mkPtok 3 "}" 20 0 41)) (mkPtok 40 "," 20 2 42)))] (mkPtok 3 "}" 20 3 43))); (DPacket (mkPacketDef (mkSpan (mkPtok 35 "packet" 21 4 44) (mkPtok 3 "}" 24 0 55)) None (mkPtok 35 "packet" 21 4 44) (mkPtok 42 "Packet" 21 11 45) (mkPtok 2 "{" 22 0 46) [(mkFieldWithAttr (mkSpan (mkPtok 12 "char[" 22 1 47) (mkPtok 40 "," 23 2 54)) [] (CheckSumField (mkSpan (mkPtok 12 "char[" 22 1 47) (mkPtok 40 "," 23 2 54)) (mkChecksumFieldDecl (mkSpan (mkPtok 12 "char[" 22 1 47) (mkPtok 40 "," 23 2 54)) (Some (TyFixed (mkSpan (mkPtok 12 "char[" 22 1 47) (mkPtok 13 "]" 22 8 49)) (mkFixedString (mkSpan (mkPtok 12 "char[" 22 1 47) (mkPtok 13 "]" 22 8 49)) (mkPtok 12 "char[" 22 1 47) (mkPtok 30 "3" 22 7 48) (mkPtok 13 "]" 22 8 49)))) (mkPtok 42 "int" 22 11 50) (mkCalculatedFrom (mkSpan (mkPtok 5 "@calculatedFrom(" 22 15 51) (mkPtok 6 ")" 23 0 53)) (mkPtok 5 "@calculatedFrom(" 22 15 51) (mkPtok 31 """x y""" 22 32 52) (mkPtok 6 ")" 23 0 53)) None (mkPtok 40 "," 23 2 54))))] (mkPtok 3 "}" 24 0 55))); (DMeta (mkMetaDef (mkSpan (mkPtok 37 "MetaData" 25 0 56) (mkPtok 3 "}" 30 4 75)) (mkPtok 37 "MetaData" 25 0 56) (mkPtok 42 "Packet" 25 9 57) (mkPtok 2 "{" 25 16 58) [(MIRef (mkRefMetaDecl (mkSpan (mkPtok 42 "u128" 25 18 59) (mkPtok 40 "," 25 38 62)) (mkPtok 42 "u128" 25 18 59) (mkPtok 42 "trueish" 25 23 60) (Some (mkPtok 43 (string_of_bytes [96; 230; 182; 136; 230; 129; 175; 231; 177; 187; 229; 158; 139; 96]%N) 25 31 61)) (mkPtok 40 "," 25 38 62))); (MIDecl (mkMetaDecl (mkSpan (mkPtok 24 "int8" 25 40 63) (mkPtok 40 "," 25 49 65)) (TyBasic (mkSpan (mkPtok 24 "int8" 25 40 63) (mkPtok 24 "int8" 25 40 63)) (mkBasicType (mkSpan (mkPtok 24 "int8" 25 40 63) (mkPtok 24 "int8" 25 40 63)) (mkPtok 24 "int8" 25 40 63))) (mkPtok 42 "pack" 25 45 64) None (mkPtok 40 "," 25 49 65))); (MIDecl (mkMetaDecl (mkSpan (mkPtok 14 "zchar[" 27 4 67) (mkPtok 40 "," 28 19 73)) (TyFixed (mkSpan (mkPtok 14 "zchar[" 27 4 67) (mkPtok 13 "]" 28 0 70)) (mkFixedString (mkSpan (mkPtok 14 "zchar[" 27 4 67) (mkPtok 13 "]" 28 0 70)) (mkPtok 14 "zchar[" 27 4 67) (mkPtok 30 "00" 27 11 68) (mkPtok 13 "]" 28 0 70))) (mkPtok 42 "repeatCount" 28 2 71) (Some (mkPtok 43 "`a\`" 28 14 72)) (mkPtok 40 "," 28 19 73)))] (mkPtok 3 "}" 30 4 75)))])).
-Eval vm_compute in ("<<<M339>>>" ++ check (runes_of_ascii "MetaData metadata {
-//x
-// " ++ [128512]%N ++ runes_of_ascii " emoji
-}
-    root packet chars {
-    @lengthOf(Packet
-    // @lengthOf(
-    ) // c
-repeat int16 roots `
-` ,	}")).
-Eval vm_compute in ("<<<M371>>>" ++ check (runes_of_ascii "options { len=
-    // c
-    ""abc""
-; lengthOf = // trailing space 
-true ;} packet
-float {
-    @tag( 65535
-// `tick` ""quote"" 'q'
-// trailing space 
-) @rightPad
-(' ' )int32
-zchar ,repeat int64 trueish
-,
-@tag(10// packet A { u8 x, }
-)
-T repeatCount ,@leftPad (' ' )float32 MetaDataX
-    `it's`
-    ,
-@rightPad (	' ' ) repeat zchar[ 0123456789 ] A
-    , repeat
-i8 f32a , u8 body
-@calculatedFrom( ""it's""
-)
-,
-    }
-")).
-Eval vm_compute in ("<<<M403>>>" ++ check (runes_of_ascii "options{zchar=	true
-// c
-/// triple
-BodyLength  = char[]
-; x// " ++ [27880; 37322]%N ++ runes_of_ascii "
-=  char[007 ]
-    ;} /// triple")).
-Eval vm_compute in ("<<<M435>>>" ++ check (runes_of_ascii "packet crc { @rightPad ('0'
-) //x
-char[] asx `doc`	,}
-")).
-Eval vm_compute in ("<<<M467>>>" ++ check (runes_of_ascii "/// triple
+string f32a // " ++ [128512]%N ++ runes_of_ascii " emoji
+,  }
+    , match
+    calculatedFrom as tag {00: pack }, msg_type { repeat int64 len `it's` , repeat uint64 rootA `" ++ [28040; 24687; 31867; 22411]%N ++ runes_of_ascii "` , //x
+} ,
+match rootA as
+_x { [ """ ++ [28040; 24687]%N ++ runes_of_ascii """ , ""{,}""] : metadata	} // " ++ [27880; 37322]%N ++ runes_of_ascii "
+, }, @leftPad ( )	u
+    @lengthOf( Header
+    )
+    , u16 // trailing space 
+x
+`a\`, match
+    string_ as Foo{42 : string_
+, // trailing space 
+00
+    :	T,} , } // c
 packet
-string_{
-char[] calculatedFrom
-    ,string	rootA	`two words` ,  @tag(
-    10 // " ++ [128512]%N ++ runes_of_ascii " emoji
-)@lengthOf( packetx ) char[] falsey
-    ,// @lengthOf(
-int8 MetaDataX @calculatedFrom(""CRC32"" )
-    `two words`
-, zchar[
-    7
-]float
-    ,  uint32 calculatedFrom,
-    matchKey {
-zchar[ 10 ]u
-@calculatedFrom( ""a\\""
-// `tick` ""quote"" 'q'
-// " ++ [27880; 37322]%N ++ runes_of_ascii "
-)
-,
-// " ++ [27880; 37322]%N ++ runes_of_ascii "
-// packet A { u8 x, }
-} , @calculatedFrom( ""1"" )int16 rootA , float64 uint8x
-    // " ++ [27880; 37322]%N ++ runes_of_ascii "
-    ,
-    // " ++ [128512]%N ++ runes_of_ascii " emoji
-    } packet u8x{@calculatedFrom( ""CRC32"" ) repeat //x
-u64 u8x // packet A { u8 x, }
-`a\` , } // trailing space 
-packet
-    Packet	{ @calculatedFrom(
-""packet""
-) repeat
-len i64_
-,
-@lengthOf(trueish
-)
-@lengthOf(u )
-    // a // b
-    @lengthOf( A
-) char[] zchar`say ""hi""`
-// " ++ [128512]%N ++ runes_of_ascii " emoji
-//
-,
-    @calculatedFrom(""{,}"" )	chars@calculatedFrom( ""{,}""	)
-    ,repeat
-//	t
-// @lengthOf(
-pack lengthOf , // `tick` ""quote"" 'q'
-}
-//x
-// " ++ [27880; 37322]%N ++ runes_of_ascii "
-packet
-i64_{ calculatedFrom
-{ stringy {
-zchar[
-    // c
-    1  ] tag , match
-    float as _x  { ""it's"" : Packet ,
-[	0123456789 ,// c
-4294967296
-,""1"", 00, 42 ] :Foo , [""a\\""  , 42 //x
-, 255 ,""`tick`"" , 3 , """ ++ [128512]%N ++ runes_of_ascii """ ] :pack , // @lengthOf(
-4294967296
-    :
-    pack,
-[ 0123456789 , """ ++ [28040; 24687]%N ++ runes_of_ascii """ ,
-""{,}"",
-/// triple
-// " ++ [27880; 37322]%N ++ runes_of_ascii "
-4294967296 ,""packet"", ""x y"" , // packet A { u8 x, }
-""x y""	]//	t
-: uint8x  ,
-    } , } ,
-} //
-,@tag(00)
-BodyLength ,@calculatedFrom(""a	b"" )match msg_type
-as Foo { [ ""\n""
-, 42,
-42 ]
-: Pad , } , u64
-packetx `" ++ [233]%N ++ runes_of_ascii "`
-// packet A { u8 x, }
-//x
-,repeat
-i64 tag
-,
-//x
-// @lengthOf(
-@tag( 65535 // `tick` ""quote"" 'q'
-)
-    @lengthOf(
-    // `tick` ""quote"" 'q'
-    Pad
-    ) match matchKey as f32a
-{3 :  BodyLength ,[//	t
-""" ++ [128512]%N ++ runes_of_ascii """ , ""packet""  ,
-    65535 ,255 , ""a	b""
-, 0 , //	t
-007 //	t
-] : /// triple
-u8x ,4294967296
-//x
-// a // b
-: As 007 :i64_
-    ""it's"":lengthOf, ""\" ++ [233]%N ++ runes_of_ascii """ :	u8x , },  rootA
-    // c
-    { f32 Packet@lengthOf(A ), i32 repeatCount
-@calculatedFrom( ""x y""	)
-//x
-// c
-, repeatCount
-    @calculatedFrom(
-""" ++ [233]%N ++ runes_of_ascii "t" ++ [233]%N ++ runes_of_ascii """) // trailing space 
-`" ++ [28040; 24687; 31867; 22411]%N ++ runes_of_ascii "`,
-    char[] Packet, }, @lengthOf( body
-)
-@tag(65535 )	@calculatedFrom(""\" ++ [233]%N ++ runes_of_ascii """ )metadata @lengthOf( uint8x
-    ) ,
-    }packet i64_ { match o as
-    asx { ""`tick`""
-    : charz
-    }
-//	t
-// trailing space 
-,
-    }
+options1  { }")).
+Eval vm_compute in ("<<<M499>>>" ++ check (runes_of_ascii "packet
+zchar { i32 x_y_z , }
 ")).
-Eval vm_compute in ("<<<M499>>>" ++ check (runes_of_ascii "root
-    packet Header { /// triple
-repeat// " ++ [128512]%N ++ runes_of_ascii " emoji
-int64 _x
-`crlf
-line`//x
-, int16 leftPad , @rightPad( ) uint64 Packet @calculatedFrom( ""abc"" ) `doc` , @rightPad
-    (
-    '0') uint8x
-{ u8 Logon
-    , repeat x_y_z	{	a1 Header `it's`,
-    char[0  ]
-    /// triple
-    pack
-// @lengthOf(
-// trailing space 
-@calculatedFrom(
-    ""a	b""	) `line1
-line2` ,
-o @lengthOf( Header
-    ) `tab	here`
-    ,
-} , rootA zchar ,u128 , } ,@lengthOf( // trailing space 
-string_ )
-    //	t
-    match Foo as calculatedFrom { 0123456789: chars ,007 : string_
-    ,[
-    ""\n"", 4294967296 ] :  leftPad ,""\n"" : u , }, f64 packetx `
-` // c
-,	}
-    packet o
-    {@rightPad// trailing space 
-(
-) // " ++ [128512]%N ++ runes_of_ascii " emoji
+Eval vm_compute in ("<<<M531>>>" ++ check (runes_of_ascii "packet o {
 repeat
-    chars `it's`
+    calculatedFrom { As
+    ,repeat
+u {//	t
+i32 repeatCount
+, }, match BodyLength
+as u8x { 007 :
+trueish }
+, asx float  `two words`
+, }
+    , match pack as// `tick` ""quote"" 'q'
+calculatedFrom {""it's"" :	Foo,
+// 50% %s
 // @lengthOf(
-// `tick` ""quote"" 'q'
+}
+, match body as
+    calculatedFrom	{	[
+    // 50% %s
+    ""a\""b"" ] :	o , 42
+    :	Packet
+    , //
+[ 0123456789 ,1	, ""1""
+] : float
+,}
 ,
     } MetaData
-A
-// trailing space 
-// c
-{ // c
-uint64 i64_ `" ++ [233]%N ++ runes_of_ascii "`,  } root packet	int
-    { @tag(
-10
-) //x
-repeat a1 body  , @lengthOf( options1// packet A { u8 x, }
-) falsey
-    //
-    { repeat zchar[ 0
-    ]
-    // c
-    i64_ ,repeat u
-{ char[42 ] u8x
-@calculatedFrom( ""a\""b"") ,char[ 255 ] lengthOf @lengthOf( body
-)
-    `u8 x,`	, },repeat
-    pack {
-    trueish body
-`u8 x,`,
-match Logon as charz { [ 7] : x_y_z """ ++ [233]%N ++ runes_of_ascii "t" ++ [233]%N ++ runes_of_ascii """ : int ,
-""abc"" : u ,
-    42 : // trailing space 
-metadata, 10 : leftPad , }
-    ,//x
-char[ 10
-]trueish `tab	here` ,} ,
-}, }
-// @lengthOf(
-// " ++ [27880; 37322]%N ++ runes_of_ascii "
-options
+i64_	{u128
     //x
-    { rootA = ""`tick`"" As
-    =
-7 ;}
-")).
-Eval vm_compute in ("<<<M531>>>" ++ check (runes_of_ascii "options
-{
-//x
-// c
-} options
-    {
-Foo
-    = ""`tick`"" }
-")).
-Eval vm_compute in ("<<<T531>>>" ++ terms [mkTok 1 "options" 1 0 false; mkTok 2 "{" 2 0 false; mkTok 44 "//x" 3 0 true; mkTok 44 "// c" 4 0 true; mkTok 3 "}" 5 0 false; mkTok 1 "options" 5 2 false; mkTok 2 "{" 6 4 false; mkTok 42 "Foo" 7 0 false; mkTok 4 "=" 8 4 false; mkTok 31 """`tick`""" 8 6 false; mkTok 3 "}" 8 15 false; mkTok 0 "<EOF>" 9 0 false] (mkPacket (mkPtok 1 "options" 1 0 0) (Some (mkPtok 3 "}" 8 15 10)) [(DOption (mkOptionDef (mkSpan (mkPtok 1 "options" 1 0 0) (mkPtok 3 "}" 5 0 4)) (mkPtok 1 "options" 1 0 0) (mkPtok 2 "{" 2 0 1) [] (mkPtok 3 "}" 5 0 4))); (DOption (mkOptionDef (mkSpan (mkPtok 1 "options" 5 2 5) (mkPtok 3 "}" 8 15 10)) (mkPtok 1 "options" 5 2 5) (mkPtok 2 "{" 6 4 6) [(mkOptionDecl (mkSpan (mkPtok 42 "Foo" 7 0 7) (mkPtok 31 """`tick`""" 8 6 9)) (mkPtok 42 "Foo" 7 0 7) (mkPtok 4 "=" 8 4 8) (VString (mkSpan (mkPtok 31 """`tick`""" 8 6 9) (mkPtok 31 """`tick`""" 8 6 9)) (mkPtok 31 """`tick`""" 8 6 9)) None)] (mkPtok 3 "}" 8 15 10)))])).
-Eval vm_compute in ("<<<M563>>>" ++ check (runes_of_ascii "packet rootA { metadata { int32
-    body  `doc` ,repeat calculatedFrom u8x
-,u32 float , },
-@lengthOf(
-// @lengthOf(
-// trailing space 
-T )u8x Header,	repeat u16 Z9_ ,
-@leftPad (
-    '0'	)
-repeat Z9_ { stringy msg_type
-    `
-` ,As
-{match i8i8
-    as	chars {
-10 :len
-    ,
-    [ ""abc"", 42
-//	t
-// c
-, 7 ] :  leftPad ,42 : lengthOf , 00 : zchar ,
-    //x
-    } , i32
-    i64_ // @lengthOf(
-, repeat
-lengthOf msg_type`` //x
-,
-    }	,
-    int16 Packet @calculatedFrom( ""packet"") ,} , len @lengthOf( float
-    //
-    ) `two words`,
-@calculatedFrom( //	t
-""a\""b"" ) repeat
-pack
-,
-    @tag( 0 ) float32 tag `tab	here` ,rootA @calculatedFrom(""// no comment""
-) ,
-@lengthOf(x_y_z	)
-msg_type { match crc
-    as
-string_ { 0:	u8x , 10
-    : // " ++ [27880; 37322]%N ++ runes_of_ascii "
-crc	, ""x y"" : Pad
-    , 3: a1	,007
-    : x , [ """" ] : A },
-} , @calculatedFrom(
-    ""CRC32"" ) @rightPad (' ')
-    @tag( 10	) match zchar
-    as body {
-65535 // trailing space 
-:
-    // packet A { u8 x, }
-    tag
-    } ,
-}
-")).
-Eval vm_compute in ("<<<M595>>>" ++ check (runes_of_ascii "packet falsey
-{ repeat
-    zchar[ 0  ]
-    x_y_z `it's`, repeat char[] MetaDataX
-`u8 x,` ,
-@rightPad
-// trailing space 
-// trailing space 
-( )
-    match i8i8 as
-    charz{ [ 4294967296, 00 ]: crc
-, } ,repeat
-    string u8x `` ,
-Pad , @lengthOf(// c
-u128 )  @tag( 65535 )
-//	t
-// " ++ [128512]%N ++ runes_of_ascii " emoji
-tag body
-    // c
-    , } packet As  {
-    @calculatedFrom( ""// no comment""
-) repeat uint64
-msg_type
-    //	t
-    `two words`
-, @tag(007 )
-    @calculatedFrom(
-""`tick`""//x
-)@rightPad (	'\x00' //
-) int32	repeatCount, repeat	repeatCount	Pad
-, x
-    MetaDataX
-    `a\`	,char[	1 ] uint8x `u8 x,` , @calculatedFrom(
-    """" ) @calculatedFrom( ""// no comment"" )@tag(3) repeat i64// trailing space 
-trueish
-/// triple
-// `tick` ""quote"" 'q'
-, @lengthOf( MetaDataX
-    )
-Z9_, }  MetaData Logon
-    /// triple
-    {  i8i8 matchKey , u64
-i8i8
-, // trailing space 
-options1 zchar
-    // " ++ [128512]%N ++ runes_of_ascii " emoji
-    `" ++ [28040; 24687; 31867; 22411]%N ++ runes_of_ascii "` ,}
-//
-/// triple
-root	packet matchKey
-    /// triple
-    { T matchKey //	t
-, repeat	uint64
-    // packet A { u8 x, }
     crc
-`" ++ [28040; 24687; 31867; 22411]%N ++ runes_of_ascii "`	, repeat
-    zchar[ 0123456789 ]	i8i8 ,string len//	t
-, } MetaData x_y_z
+    `` , // c
+string_ u ,i8 int
+    `doc`,
+    // " ++ [27880; 37322]%N ++ runes_of_ascii "
+    i16 x	`doc`, falsey
 /// triple
-// a // b
-{
-    i8i8 i64_
-, }
-
-")).
-Eval vm_compute in ("<<<M627>>>" ++ check (runes_of_ascii "options {MetaDataX =
-// `tick` ""quote"" 'q'
-//	t
-0; }
-")).
-Eval vm_compute in ("<<<M659>>>" ++ check (runes_of_ascii "
-MetaData
-    Header { int16 //	t
-i64_ , } packet
-u8x
-{@tag(4294967296 ) zchar[
-//	t
-// " ++ [27880; 37322]%N ++ runes_of_ascii "
-255 ] MetaDataX`
-`,} options { pack = ""a	b"";crc =
-    true _x
-    =
-4294967296 ;Z9_ = ' ' } root packet// a // b
-repeatCount  { char[]
-u8x ,  }
-")).
-Eval vm_compute in ("<<<M691>>>" ++ check (runes_of_ascii "  root packet stringy { u
-@calculatedFrom(	""packet""	)
-``,  @calculatedFrom( """ ++ [28040; 24687]%N ++ runes_of_ascii """ ) @lengthOf(//x
-Foo // packet A { u8 x, }
-)@calculatedFrom( // trailing space 
-""abc"" ) u64 zchar ,
-    match body
-// " ++ [128512]%N ++ runes_of_ascii " emoji
-// c
-as
-// trailing space 
-// " ++ [27880; 37322]%N ++ runes_of_ascii "
-body { 0
-:
-charz ""packet"":
-    charz ,
-0123456789
-    : repeatCount , ""\" ++ [233]%N ++ runes_of_ascii """
-:Foo}
-    , repeat string	asx `u8 x,` , } MetaData
-    BodyLength{
-    string Z9_
-,zchar[
-    0123456789
-    ]  Header	,
-    char[65535 ]
-    asx ,zchar[255 ] charz `// not a comment` ,
-f32 crc ,}options	{
-    }packet
-_x{ }packet trueish { @calculatedFrom("""" )x
-, // " ++ [27880; 37322]%N ++ runes_of_ascii "
-} 	 ")).
-Eval vm_compute in ("<<<M723>>>" ++ check (runes_of_ascii "root packet
-    leftPad
-    { @lengthOf(
-/// triple
-//x
-_x ) // trailing space 
-stringy{
-Pad //
-{ stringy falsey , int32 metadata @lengthOf( x_y_z)
-, }, }
-, @rightPad ( )
-@tag( 10 ) BodyLength
-    `say ""hi""`
-,
-    }")).
-Eval vm_compute in ("<<<M755>>>" ++ check (runes_of_ascii "packet  o
-    { chars  {
-// `tick` ""quote"" 'q'
 //
-repeat  options1 {repeat lengthOf packetx , }
-, repeat
-a1	,	} , repeat leftPad , } // packet A { u8 x, }
-packet
-float{ f64	string_ @lengthOf( float
-) , repeat
-f64
-uint8x , @tag(1 )
-    packetx{ i32 asx,}
-// `tick` ""quote"" 'q'
-// a // b
-, i64_ @lengthOf(
-    u128
-) `u8 x,` ,
-    asx // trailing space 
-{ string calculatedFrom	`u8 x,`
-, uint8 falsey @calculatedFrom( ""x y""
-),
-} , int32 Header
-, }
-//
-/// triple
-MetaData u8x { }
-")).
-Eval vm_compute in ("<<<T755>>>" ++ terms [mkTok 35 "packet" 1 0 false; mkTok 42 "o" 1 8 false; mkTok 2 "{" 2 4 false; mkTok 42 "chars" 2 6 false; mkTok 2 "{" 2 13 false; mkTok 44 "// `tick` ""quote"" 'q'" 3 0 true; mkTok 44 "//" 4 0 true; mkTok 36 "repeat" 5 0 false; mkTok 42 "options1" 5 8 false; mkTok 2 "{" 5 17 false; mkTok 36 "repeat" 5 18 false; mkTok 42 "lengthOf" 5 25 false; mkTok 42 "packetx" 5 34 false; mkTok 40 "," 5 42 false; mkTok 3 "}" 5 44 false; mkTok 40 "," 6 0 false; mkTok 36 "repeat" 6 2 false; mkTok 42 "a1" 7 0 false; mkTok 40 "," 7 3 false; mkTok 3 "}" 7 5 false; mkTok 40 "," 7 7 false; mkTok 36 "repeat" 7 9 false; mkTok 42 "leftPad" 7 16 false; mkTok 40 "," 7 24 false; mkTok 3 "}" 7 26 false; mkTok 44 "// packet A { u8 x, }" 7 28 true; mkTok 35 "packet" 8 0 false; mkTok 42 "float" 9 0 false; mkTok 2 "{" 9 5 false; mkTok 29 "f64" 9 7 false; mkTok 42 "string_" 9 11 false; mkTok 7 "@lengthOf(" 9 19 false; mkTok 42 "float" 9 30 false; mkTok 6 ")" 10 0 false; mkTok 40 "," 10 2 false; mkTok 36 "repeat" 10 4 false; mkTok 29 "f64" 11 0 false; mkTok 42 "uint8x" 12 0 false; mkTok 40 "," 12 7 false; mkTok 9 "@tag(" 12 9 false; mkTok 30 "1" 12 14 false; mkTok 6 ")" 12 16 false; mkTok 42 "packetx" 13 4 false; mkTok 2 "{" 13 11 false; mkTok 26 "i32" 13 13 false; mkTok 42 "asx" 13 17 false; mkTok 40 "," 13 20 false; mkTok 3 "}" 13 21 false; mkTok 44 "// `tick` ""quote"" 'q'" 14 0 true; mkTok 44 "// a // b" 15 0 true; mkTok 40 "," 16 0 false; mkTok 42 "i64_" 16 2 false; mkTok 7 "@lengthOf(" 16 7 false; mkTok 42 "u128" 17 4 false; mkTok 6 ")" 18 0 false; mkTok 43 "`u8 x,`" 18 2 false; mkTok 40 "," 18 10 false; mkTok 42 "asx" 19 4 false; mkTok 44 "// trailing space " 19 8 true; mkTok 2 "{" 20 0 false; mkTok 15 "string" 20 2 false; mkTok 42 "calculatedFrom" 20 9 false; mkTok 43 "`u8 x,`" 20 24 false; mkTok 40 "," 21 0 false; mkTok 20 "uint8" 21 2 false; mkTok 42 "falsey" 21 8 false; mkTok 5 "@calculatedFrom(" 21 15 false; mkTok 31 """x y""" 21 32 false; mkTok 6 ")" 22 0 false; mkTok 40 "," 22 1 false; mkTok 3 "}" 23 0 false; mkTok 40 "," 23 2 false; mkTok 26 "int32" 23 4 false; mkTok 42 "Header" 23 10 false; mkTok 40 "," 24 0 false; mkTok 3 "}" 24 2 false; mkTok 44 "//" 25 0 true; mkTok 44 "/// triple" 26 0 true; mkTok 37 "MetaData" 27 0 false; mkTok 42 "u8x" 27 9 false; mkTok 2 "{" 27 13 false; mkTok 3 "}" 27 15 false; mkTok 0 "<EOF>" 28 0 false] (mkPacket (mkPtok 35 "packet" 1 0 0) (Some (mkPtok 3 "}" 27 15 81)) [(DPacket (mkPacketDef (mkSpan (mkPtok 35 "packet" 1 0 0) (mkPtok 3 "}" 7 26 24)) None (mkPtok 35 "packet" 1 0 0) (mkPtok 42 "o" 1 8 1) (mkPtok 2 "{" 2 4 2) [(mkFieldWithAttr (mkSpan (mkPtok 42 "chars" 2 6 3) (mkPtok 40 "," 7 7 20)) [] (InerObjectField (mkSpan (mkPtok 42 "chars" 2 6 3) (mkPtok 40 "," 7 7 20)) None (InerObjectDecl (mkSpan (mkPtok 42 "chars" 2 6 3) (mkPtok 3 "}" 7 5 19)) (mkPtok 42 "chars" 2 6 3) (mkPtok 2 "{" 2 13 4) [(InerObjectField (mkSpan (mkPtok 36 "repeat" 5 0 7) (mkPtok 40 "," 6 0 15)) (Some (mkPtok 36 "repeat" 5 0 7)) (InerObjectDecl (mkSpan (mkPtok 42 "options1" 5 8 8) (mkPtok 3 "}" 5 44 14)) (mkPtok 42 "options1" 5 8 8) (mkPtok 2 "{" 5 17 9) [(ObjectField (mkSpan (mkPtok 36 "repeat" 5 18 10) (mkPtok 40 "," 5 42 13)) (Some (mkPtok 36 "repeat" 5 18 10)) (mkPtok 42 "lengthOf" 5 25 11) (Some (mkPtok 42 "packetx" 5 34 12)) None (mkPtok 40 "," 5 42 13))] (mkPtok 3 "}" 5 44 14)) (mkPtok 40 "," 6 0 15)); (ObjectField (mkSpan (mkPtok 36 "repeat" 6 2 16) (mkPtok 40 "," 7 3 18)) (Some (mkPtok 36 "repeat" 6 2 16)) (mkPtok 42 "a1" 7 0 17) None None (mkPtok 40 "," 7 3 18))] (mkPtok 3 "}" 7 5 19)) (mkPtok 40 "," 7 7 20))); (mkFieldWithAttr (mkSpan (mkPtok 36 "repeat" 7 9 21) (mkPtok 40 "," 7 24 23)) [] (ObjectField (mkSpan (mkPtok 36 "repeat" 7 9 21) (mkPtok 40 "," 7 24 23)) (Some (mkPtok 36 "repeat" 7 9 21)) (mkPtok 42 "leftPad" 7 16 22) None None (mkPtok 40 "," 7 24 23)))] (mkPtok 3 "}" 7 26 24))); (DPacket (mkPacketDef (mkSpan (mkPtok 35 "packet" 8 0 26) (mkPtok 3 "}" 24 2 75)) None (mkPtok 35 "packet" 8 0 26) (mkPtok 42 "float" 9 0 27) (mkPtok 2 "{" 9 5 28) [(mkFieldWithAttr (mkSpan (mkPtok 29 "f64" 9 7 29) (mkPtok 40 "," 10 2 34)) [] (LengthField (mkSpan (mkPtok 29 "f64" 9 7 29) (mkPtok 40 "," 10 2 34)) (mkLengthFieldDecl (mkSpan (mkPtok 29 "f64" 9 7 29) (mkPtok 40 "," 10 2 34)) (Some (TyBasic (mkSpan (mkPtok 29 "f64" 9 7 29) (mkPtok 29 "f64" 9 7 29)) (mkBasicType (mkSpan (mkPtok 29 "f64" 9 7 29) (mkPtok 29 "f64" 9 7 29)) (mkPtok 29 "f64" 9 7 29)))) (mkPtok 42 "string_" 9 11 30) (mkLengthOf (mkSpan (mkPtok 7 "@lengthOf(" 9 19 31) (mkPtok 6 ")" 10 0 33)) (mkPtok 7 "@lengthOf(" 9 19 31) (mkPtok 42 "float" 9 30 32) (mkPtok 6 ")" 10 0 33)) None (mkPtok 40 "," 10 2 34)))); (mkFieldWithAttr (mkSpan (mkPtok 36 "repeat" 10 4 35) (mkPtok 40 "," 12 7 38)) [] (MetaField (mkSpan (mkPtok 36 "repeat" 10 4 35) (mkPtok 40 "," 12 7 38)) (Some (mkPtok 36 "repeat" 10 4 35)) (mkMetaDecl (mkSpan (mkPtok 29 "f64" 11 0 36) (mkPtok 40 "," 12 7 38)) (TyBasic (mkSpan (mkPtok 29 "f64" 11 0 36) (mkPtok 29 "f64" 11 0 36)) (mkBasicType (mkSpan (mkPtok 29 "f64" 11 0 36) (mkPtok 29 "f64" 11 0 36)) (mkPtok 29 "f64" 11 0 36))) (mkPtok 42 "uint8x" 12 0 37) None (mkPtok 40 "," 12 7 38)))); (mkFieldWithAttr (mkSpan (mkPtok 9 "@tag(" 12 9 39) (mkPtok 40 "," 16 0 50)) [(FATag (mkSpan (mkPtok 9 "@tag(" 12 9 39) (mkPtok 6 ")" 12 16 41)) (mkTagAttr (mkSpan (mkPtok 9 "@tag(" 12 9 39) (mkPtok 6 ")" 12 16 41)) (mkPtok 9 "@tag(" 12 9 39) (mkPtok 30 "1" 12 14 40) (mkPtok 6 ")" 12 16 41)))] (InerObjectField (mkSpan (mkPtok 42 "packetx" 13 4 42) (mkPtok 40 "," 16 0 50)) None (InerObjectDecl (mkSpan (mkPtok 42 "packetx" 13 4 42) (mkPtok 3 "}" 13 21 47)) (mkPtok 42 "packetx" 13 4 42) (mkPtok 2 "{" 13 11 43) [(MetaField (mkSpan (mkPtok 26 "i32" 13 13 44) (mkPtok 40 "," 13 20 46)) None (mkMetaDecl (mkSpan (mkPtok 26 "i32" 13 13 44) (mkPtok 40 "," 13 20 46)) (TyBasic (mkSpan (mkPtok 26 "i32" 13 13 44) (mkPtok 26 "i32" 13 13 44)) (mkBasicType (mkSpan (mkPtok 26 "i32" 13 13 44) (mkPtok 26 "i32" 13 13 44)) (mkPtok 26 "i32" 13 13 44))) (mkPtok 42 "asx" 13 17 45) None (mkPtok 40 "," 13 20 46)))] (mkPtok 3 "}" 13 21 47)) (mkPtok 40 "," 16 0 50))); (mkFieldWithAttr (mkSpan (mkPtok 42 "i64_" 16 2 51) (mkPtok 40 "," 18 10 56)) [] (LengthField (mkSpan (mkPtok 42 "i64_" 16 2 51) (mkPtok 40 "," 18 10 56)) (mkLengthFieldDecl (mkSpan (mkPtok 42 "i64_" 16 2 51) (mkPtok 40 "," 18 10 56)) None (mkPtok 42 "i64_" 16 2 51) (mkLengthOf (mkSpan (mkPtok 7 "@lengthOf(" 16 7 52) (mkPtok 6 ")" 18 0 54)) (mkPtok 7 "@lengthOf(" 16 7 52) (mkPtok 42 "u128" 17 4 53) (mkPtok 6 ")" 18 0 54)) (Some (mkPtok 43 "`u8 x,`" 18 2 55)) (mkPtok 40 "," 18 10 56)))); (mkFieldWithAttr (mkSpan (mkPtok 42 "asx" 19 4 57) (mkPtok 40 "," 23 2 71)) [] (InerObjectField (mkSpan (mkPtok 42 "asx" 19 4 57) (mkPtok 40 "," 23 2 71)) None (InerObjectDecl (mkSpan (mkPtok 42 "asx" 19 4 57) (mkPtok 3 "}" 23 0 70)) (mkPtok 42 "asx" 19 4 57) (mkPtok 2 "{" 20 0 59) [(MetaField (mkSpan (mkPtok 15 "string" 20 2 60) (mkPtok 40 "," 21 0 63)) None (mkMetaDecl (mkSpan (mkPtok 15 "string" 20 2 60) (mkPtok 40 "," 21 0 63)) (TyDynamic (mkSpan (mkPtok 15 "string" 20 2 60) (mkPtok 15 "string" 20 2 60)) (mkDynamicString (mkSpan (mkPtok 15 "string" 20 2 60) (mkPtok 15 "string" 20 2 60)) (mkPtok 15 "string" 20 2 60))) (mkPtok 42 "calculatedFrom" 20 9 61) (Some (mkPtok 43 "`u8 x,`" 20 24 62)) (mkPtok 40 "," 21 0 63))); (CheckSumField (mkSpan (mkPtok 20 "uint8" 21 2 64) (mkPtok 40 "," 22 1 69)) (mkChecksumFieldDecl (mkSpan (mkPtok 20 "uint8" 21 2 64) (mkPtok 40 "," 22 1 69)) (Some (TyBasic (mkSpan (mkPtok 20 "uint8" 21 2 64) (mkPtok 20 "uint8" 21 2 64)) (mkBasicType (mkSpan (mkPtok 20 "uint8" 21 2 64) (mkPtok 20 "uint8" 21 2 64)) (mkPtok 20 "uint8" 21 2 64)))) (mkPtok 42 "falsey" 21 8 65) (mkCalculatedFrom (mkSpan (mkPtok 5 "@calculatedFrom(" 21 15 66) (mkPtok 6 ")" 22 0 68)) (mkPtok 5 "@calculatedFrom(" 21 15 66) (mkPtok 31 """x y""" 21 32 67) (mkPtok 6 ")" 22 0 68)) None (mkPtok 40 "," 22 1 69)))] (mkPtok 3 "}" 23 0 70)) (mkPtok 40 "," 23 2 71))); (mkFieldWithAttr (mkSpan (mkPtok 26 "int32" 23 4 72) (mkPtok 40 "," 24 0 74)) [] (MetaField (mkSpan (mkPtok 26 "int32" 23 4 72) (mkPtok 40 "," 24 0 74)) None (mkMetaDecl (mkSpan (mkPtok 26 "int32" 23 4 72) (mkPtok 40 "," 24 0 74)) (TyBasic (mkSpan (mkPtok 26 "int32" 23 4 72) (mkPtok 26 "int32" 23 4 72)) (mkBasicType (mkSpan (mkPtok 26 "int32" 23 4 72) (mkPtok 26 "int32" 23 4 72)) (mkPtok 26 "int32" 23 4 72))) (mkPtok 42 "Header" 23 10 73) None (mkPtok 40 "," 24 0 74))))] (mkPtok 3 "}" 24 2 75))); (DMeta (mkMetaDef (mkSpan (mkPtok 37 "MetaData" 27 0 78) (mkPtok 3 "}" 27 15 81)) (mkPtok 37 "MetaData" 27 0 78) (mkPtok 42 "u8x" 27 9 79) (mkPtok 2 "{" 27 13 80) [] (mkPtok 3 "}" 27 15 81)))])).
-Eval vm_compute in ("<<<M787>>>" ++ check (runes_of_ascii "  MetaData
-options1{ float _x `{ , }`
-, }")).
-Eval vm_compute in ("<<<M819>>>" ++ check (runes_of_ascii "// " ++ [27880; 37322]%N ++ runes_of_ascii "
-options
-{ u8x  = zchar[0
-] ; len
-    =
-    ' ';
-    leftPad =false;
-} 	 ")).
-Eval vm_compute in ("<<<M851>>>" ++ check (runes_of_ascii "
-options
-    { MetaDataX = zchar[
-10 ]
-    ;
-Pad
-=	true // trailing space 
-;asx=
-    false ;Header=""" ++ [233]%N ++ runes_of_ascii "t" ++ [233]%N ++ runes_of_ascii """ roots = ""it's""
-} // " ++ [128512]%N ++ runes_of_ascii " emoji
-options { // a // b
-a1
-    =
-//	t
-//	t
-false
-;
-asx	= '\x00'
-; zchar  =""packet"" BodyLength	= """"// trailing space 
-As
-= true } packet rootA//x
-{} packet	calculatedFrom { repeat	char[]
-matchKey ,  repeat trueish {	i16 repeatCount @lengthOf( rootA ) , } , uint64
-i8i8 , int64 _x @calculatedFrom(
-""// no comment"") ,
-@lengthOf(tag ) repeat
-    leftPad	, @lengthOf( o  ) // " ++ [128512]%N ++ runes_of_ascii " emoji
-zchar
-    // packet A { u8 x, }
-    @calculatedFrom(""`tick`""
-) ,tag @lengthOf(
-x_y_z
-    // `tick` ""quote"" 'q'
-    ) ,
-A@lengthOf(
-    uint8x )`u8 x,` ,/// triple
-roots { u128
-    ,	} , } root // " ++ [27880; 37322]%N ++ runes_of_ascii "
-packet uint8x
-{A // " ++ [27880; 37322]%N ++ runes_of_ascii "
-@lengthOf(
-    x )`" ++ [233]%N ++ runes_of_ascii "` , }")).
-Eval vm_compute in ("<<<M883>>>" ++ check (runes_of_ascii "MetaData
-zchar{zchar[
-    // " ++ [27880; 37322]%N ++ runes_of_ascii "
-    7 ] crc,
-}
-")).
-Eval vm_compute in ("<<<M915>>>" ++ check (runes_of_ascii "
-packet// packet A { u8 x, }
-Z9_
-    {} MetaData	falsey { string
-    len
-    // " ++ [128512]%N ++ runes_of_ascii " emoji
-    `tab	here` ,
-/// triple
-// `tick` ""quote"" 'q'
-i32 asx ,
-    uint8 pack
-    , } options // " ++ [27880; 37322]%N ++ runes_of_ascii "
-{_x = // trailing space 
-true
-// " ++ [27880; 37322]%N ++ runes_of_ascii "
-// " ++ [27880; 37322]%N ++ runes_of_ascii "
-}
-
-")).
-Eval vm_compute in ("<<<M947>>>" ++ check (runes_of_ascii "packet Packet
-{asx
-    //	t
-    @lengthOf(metadata)  `line1
-line2`
-// " ++ [128512]%N ++ runes_of_ascii " emoji
-// packet A { u8 x, }
-,
-@tag( 0123456789) repeat char tag,
-BodyLength @calculatedFrom( ""`tick`""
-)
-, @calculatedFrom(
-""\" ++ [233]%N ++ runes_of_ascii """ )
-tag @calculatedFrom(// @lengthOf(
-""" ++ [233]%N ++ runes_of_ascii "t" ++ [233]%N ++ runes_of_ascii """
-    )	,@leftPad
-( ) match o as T
-    {	""CRC32"":metadata [ 7, // trailing space 
-""CRC32"", ""CRC32""
-, ""a\\"" , 0123456789
-]
-:
-i8i8 4294967296
-:
-    o, [65535 ] : leftPad, 00:
-charz
-    , } , string_ @calculatedFrom( ""\n"" ) `u8 x,` , }
-root packet Foo // `tick` ""quote"" 'q'
-{ @rightPad(
-    '0'
-    ) repeat msg_type string_ , } root packet Z9_{ @calculatedFrom(
-    // c
-    ""1"")string
-    A //x
-, repeat x zchar,  @tag( 1
-    ) @tag( 0 ) i64_
-    float
-`tab	here` , repeat //
-u8 _x
-    `` , lengthOf
-@calculatedFrom(
-    ""`tick`"")
-//x
-// trailing space 
-,
-    }
-")).
-Eval vm_compute in ("<<<M979>>>" ++ check (runes_of_ascii "MetaData trueish { f32
-a1 `it's` , A // " ++ [128512]%N ++ runes_of_ascii " emoji
-lengthOf`tab	here` , } MetaData	BodyLength
-{
-    // @lengthOf(
-    char[
-0123456789 ]stringy
-//	t
-// c
-,
-} packet string_ { @rightPad	('0' ) asx
-    , @calculatedFrom(""abc""
-    )repeat char[ 4294967296 // `tick` ""quote"" 'q'
-] packetx ,
-// a // b
-// " ++ [27880; 37322]%N ++ runes_of_ascii "
-repeat
-o
-    // " ++ [27880; 37322]%N ++ runes_of_ascii "
-    { // `tick` ""quote"" 'q'
-int64
-u8x,repeat u32 leftPad
-`a\`
-, // packet A { u8 x, }
-char[] charz `doc`
-,zchar[
-65535
-] lengthOf@calculatedFrom(  ""a\\""
-    )
-, }  ,
-    // " ++ [27880; 37322]%N ++ runes_of_ascii "
-    leftPad
-@calculatedFrom(	""// no comment"")`// not a comment` ,
-    int32 int
-,pack {zchar,
-} // c
-,repeat zchar[65535 ]
-    // c
-    x ,
-@rightPad  (  '0' )
-//x
-// c
-float32 Z9_
-, @calculatedFrom(
-// a // b
-// " ++ [27880; 37322]%N ++ runes_of_ascii "
-""`tick`""
-    )
-    match
-uint8x
-    as
-Header // `tick` ""quote"" 'q'
-{[42
-    // " ++ [128512]%N ++ runes_of_ascii " emoji
-    ]
-    :f32a, 4294967296
-    :
-    matchKey , """ ++ [28040; 24687]%N ++ runes_of_ascii """
-    /// triple
-    : tag 1 :// a // b
-body
-, }
-    ,
-@tag(// a // b
-007
-    )@calculatedFrom( ""a\\"" ) @lengthOf(
-metadata ) repeat chars ,}
-packet roots { char[007
-    ]
-Foo@lengthOf(zchar ) `line1
-line2` , @tag( 255 ) match crc as lengthOf {[ ""// no comment"" ]
-:
-    Header ,
-    //x
-    1 :// " ++ [128512]%N ++ runes_of_ascii " emoji
-crc ,""\n"" :  options1 , [ 1, """ ++ [28040; 24687]%N ++ runes_of_ascii """
-    ,
-    00,	1, //	t
-42 ,65535  ] : Z9_,}
-//x
-// a // b
-,zchar[ 4294967296
-] As `say ""hi""`
-    ,	@lengthOf( stringy ) chars
-{float32 u8x,} ,
-    char[ 255 ] Pad
-    @lengthOf(u8x ) ,
-int64 metadata,
-    // c
-    uint8 x_y_z	@lengthOf(
-    //
-    Header )`two words`,	repeat zchar[ 42 ] calculatedFrom `it's`	, @rightPad
-(
-'\x00' )
-    repeat
-    crc
-    // @lengthOf(
-    {
-    // trailing space 
-    repeat As {
-i64_`line1
-line2` , } ,}
-, }
-")).
-Eval vm_compute in ("<<<T979>>>" ++ terms [mkTok 37 "MetaData" 1 0 false; mkTok 42 "trueish" 1 9 false; mkTok 2 "{" 1 17 false; mkTok 28 "f32" 1 19 false; mkTok 42 "a1" 2 0 false; mkTok 43 "`it's`" 2 3 false; mkTok 40 "," 2 10 false; mkTok 42 "A" 2 12 false; mkTok 44 (string_of_bytes [47; 47; 32; 240; 159; 152; 128; 32; 101; 109; 111; 106; 105]%N) 2 14 true; mkTok 42 "lengthOf" 3 0 false; mkTok 43 (string_of_bytes [96; 116; 97; 98; 9; 104; 101; 114; 101; 96]%N) 3 8 false; mkTok 40 "," 3 19 false; mkTok 3 "}" 3 21 false; mkTok 37 "MetaData" 3 23 false; mkTok 42 "BodyLength" 3 32 false; mkTok 2 "{" 4 0 false; mkTok 44 "// @lengthOf(" 5 4 true; mkTok 12 "char[" 6 4 false; mkTok 30 "0123456789" 7 0 false; mkTok 13 "]" 7 11 false; mkTok 42 "stringy" 7 12 false; mkTok 44 (string_of_bytes [47; 47; 9; 116]%N) 8 0 true; mkTok 44 "// c" 9 0 true; mkTok 40 "," 10 0 false; mkTok 3 "}" 11 0 false; mkTok 35 "packet" 11 2 false; mkTok 42 "string_" 11 9 false; mkTok 2 "{" 11 17 false; mkTok 32 "@rightPad" 11 19 false; mkTok 8 "(" 11 29 false; mkTok 33 "'0'" 11 30 false; mkTok 6 ")" 11 34 false; mkTok 42 "asx" 11 36 false; mkTok 40 "," 12 4 false; mkTok 5 "@calculatedFrom(" 12 6 false; mkTok 31 """abc""" 12 22 false; mkTok 6 ")" 13 4 false; mkTok 36 "repeat" 13 5 false; mkTok 12 "char[" 13 12 false; mkTok 30 "4294967296" 13 18 false; mkTok 44 "// `tick` ""quote"" 'q'" 13 29 true; mkTok 13 "]" 14 0 false; mkTok 42 "packetx" 14 2 false; mkTok 40 "," 14 10 false; mkTok 44 "// a // b" 15 0 true; mkTok 44 (string_of_bytes [47; 47; 32; 230; 179; 168; 233; 135; 138]%N) 16 0 true; mkTok 36 "repeat" 17 0 false; mkTok 42 "o" 18 0 false; mkTok 44 (string_of_bytes [47; 47; 32; 230; 179; 168; 233; 135; 138]%N) 19 4 true; mkTok 2 "{" 20 4 false; mkTok 44 "// `tick` ""quote"" 'q'" 20 6 true; mkTok 27 "int64" 21 0 false; mkTok 42 "u8x" 22 0 false; mkTok 40 "," 22 3 false; mkTok 36 "repeat" 22 4 false; mkTok 22 "u32" 22 11 false; mkTok 42 "leftPad" 22 15 false; mkTok 43 "`a\`" 23 0 false; mkTok 40 "," 24 0 false; mkTok 44 "// packet A { u8 x, }" 24 2 true; mkTok 16 "char[]" 25 0 false; mkTok 42 "charz" 25 7 false; mkTok 43 "`doc`" 25 13 false; mkTok 40 "," 26 0 false; mkTok 14 "zchar[" 26 1 false; mkTok 30 "65535" 27 0 false; mkTok 13 "]" 28 0 false; mkTok 42 "lengthOf" 28 2 false; mkTok 5 "@calculatedFrom(" 28 10 false; mkTok 31 """a\\""" 28 28 false; mkTok 6 ")" 29 4 false; mkTok 40 "," 30 0 false; mkTok 3 "}" 30 2 false; mkTok 40 "," 30 5 false; mkTok 44 (string_of_bytes [47; 47; 32; 230; 179; 168; 233; 135; 138]%N) 31 4 true; mkTok 42 "leftPad" 32 4 false; mkTok 5 "@calculatedFrom(" 33 0 false; mkTok 31 """// no comment""" 33 17 false; mkTok 6 ")" 33 32 false; mkTok 43 "`// not a comment`" 33 33 false; mkTok 40 "," 33 52 false; mkTok 26 "int32" 34 4 false; mkTok 42 "int" 34 10 false; mkTok 40 "," 35 0 false; mkTok 42 "pack" 35 1 false; mkTok 2 "{" 35 6 false; mkTok 42 "zchar" 35 7 false; mkTok 40 "," 35 12 false; mkTok 3 "}" 36 0 false; mkTok 44 "// c" 36 2 true; mkTok 40 "," 37 0 false; mkTok 36 "repeat" 37 1 false; mkTok 14 "zchar[" 37 8 false; mkTok 30 "65535" 37 14 false; mkTok 13 "]" 37 20 false; mkTok 44 "// c" 38 4 true; mkTok 42 "x" 39 4 false; mkTok 40 "," 39 6 false; mkTok 32 "@rightPad" 40 0 false; mkTok 8 "(" 40 11 false; mkTok 33 "'0'" 40 14 false; mkTok 6 ")" 40 18 false; mkTok 44 "//x" 41 0 true; mkTok 44 "// c" 42 0 true; mkTok 28 "float32" 43 0 false; mkTok 42 "Z9_" 43 8 false; mkTok 40 "," 44 0 false; mkTok 5 "@calculatedFrom(" 44 2 false; mkTok 44 "// a // b" 45 0 true; mkTok 44 (string_of_bytes [47; 47; 32; 230; 179; 168; 233; 135; 138]%N) 46 0 true; mkTok 31 """`tick`""" 47 0 false; mkTok 6 ")" 48 4 false; mkTok 38 "match" 49 4 false; mkTok 42 "uint8x" 50 0 false; mkTok 17 "as" 51 4 false; mkTok 42 "Header" 52 0 false; mkTok 44 "// `tick` ""quote"" 'q'" 52 7 true; mkTok 2 "{" 53 0 false; mkTok 18 "[" 53 1 false; mkTok 30 "42" 53 2 false; mkTok 44 (string_of_bytes [47; 47; 32; 240; 159; 152; 128; 32; 101; 109; 111; 106; 105]%N) 54 4 true; mkTok 13 "]" 55 4 false; mkTok 39 ":" 56 4 false; mkTok 42 "f32a" 56 5 false; mkTok 40 "," 56 9 false; mkTok 30 "4294967296" 56 11 false; mkTok 39 ":" 57 4 false; mkTok 42 "matchKey" 58 4 false; mkTok 40 "," 58 13 false; mkTok 31 (string_of_bytes [34; 230; 182; 136; 230; 129; 175; 34]%N) 58 15 false; mkTok 44 "/// triple" 59 4 true; mkTok 39 ":" 60 4 false; mkTok 42 "tag" 60 6 false; mkTok 30 "1" 60 10 false; mkTok 39 ":" 60 12 false; mkTok 44 "// a // b" 60 13 true; mkTok 42 "body" 61 0 false; mkTok 40 "," 62 0 false; mkTok 3 "}" 62 2 false; mkTok 40 "," 63 4 false; mkTok 9 "@tag(" 64 0 false; mkTok 44 "// a // b" 64 5 true; mkTok 30 "007" 65 0 false; mkTok 6 ")" 66 4 false; mkTok 5 "@calculatedFrom(" 66 5 false; mkTok 31 """a\\""" 66 22 false; mkTok 6 ")" 66 28 false; mkTok 7 "@lengthOf(" 66 30 false; mkTok 42 "metadata" 67 0 false; mkTok 6 ")" 67 9 false; mkTok 36 "repeat" 67 11 false; mkTok 42 "chars" 67 18 false; mkTok 40 "," 67 24 false; mkTok 3 "}" 67 25 false; mkTok 35 "packet" 68 0 false; mkTok 42 "roots" 68 7 false; mkTok 2 "{" 68 13 false; mkTok 12 "char[" 68 15 false; mkTok 30 "007" 68 20 false; mkTok 13 "]" 69 4 false; mkTok 42 "Foo" 70 0 false; mkTok 7 "@lengthOf(" 70 3 false; mkTok 42 "zchar" 70 13 false; mkTok 6 ")" 70 19 false; mkTok 43 (string_of_bytes [96; 108; 105; 110; 101; 49; 10; 108; 105; 110; 101; 50; 96]%N) 70 21 false; mkTok 40 "," 71 7 false; mkTok 9 "@tag(" 71 9 false; mkTok 30 "255" 71 15 false; mkTok 6 ")" 71 19 false; mkTok 38 "match" 71 21 false; mkTok 42 "crc" 71 27 false; mkTok 17 "as" 71 31 false; mkTok 42 "lengthOf" 71 34 false; mkTok 2 "{" 71 43 false; mkTok 18 "[" 71 44 false; mkTok 31 """// no comment""" 71 46 false; mkTok 13 "]" 71 62 false; mkTok 39 ":" 72 0 false; mkTok 42 "Header" 73 4 false; mkTok 40 "," 73 11 false; mkTok 44 "//x" 74 4 true; mkTok 30 "1" 75 4 false; mkTok 39 ":" 75 6 false; mkTok 44 (string_of_bytes [47; 47; 32; 240; 159; 152; 128; 32; 101; 109; 111; 106; 105]%N) 75 7 true; mkTok 42 "crc" 76 0 false; mkTok 40 "," 76 4 false; mkTok 31 """\n""" 76 5 false; mkTok 39 ":" 76 10 false; mkTok 42 "options1" 76 13 false; mkTok 40 "," 76 22 false; mkTok 18 "[" 76 24 false; mkTok 30 "1" 76 26 false; mkTok 40 "," 76 27 false; mkTok 31 (string_of_bytes [34; 230; 182; 136; 230; 129; 175; 34]%N) 76 29 false; mkTok 40 "," 77 4 false; mkTok 30 "00" 78 4 false; mkTok 40 "," 78 6 false; mkTok 30 "1" 78 8 false; mkTok 40 "," 78 9 false; mkTok 44 (string_of_bytes [47; 47; 9; 116]%N) 78 11 true; mkTok 30 "42" 79 0 false; mkTok 40 "," 79 3 false; mkTok 30 "65535" 79 4 false; mkTok 13 "]" 79 11 false; mkTok 39 ":" 79 13 false; mkTok 42 "Z9_" 79 15 false; mkTok 40 "," 79 18 false; mkTok 3 "}" 79 19 false; mkTok 44 "//x" 80 0 true; mkTok 44 "// a // b" 81 0 true; mkTok 40 "," 82 0 false; mkTok 14 "zchar[" 82 1 false; mkTok 30 "4294967296" 82 8 false; mkTok 13 "]" 83 0 false; mkTok 42 "As" 83 2 false; mkTok 43 "`say ""hi""`" 83 5 false; mkTok 40 "," 84 4 false; mkTok 7 "@lengthOf(" 84 6 false; mkTok 42 "stringy" 84 17 false; mkTok 6 ")" 84 25 false; mkTok 42 "chars" 84 27 false; mkTok 2 "{" 85 0 false; mkTok 28 "float32" 85 1 false; mkTok 42 "u8x" 85 9 false; mkTok 40 "," 85 12 false; mkTok 3 "}" 85 13 false; mkTok 40 "," 85 15 false; mkTok 12 "char[" 86 4 false; mkTok 30 "255" 86 10 false; mkTok 13 "]" 86 14 false; mkTok 42 "Pad" 86 16 false; mkTok 7 "@lengthOf(" 87 4 false; mkTok 42 "u8x" 87 14 false; mkTok 6 ")" 87 18 false; mkTok 40 "," 87 20 false; mkTok 27 "int64" 88 0 false; mkTok 42 "metadata" 88 6 false; mkTok 40 "," 88 14 false; mkTok 44 "// c" 89 4 true; mkTok 20 "uint8" 90 4 false; mkTok 42 "x_y_z" 90 10 false; mkTok 7 "@lengthOf(" 90 16 false; mkTok 44 "//" 91 4 true; mkTok 42 "Header" 92 4 false; mkTok 6 ")" 92 11 false; mkTok 43 "`two words`" 92 12 false; mkTok 40 "," 92 23 false; mkTok 36 "repeat" 92 25 false; mkTok 14 "zchar[" 92 32 false; mkTok 30 "42" 92 39 false; mkTok 13 "]" 92 42 false; mkTok 42 "calculatedFrom" 92 44 false; mkTok 43 "`it's`" 92 59 false; mkTok 40 "," 92 66 false; mkTok 32 "@rightPad" 92 68 false; mkTok 8 "(" 93 0 false; mkTok 33 "'\x00'" 94 0 false; mkTok 6 ")" 94 7 false; mkTok 36 "repeat" 95 4 false; mkTok 42 "crc" 96 4 false; mkTok 44 "// @lengthOf(" 97 4 true; mkTok 2 "{" 98 4 false; mkTok 44 "// trailing space " 99 4 true; mkTok 36 "repeat" 100 4 false; mkTok 42 "As" 100 11 false; mkTok 2 "{" 100 14 false; mkTok 42 "i64_" 101 0 false; mkTok 43 (string_of_bytes [96; 108; 105; 110; 101; 49; 10; 108; 105; 110; 101; 50; 96]%N) 101 4 false; mkTok 40 "," 102 7 false; mkTok 3 "}" 102 9 false; mkTok 40 "," 102 11 false; mkTok 3 "}" 102 12 false; mkTok 40 "," 103 0 false; mkTok 3 "}" 103 2 false; mkTok 0 "<EOF>" 104 0 false] (mkPacket (mkPtok 37 "MetaData" 1 0 0) (Some (mkPtok 3 "}" 103 2 273)) [(DMeta (mkMetaDef (mkSpan (mkPtok 37 "MetaData" 1 0 0) (mkPtok 3 "}" 3 21 12)) (mkPtok 37 "MetaData" 1 0 0) (mkPtok 42 "trueish" 1 9 1) (mkPtok 2 "{" 1 17 2) [(MIDecl (mkMetaDecl (mkSpan (mkPtok 28 "f32" 1 19 3) (mkPtok 40 "," 2 10 6)) (TyBasic (mkSpan (mkPtok 28 "f32" 1 19 3) (mkPtok 28 "f32" 1 19 3)) (mkBasicType (mkSpan (mkPtok 28 "f32" 1 19 3) (mkPtok 28 "f32" 1 19 3)) (mkPtok 28 "f32" 1 19 3))) (mkPtok 42 "a1" 2 0 4) (Some (mkPtok 43 "`it's`" 2 3 5)) (mkPtok 40 "," 2 10 6))); (MIRef (mkRefMetaDecl (mkSpan (mkPtok 42 "A" 2 12 7) (mkPtok 40 "," 3 19 11)) (mkPtok 42 "A" 2 12 7) (mkPtok 42 "lengthOf" 3 0 9) (Some (mkPtok 43 (string_of_bytes [96; 116; 97; 98; 9; 104; 101; 114; 101; 96]%N) 3 8 10)) (mkPtok 40 "," 3 19 11)))] (mkPtok 3 "}" 3 21 12))); (DMeta (mkMetaDef (mkSpan (mkPtok 37 "MetaData" 3 23 13) (mkPtok 3 "}" 11 0 24)) (mkPtok 37 "MetaData" 3 23 13) (mkPtok 42 "BodyLength" 3 32 14) (mkPtok 2 "{" 4 0 15) [(MIDecl (mkMetaDecl (mkSpan (mkPtok 12 "char[" 6 4 17) (mkPtok 40 "," 10 0 23)) (TyFixed (mkSpan (mkPtok 12 "char[" 6 4 17) (mkPtok 13 "]" 7 11 19)) (mkFixedString (mkSpan (mkPtok 12 "char[" 6 4 17) (mkPtok 13 "]" 7 11 19)) (mkPtok 12 "char[" 6 4 17) (mkPtok 30 "0123456789" 7 0 18) (mkPtok 13 "]" 7 11 19))) (mkPtok 42 "stringy" 7 12 20) None (mkPtok 40 "," 10 0 23)))] (mkPtok 3 "}" 11 0 24))); (DPacket (mkPacketDef (mkSpan (mkPtok 35 "packet" 11 2 25) (mkPtok 3 "}" 67 25 153)) None (mkPtok 35 "packet" 11 2 25) (mkPtok 42 "string_" 11 9 26) (mkPtok 2 "{" 11 17 27) [(mkFieldWithAttr (mkSpan (mkPtok 32 "@rightPad" 11 19 28) (mkPtok 40 "," 12 4 33)) [(FAPadding (mkSpan (mkPtok 32 "@rightPad" 11 19 28) (mkPtok 6 ")" 11 34 31)) (mkPaddingAttr (mkSpan (mkPtok 32 "@rightPad" 11 19 28) (mkPtok 6 ")" 11 34 31)) (mkPtok 32 "@rightPad" 11 19 28) (mkPtok 8 "(" 11 29 29) (Some (mkPtok 33 "'0'" 11 30 30)) (mkPtok 6 ")" 11 34 31)))] (ObjectField (mkSpan (mkPtok 42 "asx" 11 36 32) (mkPtok 40 "," 12 4 33)) None (mkPtok 42 "asx" 11 36 32) None None (mkPtok 40 "," 12 4 33))); (mkFieldWithAttr (mkSpan (mkPtok 5 "@calculatedFrom(" 12 6 34) (mkPtok 40 "," 14 10 43)) [(FACalculatedFrom (mkSpan (mkPtok 5 "@calculatedFrom(" 12 6 34) (mkPtok 6 ")" 13 4 36)) (mkCalculatedFrom (mkSpan (mkPtok 5 "@calculatedFrom(" 12 6 34) (mkPtok 6 ")" 13 4 36)) (mkPtok 5 "@calculatedFrom(" 12 6 34) (mkPtok 31 """abc""" 12 22 35) (mkPtok 6 ")" 13 4 36)))] (MetaField (mkSpan (mkPtok 36 "repeat" 13 5 37) (mkPtok 40 "," 14 10 43)) (Some (mkPtok 36 "repeat" 13 5 37)) (mkMetaDecl (mkSpan (mkPtok 12 "char[" 13 12 38) (mkPtok 40 "," 14 10 43)) (TyFixed (mkSpan (mkPtok 12 "char[" 13 12 38) (mkPtok 13 "]" 14 0 41)) (mkFixedString (mkSpan (mkPtok 12 "char[" 13 12 38) (mkPtok 13 "]" 14 0 41)) (mkPtok 12 "char[" 13 12 38) (mkPtok 30 "4294967296" 13 18 39) (mkPtok 13 "]" 14 0 41))) (mkPtok 42 "packetx" 14 2 42) None (mkPtok 40 "," 14 10 43)))); (mkFieldWithAttr (mkSpan (mkPtok 36 "repeat" 17 0 46) (mkPtok 40 "," 30 5 73)) [] (InerObjectField (mkSpan (mkPtok 36 "repeat" 17 0 46) (mkPtok 40 "," 30 5 73)) (Some (mkPtok 36 "repeat" 17 0 46)) (InerObjectDecl (mkSpan (mkPtok 42 "o" 18 0 47) (mkPtok 3 "}" 30 2 72)) (mkPtok 42 "o" 18 0 47) (mkPtok 2 "{" 20 4 49) [(MetaField (mkSpan (mkPtok 27 "int64" 21 0 51) (mkPtok 40 "," 22 3 53)) None (mkMetaDecl (mkSpan (mkPtok 27 "int64" 21 0 51) (mkPtok 40 "," 22 3 53)) (TyBasic (mkSpan (mkPtok 27 "int64" 21 0 51) (mkPtok 27 "int64" 21 0 51)) (mkBasicType (mkSpan (mkPtok 27 "int64" 21 0 51) (mkPtok 27 "int64" 21 0 51)) (mkPtok 27 "int64" 21 0 51))) (mkPtok 42 "u8x" 22 0 52) None (mkPtok 40 "," 22 3 53))); (MetaField (mkSpan (mkPtok 36 "repeat" 22 4 54) (mkPtok 40 "," 24 0 58)) (Some (mkPtok 36 "repeat" 22 4 54)) (mkMetaDecl (mkSpan (mkPtok 22 "u32" 22 11 55) (mkPtok 40 "," 24 0 58)) (TyBasic (mkSpan (mkPtok 22 "u32" 22 11 55) (mkPtok 22 "u32" 22 11 55)) (mkBasicType (mkSpan (mkPtok 22 "u32" 22 11 55) (mkPtok 22 "u32" 22 11 55)) (mkPtok 22 "u32" 22 11 55))) (mkPtok 42 "leftPad" 22 15 56) (Some (mkPtok 43 "`a\`" 23 0 57)) (mkPtok 40 "," 24 0 58))); (MetaField (mkSpan (mkPtok 16 "char[]" 25 0 60) (mkPtok 40 "," 26 0 63)) None (mkMetaDecl (mkSpan (mkPtok 16 "char[]" 25 0 60) (mkPtok 40 "," 26 0 63)) (TyDynamic (mkSpan (mkPtok 16 "char[]" 25 0 60) (mkPtok 16 "char[]" 25 0 60)) (mkDynamicString (mkSpan (mkPtok 16 "char[]" 25 0 60) (mkPtok 16 "char[]" 25 0 60)) (mkPtok 16 "char[]" 25 0 60))) (mkPtok 42 "charz" 25 7 61) (Some (mkPtok 43 "`doc`" 25 13 62)) (mkPtok 40 "," 26 0 63))); (CheckSumField (mkSpan (mkPtok 14 "zchar[" 26 1 64) (mkPtok 40 "," 30 0 71)) (mkChecksumFieldDecl (mkSpan (mkPtok 14 "zchar[" 26 1 64) (mkPtok 40 "," 30 0 71)) (Some (TyFixed (mkSpan (mkPtok 14 "zchar[" 26 1 64) (mkPtok 13 "]" 28 0 66)) (mkFixedString (mkSpan (mkPtok 14 "zchar[" 26 1 64) (mkPtok 13 "]" 28 0 66)) (mkPtok 14 "zchar[" 26 1 64) (mkPtok 30 "65535" 27 0 65) (mkPtok 13 "]" 28 0 66)))) (mkPtok 42 "lengthOf" 28 2 67) (mkCalculatedFrom (mkSpan (mkPtok 5 "@calculatedFrom(" 28 10 68) (mkPtok 6 ")" 29 4 70)) (mkPtok 5 "@calculatedFrom(" 28 10 68) (mkPtok 31 """a\\""" 28 28 69) (mkPtok 6 ")" 29 4 70)) None (mkPtok 40 "," 30 0 71)))] (mkPtok 3 "}" 30 2 72)) (mkPtok 40 "," 30 5 73))); (mkFieldWithAttr (mkSpan (mkPtok 42 "leftPad" 32 4 75) (mkPtok 40 "," 33 52 80)) [] (CheckSumField (mkSpan (mkPtok 42 "leftPad" 32 4 75) (mkPtok 40 "," 33 52 80)) (mkChecksumFieldDecl (mkSpan (mkPtok 42 "leftPad" 32 4 75) (mkPtok 40 "," 33 52 80)) None (mkPtok 42 "leftPad" 32 4 75) (mkCalculatedFrom (mkSpan (mkPtok 5 "@calculatedFrom(" 33 0 76) (mkPtok 6 ")" 33 32 78)) (mkPtok 5 "@calculatedFrom(" 33 0 76) (mkPtok 31 """// no comment""" 33 17 77) (mkPtok 6 ")" 33 32 78)) (Some (mkPtok 43 "`// not a comment`" 33 33 79)) (mkPtok 40 "," 33 52 80)))); (mkFieldWithAttr (mkSpan (mkPtok 26 "int32" 34 4 81) (mkPtok 40 "," 35 0 83)) [] (MetaField (mkSpan (mkPtok 26 "int32" 34 4 81) (mkPtok 40 "," 35 0 83)) None (mkMetaDecl (mkSpan (mkPtok 26 "int32" 34 4 81) (mkPtok 40 "," 35 0 83)) (TyBasic (mkSpan (mkPtok 26 "int32" 34 4 81) (mkPtok 26 "int32" 34 4 81)) (mkBasicType (mkSpan (mkPtok 26 "int32" 34 4 81) (mkPtok 26 "int32" 34 4 81)) (mkPtok 26 "int32" 34 4 81))) (mkPtok 42 "int" 34 10 82) None (mkPtok 40 "," 35 0 83)))); (mkFieldWithAttr (mkSpan (mkPtok 42 "pack" 35 1 84) (mkPtok 40 "," 37 0 90)) [] (InerObjectField (mkSpan (mkPtok 42 "pack" 35 1 84) (mkPtok 40 "," 37 0 90)) None (InerObjectDecl (mkSpan (mkPtok 42 "pack" 35 1 84) (mkPtok 3 "}" 36 0 88)) (mkPtok 42 "pack" 35 1 84) (mkPtok 2 "{" 35 6 85) [(ObjectField (mkSpan (mkPtok 42 "zchar" 35 7 86) (mkPtok 40 "," 35 12 87)) None (mkPtok 42 "zchar" 35 7 86) None None (mkPtok 40 "," 35 12 87))] (mkPtok 3 "}" 36 0 88)) (mkPtok 40 "," 37 0 90))); (mkFieldWithAttr (mkSpan (mkPtok 36 "repeat" 37 1 91) (mkPtok 40 "," 39 6 97)) [] (MetaField (mkSpan (mkPtok 36 "repeat" 37 1 91) (mkPtok 40 "," 39 6 97)) (Some (mkPtok 36 "repeat" 37 1 91)) (mkMetaDecl (mkSpan (mkPtok 14 "zchar[" 37 8 92) (mkPtok 40 "," 39 6 97)) (TyFixed (mkSpan (mkPtok 14 "zchar[" 37 8 92) (mkPtok 13 "]" 37 20 94)) (mkFixedString (mkSpan (mkPtok 14 "zchar[" 37 8 92) (mkPtok 13 "]" 37 20 94)) (mkPtok 14 "zchar[" 37 8 92) (mkPtok 30 "65535" 37 14 93) (mkPtok 13 "]" 37 20 94))) (mkPtok 42 "x" 39 4 96) None (mkPtok 40 "," 39 6 97)))); (mkFieldWithAttr (mkSpan (mkPtok 32 "@rightPad" 40 0 98) (mkPtok 40 "," 44 0 106)) [(FAPadding (mkSpan (mkPtok 32 "@rightPad" 40 0 98) (mkPtok 6 ")" 40 18 101)) (mkPaddingAttr (mkSpan (mkPtok 32 "@rightPad" 40 0 98) (mkPtok 6 ")" 40 18 101)) (mkPtok 32 "@rightPad" 40 0 98) (mkPtok 8 "(" 40 11 99) (Some (mkPtok 33 "'0'" 40 14 100)) (mkPtok 6 ")" 40 18 101)))] (MetaField (mkSpan (mkPtok 28 "float32" 43 0 104) (mkPtok 40 "," 44 0 106)) None (mkMetaDecl (mkSpan (mkPtok 28 "float32" 43 0 104) (mkPtok 40 "," 44 0 106)) (TyBasic (mkSpan (mkPtok 28 "float32" 43 0 104) (mkPtok 28 "float32" 43 0 104)) (mkBasicType (mkSpan (mkPtok 28 "float32" 43 0 104) (mkPtok 28 "float32" 43 0 104)) (mkPtok 28 "float32" 43 0 104))) (mkPtok 42 "Z9_" 43 8 105) None (mkPtok 40 "," 44 0 106)))); (mkFieldWithAttr (mkSpan (mkPtok 5 "@calculatedFrom(" 44 2 107) (mkPtok 40 "," 63 4 139)) [(FACalculatedFrom (mkSpan (mkPtok 5 "@calculatedFrom(" 44 2 107) (mkPtok 6 ")" 48 4 111)) (mkCalculatedFrom (mkSpan (mkPtok 5 "@calculatedFrom(" 44 2 107) (mkPtok 6 ")" 48 4 111)) (mkPtok 5 "@calculatedFrom(" 44 2 107) (mkPtok 31 """`tick`""" 47 0 110) (mkPtok 6 ")" 48 4 111)))] (MatchField (mkSpan (mkPtok 38 "match" 49 4 112) (mkPtok 40 "," 63 4 139)) (mkMatchFieldDecl (mkSpan (mkPtok 38 "match" 49 4 112) (mkPtok 3 "}" 62 2 138)) (mkPtok 38 "match" 49 4 112) (mkPtok 42 "uint8x" 50 0 113) (mkPtok 17 "as" 51 4 114) (mkPtok 42 "Header" 52 0 115) (mkPtok 2 "{" 53 0 117) [(mkMatchPair (mkSpan (mkPtok 18 "[" 53 1 118) (mkPtok 40 "," 56 9 124)) (MKList (mkKeyList (mkSpan (mkPtok 18 "[" 53 1 118) (mkPtok 13 "]" 55 4 121)) (mkPtok 18 "[" 53 1 118) (mkPtok 30 "42" 53 2 119) [] (mkPtok 13 "]" 55 4 121))) (mkPtok 39 ":" 56 4 122) (mkPtok 42 "f32a" 56 5 123) (Some (mkPtok 40 "," 56 9 124))); (mkMatchPair (mkSpan (mkPtok 30 "4294967296" 56 11 125) (mkPtok 40 "," 58 13 128)) (MKDigits (mkPtok 30 "4294967296" 56 11 125)) (mkPtok 39 ":" 57 4 126) (mkPtok 42 "matchKey" 58 4 127) (Some (mkPtok 40 "," 58 13 128))); (mkMatchPair (mkSpan (mkPtok 31 (string_of_bytes [34; 230; 182; 136; 230; 129; 175; 34]%N) 58 15 129) (mkPtok 42 "tag" 60 6 132)) (MKString (mkPtok 31 (string_of_bytes [34; 230; 182; 136; 230; 129; 175; 34]%N) 58 15 129)) (mkPtok 39 ":" 60 4 131) (mkPtok 42 "tag" 60 6 132) None); (mkMatchPair (mkSpan (mkPtok 30 "1" 60 10 133) (mkPtok 40 "," 62 0 137)) (MKDigits (mkPtok 30 "1" 60 10 133)) (mkPtok 39 ":" 60 12 134) (mkPtok 42 "body" 61 0 136) (Some (mkPtok 40 "," 62 0 137)))] (mkPtok 3 "}" 62 2 138)) (mkPtok 40 "," 63 4 139))); (mkFieldWithAttr (mkSpan (mkPtok 9 "@tag(" 64 0 140) (mkPtok 40 "," 67 24 152)) [(FATag (mkSpan (mkPtok 9 "@tag(" 64 0 140) (mkPtok 6 ")" 66 4 143)) (mkTagAttr (mkSpan (mkPtok 9 "@tag(" 64 0 140) (mkPtok 6 ")" 66 4 143)) (mkPtok 9 "@tag(" 64 0 140) (mkPtok 30 "007" 65 0 142) (mkPtok 6 ")" 66 4 143))); (FACalculatedFrom (mkSpan (mkPtok 5 "@calculatedFrom(" 66 5 144) (mkPtok 6 ")" 66 28 146)) (mkCalculatedFrom (mkSpan (mkPtok 5 "@calculatedFrom(" 66 5 144) (mkPtok 6 ")" 66 28 146)) (mkPtok 5 "@calculatedFrom(" 66 5 144) (mkPtok 31 """a\\""" 66 22 145) (mkPtok 6 ")" 66 28 146))); (FALengthOf (mkSpan (mkPtok 7 "@lengthOf(" 66 30 147) (mkPtok 6 ")" 67 9 149)) (mkLengthOf (mkSpan (mkPtok 7 "@lengthOf(" 66 30 147) (mkPtok 6 ")" 67 9 149)) (mkPtok 7 "@lengthOf(" 66 30 147) (mkPtok 42 "metadata" 67 0 148) (mkPtok 6 ")" 67 9 149)))] (ObjectField (mkSpan (mkPtok 36 "repeat" 67 11 150) (mkPtok 40 "," 67 24 152)) (Some (mkPtok 36 "repeat" 67 11 150)) (mkPtok 42 "chars" 67 18 151) None None (mkPtok 40 "," 67 24 152)))] (mkPtok 3 "}" 67 25 153))); (DPacket (mkPacketDef (mkSpan (mkPtok 35 "packet" 68 0 154) (mkPtok 3 "}" 103 2 273)) None (mkPtok 35 "packet" 68 0 154) (mkPtok 42 "roots" 68 7 155) (mkPtok 2 "{" 68 13 156) [(mkFieldWithAttr (mkSpan (mkPtok 12 "char[" 68 15 157) (mkPtok 40 "," 71 7 165)) [] (LengthField (mkSpan (mkPtok 12 "char[" 68 15 157) (mkPtok 40 "," 71 7 165)) (mkLengthFieldDecl (mkSpan (mkPtok 12 "char[" 68 15 157) (mkPtok 40 "," 71 7 165)) (Some (TyFixed (mkSpan (mkPtok 12 "char[" 68 15 157) (mkPtok 13 "]" 69 4 159)) (mkFixedString (mkSpan (mkPtok 12 "char[" 68 15 157) (mkPtok 13 "]" 69 4 159)) (mkPtok 12 "char[" 68 15 157) (mkPtok 30 "007" 68 20 158) (mkPtok 13 "]" 69 4 159)))) (mkPtok 42 "Foo" 70 0 160) (mkLengthOf (mkSpan (mkPtok 7 "@lengthOf(" 70 3 161) (mkPtok 6 ")" 70 19 163)) (mkPtok 7 "@lengthOf(" 70 3 161) (mkPtok 42 "zchar" 70 13 162) (mkPtok 6 ")" 70 19 163)) (Some (mkPtok 43 (string_of_bytes [96; 108; 105; 110; 101; 49; 10; 108; 105; 110; 101; 50; 96]%N) 70 21 164)) (mkPtok 40 "," 71 7 165)))); (mkFieldWithAttr (mkSpan (mkPtok 9 "@tag(" 71 9 166) (mkPtok 40 "," 82 0 210)) [(FATag (mkSpan (mkPtok 9 "@tag(" 71 9 166) (mkPtok 6 ")" 71 19 168)) (mkTagAttr (mkSpan (mkPtok 9 "@tag(" 71 9 166) (mkPtok 6 ")" 71 19 168)) (mkPtok 9 "@tag(" 71 9 166) (mkPtok 30 "255" 71 15 167) (mkPtok 6 ")" 71 19 168)))] (MatchField (mkSpan (mkPtok 38 "match" 71 21 169) (mkPtok 40 "," 82 0 210)) (mkMatchFieldDecl (mkSpan (mkPtok 38 "match" 71 21 169) (mkPtok 3 "}" 79 19 207)) (mkPtok 38 "match" 71 21 169) (mkPtok 42 "crc" 71 27 170) (mkPtok 17 "as" 71 31 171) (mkPtok 42 "lengthOf" 71 34 172) (mkPtok 2 "{" 71 43 173) [(mkMatchPair (mkSpan (mkPtok 18 "[" 71 44 174) (mkPtok 40 "," 73 11 179)) (MKList (mkKeyList (mkSpan (mkPtok 18 "[" 71 44 174) (mkPtok 13 "]" 71 62 176)) (mkPtok 18 "[" 71 44 174) (mkPtok 31 """// no comment""" 71 46 175) [] (mkPtok 13 "]" 71 62 176))) (mkPtok 39 ":" 72 0 177) (mkPtok 42 "Header" 73 4 178) (Some (mkPtok 40 "," 73 11 179))); (mkMatchPair (mkSpan (mkPtok 30 "1" 75 4 181) (mkPtok 40 "," 76 4 185)) (MKDigits (mkPtok 30 "1" 75 4 181)) (mkPtok 39 ":" 75 6 182) (mkPtok 42 "crc" 76 0 184) (Some (mkPtok 40 "," 76 4 185))); (mkMatchPair (mkSpan (mkPtok 31 """\n""" 76 5 186) (mkPtok 40 "," 76 22 189)) (MKString (mkPtok 31 """\n""" 76 5 186)) (mkPtok 39 ":" 76 10 187) (mkPtok 42 "options1" 76 13 188) (Some (mkPtok 40 "," 76 22 189))); (mkMatchPair (mkSpan (mkPtok 18 "[" 76 24 190) (mkPtok 40 "," 79 18 206)) (MKList (mkKeyList (mkSpan (mkPtok 18 "[" 76 24 190) (mkPtok 13 "]" 79 11 203)) (mkPtok 18 "[" 76 24 190) (mkPtok 30 "1" 76 26 191) [((mkPtok 40 "," 76 27 192), (mkPtok 31 (string_of_bytes [34; 230; 182; 136; 230; 129; 175; 34]%N) 76 29 193)); ((mkPtok 40 "," 77 4 194), (mkPtok 30 "00" 78 4 195)); ((mkPtok 40 "," 78 6 196), (mkPtok 30 "1" 78 8 197)); ((mkPtok 40 "," 78 9 198), (mkPtok 30 "42" 79 0 200)); ((mkPtok 40 "," 79 3 201), (mkPtok 30 "65535" 79 4 202))] (mkPtok 13 "]" 79 11 203))) (mkPtok 39 ":" 79 13 204) (mkPtok 42 "Z9_" 79 15 205) (Some (mkPtok 40 "," 79 18 206)))] (mkPtok 3 "}" 79 19 207)) (mkPtok 40 "," 82 0 210))); (mkFieldWithAttr (mkSpan (mkPtok 14 "zchar[" 82 1 211) (mkPtok 40 "," 84 4 216)) [] (MetaField (mkSpan (mkPtok 14 "zchar[" 82 1 211) (mkPtok 40 "," 84 4 216)) None (mkMetaDecl (mkSpan (mkPtok 14 "zchar[" 82 1 211) (mkPtok 40 "," 84 4 216)) (TyFixed (mkSpan (mkPtok 14 "zchar[" 82 1 211) (mkPtok 13 "]" 83 0 213)) (mkFixedString (mkSpan (mkPtok 14 "zchar[" 82 1 211) (mkPtok 13 "]" 83 0 213)) (mkPtok 14 "zchar[" 82 1 211) (mkPtok 30 "4294967296" 82 8 212) (mkPtok 13 "]" 83 0 213))) (mkPtok 42 "As" 83 2 214) (Some (mkPtok 43 "`say ""hi""`" 83 5 215)) (mkPtok 40 "," 84 4 216)))); (mkFieldWithAttr (mkSpan (mkPtok 7 "@lengthOf(" 84 6 217) (mkPtok 40 "," 85 15 226)) [(FALengthOf (mkSpan (mkPtok 7 "@lengthOf(" 84 6 217) (mkPtok 6 ")" 84 25 219)) (mkLengthOf (mkSpan (mkPtok 7 "@lengthOf(" 84 6 217) (mkPtok 6 ")" 84 25 219)) (mkPtok 7 "@lengthOf(" 84 6 217) (mkPtok 42 "stringy" 84 17 218) (mkPtok 6 ")" 84 25 219)))] (InerObjectField (mkSpan (mkPtok 42 "chars" 84 27 220) (mkPtok 40 "," 85 15 226)) None (InerObjectDecl (mkSpan (mkPtok 42 "chars" 84 27 220) (mkPtok 3 "}" 85 13 225)) (mkPtok 42 "chars" 84 27 220) (mkPtok 2 "{" 85 0 221) [(MetaField (mkSpan (mkPtok 28 "float32" 85 1 222) (mkPtok 40 "," 85 12 224)) None (mkMetaDecl (mkSpan (mkPtok 28 "float32" 85 1 222) (mkPtok 40 "," 85 12 224)) (TyBasic (mkSpan (mkPtok 28 "float32" 85 1 222) (mkPtok 28 "float32" 85 1 222)) (mkBasicType (mkSpan (mkPtok 28 "float32" 85 1 222) (mkPtok 28 "float32" 85 1 222)) (mkPtok 28 "float32" 85 1 222))) (mkPtok 42 "u8x" 85 9 223) None (mkPtok 40 "," 85 12 224)))] (mkPtok 3 "}" 85 13 225)) (mkPtok 40 "," 85 15 226))); (mkFieldWithAttr (mkSpan (mkPtok 12 "char[" 86 4 227) (mkPtok 40 "," 87 20 234)) [] (LengthField (mkSpan (mkPtok 12 "char[" 86 4 227) (mkPtok 40 "," 87 20 234)) (mkLengthFieldDecl (mkSpan (mkPtok 12 "char[" 86 4 227) (mkPtok 40 "," 87 20 234)) (Some (TyFixed (mkSpan (mkPtok 12 "char[" 86 4 227) (mkPtok 13 "]" 86 14 229)) (mkFixedString (mkSpan (mkPtok 12 "char[" 86 4 227) (mkPtok 13 "]" 86 14 229)) (mkPtok 12 "char[" 86 4 227) (mkPtok 30 "255" 86 10 228) (mkPtok 13 "]" 86 14 229)))) (mkPtok 42 "Pad" 86 16 230) (mkLengthOf (mkSpan (mkPtok 7 "@lengthOf(" 87 4 231) (mkPtok 6 ")" 87 18 233)) (mkPtok 7 "@lengthOf(" 87 4 231) (mkPtok 42 "u8x" 87 14 232) (mkPtok 6 ")" 87 18 233)) None (mkPtok 40 "," 87 20 234)))); (mkFieldWithAttr (mkSpan (mkPtok 27 "int64" 88 0 235) (mkPtok 40 "," 88 14 237)) [] (MetaField (mkSpan (mkPtok 27 "int64" 88 0 235) (mkPtok 40 "," 88 14 237)) None (mkMetaDecl (mkSpan (mkPtok 27 "int64" 88 0 235) (mkPtok 40 "," 88 14 237)) (TyBasic (mkSpan (mkPtok 27 "int64" 88 0 235) (mkPtok 27 "int64" 88 0 235)) (mkBasicType (mkSpan (mkPtok 27 "int64" 88 0 235) (mkPtok 27 "int64" 88 0 235)) (mkPtok 27 "int64" 88 0 235))) (mkPtok 42 "metadata" 88 6 236) None (mkPtok 40 "," 88 14 237)))); (mkFieldWithAttr (mkSpan (mkPtok 20 "uint8" 90 4 239) (mkPtok 40 "," 92 23 246)) [] (LengthField (mkSpan (mkPtok 20 "uint8" 90 4 239) (mkPtok 40 "," 92 23 246)) (mkLengthFieldDecl (mkSpan (mkPtok 20 "uint8" 90 4 239) (mkPtok 40 "," 92 23 246)) (Some (TyBasic (mkSpan (mkPtok 20 "uint8" 90 4 239) (mkPtok 20 "uint8" 90 4 239)) (mkBasicType (mkSpan (mkPtok 20 "uint8" 90 4 239) (mkPtok 20 "uint8" 90 4 239)) (mkPtok 20 "uint8" 90 4 239)))) (mkPtok 42 "x_y_z" 90 10 240) (mkLengthOf (mkSpan (mkPtok 7 "@lengthOf(" 90 16 241) (mkPtok 6 ")" 92 11 244)) (mkPtok 7 "@lengthOf(" 90 16 241) (mkPtok 42 "Header" 92 4 243) (mkPtok 6 ")" 92 11 244)) (Some (mkPtok 43 "`two words`" 92 12 245)) (mkPtok 40 "," 92 23 246)))); (mkFieldWithAttr (mkSpan (mkPtok 36 "repeat" 92 25 247) (mkPtok 40 "," 92 66 253)) [] (MetaField (mkSpan (mkPtok 36 "repeat" 92 25 247) (mkPtok 40 "," 92 66 253)) (Some (mkPtok 36 "repeat" 92 25 247)) (mkMetaDecl (mkSpan (mkPtok 14 "zchar[" 92 32 248) (mkPtok 40 "," 92 66 253)) (TyFixed (mkSpan (mkPtok 14 "zchar[" 92 32 248) (mkPtok 13 "]" 92 42 250)) (mkFixedString (mkSpan (mkPtok 14 "zchar[" 92 32 248) (mkPtok 13 "]" 92 42 250)) (mkPtok 14 "zchar[" 92 32 248) (mkPtok 30 "42" 92 39 249) (mkPtok 13 "]" 92 42 250))) (mkPtok 42 "calculatedFrom" 92 44 251) (Some (mkPtok 43 "`it's`" 92 59 252)) (mkPtok 40 "," 92 66 253)))); (mkFieldWithAttr (mkSpan (mkPtok 32 "@rightPad" 92 68 254) (mkPtok 40 "," 103 0 272)) [(FAPadding (mkSpan (mkPtok 32 "@rightPad" 92 68 254) (mkPtok 6 ")" 94 7 257)) (mkPaddingAttr (mkSpan (mkPtok 32 "@rightPad" 92 68 254) (mkPtok 6 ")" 94 7 257)) (mkPtok 32 "@rightPad" 92 68 254) (mkPtok 8 "(" 93 0 255) (Some (mkPtok 33 "'\x00'" 94 0 256)) (mkPtok 6 ")" 94 7 257)))] (InerObjectField (mkSpan (mkPtok 36 "repeat" 95 4 258) (mkPtok 40 "," 103 0 272)) (Some (mkPtok 36 "repeat" 95 4 258)) (InerObjectDecl (mkSpan (mkPtok 42 "crc" 96 4 259) (mkPtok 3 "}" 102 12 271)) (mkPtok 42 "crc" 96 4 259) (mkPtok 2 "{" 98 4 261) [(InerObjectField (mkSpan (mkPtok 36 "repeat" 100 4 263) (mkPtok 40 "," 102 11 270)) (Some (mkPtok 36 "repeat" 100 4 263)) (InerObjectDecl (mkSpan (mkPtok 42 "As" 100 11 264) (mkPtok 3 "}" 102 9 269)) (mkPtok 42 "As" 100 11 264) (mkPtok 2 "{" 100 14 265) [(ObjectField (mkSpan (mkPtok 42 "i64_" 101 0 266) (mkPtok 40 "," 102 7 268)) None (mkPtok 42 "i64_" 101 0 266) None (Some (mkPtok 43 (string_of_bytes [96; 108; 105; 110; 101; 49; 10; 108; 105; 110; 101; 50; 96]%N) 101 4 267)) (mkPtok 40 "," 102 7 268))] (mkPtok 3 "}" 102 9 269)) (mkPtok 40 "," 102 11 270))] (mkPtok 3 "}" 102 12 271)) (mkPtok 40 "," 103 0 272)))] (mkPtok 3 "}" 103 2 273)))])).
-Eval vm_compute in ("<<<M1011>>>" ++ check (runes_of_ascii "packet packetx {
-}")).
-Eval vm_compute in ("<<<M1043>>>" ++ check (runes_of_ascii "root
-packet _x { // `tick` ""quote"" 'q'
-@tag( // " ++ [27880; 37322]%N ++ runes_of_ascii "
-1) zchar @lengthOf( len
-// trailing space 
-//	t
-), } packet metadata {
-uint8x{ a1
-Foo ,
-    }
-    , }options {rootA =""`tick`"" ; Pad // c
+f32a,	} options {	roots //x
 =
-    // a // b
-    65535} packet
-    //	t
-    charz { }
-")).
-Eval vm_compute in ("<<<M1075>>>" ++ check (runes_of_ascii "options { int = zchar[ // packet A { u8 x, }
-65535] ; zchar
-//x
-// trailing space 
-=  ' ' ;
-chars= // packet A { u8 x, }
-""\" ++ [233]%N ++ runes_of_ascii """ ;
-    Z9_  = '\x00' ;x_y_z = //	t
-false }")).
-Eval vm_compute in ("<<<M1107>>>" ++ check (runes_of_ascii "packet
-// " ++ [128512]%N ++ runes_of_ascii " emoji
-// @lengthOf(
-Header
-    {	}
-MetaData
-Packet {
-uint64 As `say ""hi""`,	}
-// trailing space 
-")).
-Eval vm_compute in ("<<<M1139>>>" ++ check (runes_of_ascii "MetaData A { } packet
-    asx { @calculatedFrom(""`tick`""
-) matchKey uint8x `" ++ [233]%N ++ runes_of_ascii "` ,
-}
-")).
-Eval vm_compute in ("<<<M1171>>>" ++ check (runes_of_ascii "options { pack  =  false
-;
-}
-")).
-Eval vm_compute in ("<<<M1203>>>" ++ check (runes_of_ascii "  ")).
-Eval vm_compute in ("<<<T1203>>>" ++ terms [mkTok 0 "<EOF>" 1 2 false] (mkPacket (mkPtok 0 "<EOF>" 1 2 0) None [])).
-Eval vm_compute in ("<<<M1235>>>" ++ check (runes_of_ascii "packet
-    pack { int64 options1  ,
-// packet A { u8 x, }
-//
-}
-")).
-Eval vm_compute in ("<<<M1267>>>" ++ check (runes_of_ascii "options
-    { Logon
-= ' ' } MetaData
-BodyLength{  }
-")).
-Eval vm_compute in ("<<<M1299>>>" ++ check (runes_of_ascii "options
-{ lengthOf = false ; }
-")).
-Eval vm_compute in ("<<<M1331>>>" ++ check (runes_of_ascii "options	{zchar = 10 As
-= u32// packet A { u8 x, }
-; A= ""a\\"" // " ++ [128512]%N ++ runes_of_ascii " emoji
-}
-")).
-Eval vm_compute in ("<<<M1363>>>" ++ check (runes_of_ascii "options { lengthOf
-    =
-""" ++ [128512]%N ++ runes_of_ascii """  Pad= ""it's""
-    Packet
-=' '
-;} packet
-stringy {@calculatedFrom( ""a\\"" ) stringy asx
-    //x
-    `doc` , f32a  , options1 { f64 BodyLength @lengthOf(i64_ )  , matchKey
-    // `tick` ""quote"" 'q'
-    roots,  repeat i8 chars ,
-    /// triple
-    } ,
-charz
-    string_ ,
-    i8  repeatCount `crlf
-line`
-, }
-    packet uint8x
-    {@tag( 00 // " ++ [128512]%N ++ runes_of_ascii " emoji
-)
-uint64	MetaDataX  ,@tag( 00
-) char uint8x @lengthOf(
-    uint8x
-    ) , roots @lengthOf( stringy  ) `
-`
-, @rightPad ()
-    zchar[ 0123456789
-    //
-    ] T//x
-`" ++ [233]%N ++ runes_of_ascii "`	, @tag(42
-) repeat i64
-    repeatCount // `tick` ""quote"" 'q'
-, falsey `doc` , char[65535]
-falsey
-`say ""hi""` , x_y_z
-    int, @lengthOf(  MetaDataX
-) match
-    Logon
-as
-    leftPad {""abc""	:
-zchar , 255
-: A	,},  }  MetaData falsey{
-    }
-    packet BodyLength
-{ Pad asx , @calculatedFrom(
-""a	b""// " ++ [27880; 37322]%N ++ runes_of_ascii "
-) string packetx
-//
-// packet A { u8 x, }
-`it's`, float64 uint8x
-`two words`
-    ,
-    zchar[ 007
-]	uint8x @calculatedFrom(
-    ""a\\"" //x
-)
-    `" ++ [28040; 24687; 31867; 22411]%N ++ runes_of_ascii "` ,}")).
-Eval vm_compute in ("<<<M1395>>>" ++ check (runes_of_ascii "  packet rootA { asx , @tag(
-    //x
-    10 // " ++ [128512]%N ++ runes_of_ascii " emoji
-)	@tag( 1	) @calculatedFrom( ""1"" ) /// triple
-charz @calculatedFrom( ""a\\"")`line1
-line2`, // @lengthOf(
-}")).
-Eval vm_compute in ("<<<M1427>>>" ++ check (runes_of_ascii "options	{ string_ // " ++ [128512]%N ++ runes_of_ascii " emoji
-= false ; } options { options1
-= '\x00' falsey=
-10 tag/// triple
-=65535}
-")).
-Eval vm_compute in ("<<<T1427>>>" ++ terms [mkTok 1 "options" 1 0 false; mkTok 2 "{" 1 8 false; mkTok 42 "string_" 1 10 false; mkTok 44 (string_of_bytes [47; 47; 32; 240; 159; 152; 128; 32; 101; 109; 111; 106; 105]%N) 1 18 true; mkTok 4 "=" 2 0 false; mkTok 11 "false" 2 2 false; mkTok 41 ";" 2 8 false; mkTok 3 "}" 2 10 false; mkTok 1 "options" 2 12 false; mkTok 2 "{" 2 20 false; mkTok 42 "options1" 2 22 false; mkTok 4 "=" 3 0 false; mkTok 33 "'\x00'" 3 2 false; mkTok 42 "falsey" 3 9 false; mkTok 4 "=" 3 15 false; mkTok 30 "10" 4 0 false; mkTok 42 "tag" 4 3 false; mkTok 44 "/// triple" 4 6 true; mkTok 4 "=" 5 0 false; mkTok 30 "65535" 5 1 false; mkTok 3 "}" 5 6 false; mkTok 0 "<EOF>" 6 0 false] (mkPacket (mkPtok 1 "options" 1 0 0) (Some (mkPtok 3 "}" 5 6 20)) [(DOption (mkOptionDef (mkSpan (mkPtok 1 "options" 1 0 0) (mkPtok 3 "}" 2 10 7)) (mkPtok 1 "options" 1 0 0) (mkPtok 2 "{" 1 8 1) [(mkOptionDecl (mkSpan (mkPtok 42 "string_" 1 10 2) (mkPtok 41 ";" 2 8 6)) (mkPtok 42 "string_" 1 10 2) (mkPtok 4 "=" 2 0 4) (VFalse (mkSpan (mkPtok 11 "false" 2 2 5) (mkPtok 11 "false" 2 2 5)) (mkPtok 11 "false" 2 2 5)) (Some (mkPtok 41 ";" 2 8 6)))] (mkPtok 3 "}" 2 10 7))); (DOption (mkOptionDef (mkSpan (mkPtok 1 "options" 2 12 8) (mkPtok 3 "}" 5 6 20)) (mkPtok 1 "options" 2 12 8) (mkPtok 2 "{" 2 20 9) [(mkOptionDecl (mkSpan (mkPtok 42 "options1" 2 22 10) (mkPtok 33 "'\x00'" 3 2 12)) (mkPtok 42 "options1" 2 22 10) (mkPtok 4 "=" 3 0 11) (VPaddingChar (mkSpan (mkPtok 33 "'\x00'" 3 2 12) (mkPtok 33 "'\x00'" 3 2 12)) (mkPtok 33 "'\x00'" 3 2 12)) None); (mkOptionDecl (mkSpan (mkPtok 42 "falsey" 3 9 13) (mkPtok 30 "10" 4 0 15)) (mkPtok 42 "falsey" 3 9 13) (mkPtok 4 "=" 3 15 14) (VDigits (mkSpan (mkPtok 30 "10" 4 0 15) (mkPtok 30 "10" 4 0 15)) (mkPtok 30 "10" 4 0 15)) None); (mkOptionDecl (mkSpan (mkPtok 42 "tag" 4 3 16) (mkPtok 30 "65535" 5 1 19)) (mkPtok 42 "tag" 4 3 16) (mkPtok 4 "=" 5 0 18) (VDigits (mkSpan (mkPtok 30 "65535" 5 1 19) (mkPtok 30 "65535" 5 1 19)) (mkPtok 30 "65535" 5 1 19)) None)] (mkPtok 3 "}" 5 6 20)))])).
-Eval vm_compute in ("<<<M1459>>>" ++ check (runes_of_ascii "root packet Header
-{repeat
 zchar[
-10 ]charz `two words`
-    , repeat
-    u8 uint8x
-`" ++ [233]%N ++ runes_of_ascii "`
-    //	t
-    , T@calculatedFrom(
-""{,}"" )
-    `u8 x,` ,
-char[1	] trueish
-    @lengthOf( x_y_z )
-    `crlf
-line` , repeat Pad
-    Foo ,
-    @lengthOf(  roots )repeat asx	,@rightPad
-( '0' ) @leftPad ('0' ) @leftPad('0'	) uint8  x @lengthOf( body) `crlf
-line` ,match body
-    as rootA {[ // " ++ [128512]%N ++ runes_of_ascii " emoji
-0 // " ++ [27880; 37322]%N ++ runes_of_ascii "
-, ""\n""] :
-x_y_z
+4294967296 ] ;  x
+=
+    65535 ; crc =	zchar[
+    // " ++ [27880; 37322]%N ++ runes_of_ascii "
+    7 ] ; metadata= char[]
+; leftPad
+    =
+i32 }")).
+Eval vm_compute in ("<<<T531>>>" ++ terms [mkTok 35 "packet" 1 0 false; mkTok 42 "o" 1 7 false; mkTok 2 "{" 1 9 false; mkTok 36 "repeat" 2 0 false; mkTok 42 "calculatedFrom" 3 4 false; mkTok 2 "{" 3 19 false; mkTok 42 "As" 3 21 false; mkTok 40 "," 4 4 false; mkTok 36 "repeat" 4 5 false; mkTok 42 "u" 5 0 false; mkTok 2 "{" 5 2 false; mkTok 44 (string_of_bytes [47; 47; 9; 116]%N) 5 3 true; mkTok 26 "i32" 6 0 false; mkTok 42 "repeatCount" 6 4 false; mkTok 40 "," 7 0 false; mkTok 3 "}" 7 2 false; mkTok 40 "," 7 3 false; mkTok 38 "match" 7 5 false; mkTok 42 "BodyLength" 7 11 false; mkTok 17 "as" 8 0 false; mkTok 42 "u8x" 8 3 false; mkTok 2 "{" 8 7 false; mkTok 30 "007" 8 9 false; mkTok 39 ":" 8 13 false; mkTok 42 "trueish" 9 0 false; mkTok 3 "}" 9 8 false; mkTok 40 "," 10 0 false; mkTok 42 "asx" 10 2 false; mkTok 42 "float" 10 6 false; mkTok 43 "`two words`" 10 13 false; mkTok 40 "," 11 0 false; mkTok 3 "}" 11 2 false; mkTok 40 "," 12 4 false; mkTok 38 "match" 12 6 false; mkTok 42 "pack" 12 12 false; mkTok 17 "as" 12 17 false; mkTok 44 "// `tick` ""quote"" 'q'" 12 19 true; mkTok 42 "calculatedFrom" 13 0 false; mkTok 2 "{" 13 15 false; mkTok 31 """it's""" 13 16 false; mkTok 39 ":" 13 23 false; mkTok 42 "Foo" 13 25 false; mkTok 40 "," 13 28 false; mkTok 44 "// 50% %s" 14 0 true; mkTok 44 "// @lengthOf(" 15 0 true; mkTok 3 "}" 16 0 false; mkTok 40 "," 17 0 false; mkTok 38 "match" 17 2 false; mkTok 42 "body" 17 8 false; mkTok 17 "as" 17 13 false; mkTok 42 "calculatedFrom" 18 4 false; mkTok 2 "{" 18 19 false; mkTok 18 "[" 18 21 false; mkTok 44 "// 50% %s" 19 4 true; mkTok 31 """a\""b""" 20 4 false; mkTok 13 "]" 20 11 false; mkTok 39 ":" 20 13 false; mkTok 42 "o" 20 15 false; mkTok 40 "," 20 17 false; mkTok 30 "42" 20 19 false; mkTok 39 ":" 21 4 false; mkTok 42 "Packet" 21 6 false; mkTok 40 "," 22 4 false; mkTok 44 "//" 22 6 true; mkTok 18 "[" 23 0 false; mkTok 30 "0123456789" 23 2 false; mkTok 40 "," 23 13 false; mkTok 30 "1" 23 14 false; mkTok 40 "," 23 16 false; mkTok 31 """1""" 23 18 false; mkTok 13 "]" 24 0 false; mkTok 39 ":" 24 2 false; mkTok 42 "float" 24 4 false; mkTok 40 "," 25 0 false; mkTok 3 "}" 25 1 false; mkTok 40 "," 26 0 false; mkTok 3 "}" 27 4 false; mkTok 37 "MetaData" 27 6 false; mkTok 42 "i64_" 28 0 false; mkTok 2 "{" 28 5 false; mkTok 42 "u128" 28 6 false; mkTok 44 "//x" 29 4 true; mkTok 42 "crc" 30 4 false; mkTok 43 "``" 31 4 false; mkTok 40 "," 31 7 false; mkTok 44 "// c" 31 9 true; mkTok 42 "string_" 32 0 false; mkTok 42 "u" 32 8 false; mkTok 40 "," 32 10 false; mkTok 24 "i8" 32 11 false; mkTok 42 "int" 32 14 false; mkTok 43 "`doc`" 33 4 false; mkTok 40 "," 33 9 false; mkTok 44 (string_of_bytes [47; 47; 32; 230; 179; 168; 233; 135; 138]%N) 34 4 true; mkTok 25 "i16" 35 4 false; mkTok 42 "x" 35 8 false; mkTok 43 "`doc`" 35 10 false; mkTok 40 "," 35 15 false; mkTok 42 "falsey" 35 17 false; mkTok 44 "/// triple" 36 0 true; mkTok 44 "//" 37 0 true; mkTok 42 "f32a" 38 0 false; mkTok 40 "," 38 4 false; mkTok 3 "}" 38 6 false; mkTok 1 "options" 38 8 false; mkTok 2 "{" 38 16 false; mkTok 42 "roots" 38 18 false; mkTok 44 "//x" 38 24 true; mkTok 4 "=" 39 0 false; mkTok 14 "zchar[" 40 0 false; mkTok 30 "4294967296" 41 0 false; mkTok 13 "]" 41 11 false; mkTok 41 ";" 41 13 false; mkTok 42 "x" 41 16 false; mkTok 4 "=" 42 0 false; mkTok 30 "65535" 43 4 false; mkTok 41 ";" 43 10 false; mkTok 42 "crc" 43 12 false; mkTok 4 "=" 43 16 false; mkTok 14 "zchar[" 43 18 false; mkTok 44 (string_of_bytes [47; 47; 32; 230; 179; 168; 233; 135; 138]%N) 44 4 true; mkTok 30 "7" 45 4 false; mkTok 13 "]" 45 6 false; mkTok 41 ";" 45 8 false; mkTok 42 "metadata" 45 10 false; mkTok 4 "=" 45 18 false; mkTok 16 "char[]" 45 20 false; mkTok 41 ";" 46 0 false; mkTok 42 "leftPad" 46 2 false; mkTok 4 "=" 47 4 false; mkTok 26 "i32" 48 0 false; mkTok 3 "}" 48 4 false; mkTok 0 "<EOF>" 48 5 false] (mkPacket (mkPtok 35 "packet" 1 0 0) (Some (mkPtok 3 "}" 48 4 131)) [(DPacket (mkPacketDef (mkSpan (mkPtok 35 "packet" 1 0 0) (mkPtok 3 "}" 27 4 76)) None (mkPtok 35 "packet" 1 0 0) (mkPtok 42 "o" 1 7 1) (mkPtok 2 "{" 1 9 2) [(mkFieldWithAttr (mkSpan (mkPtok 36 "repeat" 2 0 3) (mkPtok 40 "," 12 4 32)) [] (InerObjectField (mkSpan (mkPtok 36 "repeat" 2 0 3) (mkPtok 40 "," 12 4 32)) (Some (mkPtok 36 "repeat" 2 0 3)) (InerObjectDecl (mkSpan (mkPtok 42 "calculatedFrom" 3 4 4) (mkPtok 3 "}" 11 2 31)) (mkPtok 42 "calculatedFrom" 3 4 4) (mkPtok 2 "{" 3 19 5) [(ObjectField (mkSpan (mkPtok 42 "As" 3 21 6) (mkPtok 40 "," 4 4 7)) None (mkPtok 42 "As" 3 21 6) None None (mkPtok 40 "," 4 4 7)); (InerObjectField (mkSpan (mkPtok 36 "repeat" 4 5 8) (mkPtok 40 "," 7 3 16)) (Some (mkPtok 36 "repeat" 4 5 8)) (InerObjectDecl (mkSpan (mkPtok 42 "u" 5 0 9) (mkPtok 3 "}" 7 2 15)) (mkPtok 42 "u" 5 0 9) (mkPtok 2 "{" 5 2 10) [(MetaField (mkSpan (mkPtok 26 "i32" 6 0 12) (mkPtok 40 "," 7 0 14)) None (mkMetaDecl (mkSpan (mkPtok 26 "i32" 6 0 12) (mkPtok 40 "," 7 0 14)) (TyBasic (mkSpan (mkPtok 26 "i32" 6 0 12) (mkPtok 26 "i32" 6 0 12)) (mkBasicType (mkSpan (mkPtok 26 "i32" 6 0 12) (mkPtok 26 "i32" 6 0 12)) (mkPtok 26 "i32" 6 0 12))) (mkPtok 42 "repeatCount" 6 4 13) None (mkPtok 40 "," 7 0 14)))] (mkPtok 3 "}" 7 2 15)) (mkPtok 40 "," 7 3 16)); (MatchField (mkSpan (mkPtok 38 "match" 7 5 17) (mkPtok 40 "," 10 0 26)) (mkMatchFieldDecl (mkSpan (mkPtok 38 "match" 7 5 17) (mkPtok 3 "}" 9 8 25)) (mkPtok 38 "match" 7 5 17) (mkPtok 42 "BodyLength" 7 11 18) (mkPtok 17 "as" 8 0 19) (mkPtok 42 "u8x" 8 3 20) (mkPtok 2 "{" 8 7 21) [(mkMatchPair (mkSpan (mkPtok 30 "007" 8 9 22) (mkPtok 42 "trueish" 9 0 24)) (MKDigits (mkPtok 30 "007" 8 9 22)) (mkPtok 39 ":" 8 13 23) (mkPtok 42 "trueish" 9 0 24) None)] (mkPtok 3 "}" 9 8 25)) (mkPtok 40 "," 10 0 26)); (ObjectField (mkSpan (mkPtok 42 "asx" 10 2 27) (mkPtok 40 "," 11 0 30)) None (mkPtok 42 "asx" 10 2 27) (Some (mkPtok 42 "float" 10 6 28)) (Some (mkPtok 43 "`two words`" 10 13 29)) (mkPtok 40 "," 11 0 30))] (mkPtok 3 "}" 11 2 31)) (mkPtok 40 "," 12 4 32))); (mkFieldWithAttr (mkSpan (mkPtok 38 "match" 12 6 33) (mkPtok 40 "," 17 0 46)) [] (MatchField (mkSpan (mkPtok 38 "match" 12 6 33) (mkPtok 40 "," 17 0 46)) (mkMatchFieldDecl (mkSpan (mkPtok 38 "match" 12 6 33) (mkPtok 3 "}" 16 0 45)) (mkPtok 38 "match" 12 6 33) (mkPtok 42 "pack" 12 12 34) (mkPtok 17 "as" 12 17 35) (mkPtok 42 "calculatedFrom" 13 0 37) (mkPtok 2 "{" 13 15 38) [(mkMatchPair (mkSpan (mkPtok 31 """it's""" 13 16 39) (mkPtok 40 "," 13 28 42)) (MKString (mkPtok 31 """it's""" 13 16 39)) (mkPtok 39 ":" 13 23 40) (mkPtok 42 "Foo" 13 25 41) (Some (mkPtok 40 "," 13 28 42)))] (mkPtok 3 "}" 16 0 45)) (mkPtok 40 "," 17 0 46))); (mkFieldWithAttr (mkSpan (mkPtok 38 "match" 17 2 47) (mkPtok 40 "," 26 0 75)) [] (MatchField (mkSpan (mkPtok 38 "match" 17 2 47) (mkPtok 40 "," 26 0 75)) (mkMatchFieldDecl (mkSpan (mkPtok 38 "match" 17 2 47) (mkPtok 3 "}" 25 1 74)) (mkPtok 38 "match" 17 2 47) (mkPtok 42 "body" 17 8 48) (mkPtok 17 "as" 17 13 49) (mkPtok 42 "calculatedFrom" 18 4 50) (mkPtok 2 "{" 18 19 51) [(mkMatchPair (mkSpan (mkPtok 18 "[" 18 21 52) (mkPtok 40 "," 20 17 58)) (MKList (mkKeyList (mkSpan (mkPtok 18 "[" 18 21 52) (mkPtok 13 "]" 20 11 55)) (mkPtok 18 "[" 18 21 52) (mkPtok 31 """a\""b""" 20 4 54) [] (mkPtok 13 "]" 20 11 55))) (mkPtok 39 ":" 20 13 56) (mkPtok 42 "o" 20 15 57) (Some (mkPtok 40 "," 20 17 58))); (mkMatchPair (mkSpan (mkPtok 30 "42" 20 19 59) (mkPtok 40 "," 22 4 62)) (MKDigits (mkPtok 30 "42" 20 19 59)) (mkPtok 39 ":" 21 4 60) (mkPtok 42 "Packet" 21 6 61) (Some (mkPtok 40 "," 22 4 62))); (mkMatchPair (mkSpan (mkPtok 18 "[" 23 0 64) (mkPtok 40 "," 25 0 73)) (MKList (mkKeyList (mkSpan (mkPtok 18 "[" 23 0 64) (mkPtok 13 "]" 24 0 70)) (mkPtok 18 "[" 23 0 64) (mkPtok 30 "0123456789" 23 2 65) [((mkPtok 40 "," 23 13 66), (mkPtok 30 "1" 23 14 67)); ((mkPtok 40 "," 23 16 68), (mkPtok 31 """1""" 23 18 69))] (mkPtok 13 "]" 24 0 70))) (mkPtok 39 ":" 24 2 71) (mkPtok 42 "float" 24 4 72) (Some (mkPtok 40 "," 25 0 73)))] (mkPtok 3 "}" 25 1 74)) (mkPtok 40 "," 26 0 75)))] (mkPtok 3 "}" 27 4 76))); (DMeta (mkMetaDef (mkSpan (mkPtok 37 "MetaData" 27 6 77) (mkPtok 3 "}" 38 6 103)) (mkPtok 37 "MetaData" 27 6 77) (mkPtok 42 "i64_" 28 0 78) (mkPtok 2 "{" 28 5 79) [(MIRef (mkRefMetaDecl (mkSpan (mkPtok 42 "u128" 28 6 80) (mkPtok 40 "," 31 7 84)) (mkPtok 42 "u128" 28 6 80) (mkPtok 42 "crc" 30 4 82) (Some (mkPtok 43 "``" 31 4 83)) (mkPtok 40 "," 31 7 84))); (MIRef (mkRefMetaDecl (mkSpan (mkPtok 42 "string_" 32 0 86) (mkPtok 40 "," 32 10 88)) (mkPtok 42 "string_" 32 0 86) (mkPtok 42 "u" 32 8 87) None (mkPtok 40 "," 32 10 88))); (MIDecl (mkMetaDecl (mkSpan (mkPtok 24 "i8" 32 11 89) (mkPtok 40 "," 33 9 92)) (TyBasic (mkSpan (mkPtok 24 "i8" 32 11 89) (mkPtok 24 "i8" 32 11 89)) (mkBasicType (mkSpan (mkPtok 24 "i8" 32 11 89) (mkPtok 24 "i8" 32 11 89)) (mkPtok 24 "i8" 32 11 89))) (mkPtok 42 "int" 32 14 90) (Some (mkPtok 43 "`doc`" 33 4 91)) (mkPtok 40 "," 33 9 92))); (MIDecl (mkMetaDecl (mkSpan (mkPtok 25 "i16" 35 4 94) (mkPtok 40 "," 35 15 97)) (TyBasic (mkSpan (mkPtok 25 "i16" 35 4 94) (mkPtok 25 "i16" 35 4 94)) (mkBasicType (mkSpan (mkPtok 25 "i16" 35 4 94) (mkPtok 25 "i16" 35 4 94)) (mkPtok 25 "i16" 35 4 94))) (mkPtok 42 "x" 35 8 95) (Some (mkPtok 43 "`doc`" 35 10 96)) (mkPtok 40 "," 35 15 97))); (MIRef (mkRefMetaDecl (mkSpan (mkPtok 42 "falsey" 35 17 98) (mkPtok 40 "," 38 4 102)) (mkPtok 42 "falsey" 35 17 98) (mkPtok 42 "f32a" 38 0 101) None (mkPtok 40 "," 38 4 102)))] (mkPtok 3 "}" 38 6 103))); (DOption (mkOptionDef (mkSpan (mkPtok 1 "options" 38 8 104) (mkPtok 3 "}" 48 4 131)) (mkPtok 1 "options" 38 8 104) (mkPtok 2 "{" 38 16 105) [(mkOptionDecl (mkSpan (mkPtok 42 "roots" 38 18 106) (mkPtok 41 ";" 41 13 112)) (mkPtok 42 "roots" 38 18 106) (mkPtok 4 "=" 39 0 108) (VType (mkSpan (mkPtok 14 "zchar[" 40 0 109) (mkPtok 13 "]" 41 11 111)) (TyFixed (mkSpan (mkPtok 14 "zchar[" 40 0 109) (mkPtok 13 "]" 41 11 111)) (mkFixedString (mkSpan (mkPtok 14 "zchar[" 40 0 109) (mkPtok 13 "]" 41 11 111)) (mkPtok 14 "zchar[" 40 0 109) (mkPtok 30 "4294967296" 41 0 110) (mkPtok 13 "]" 41 11 111)))) (Some (mkPtok 41 ";" 41 13 112))); (mkOptionDecl (mkSpan (mkPtok 42 "x" 41 16 113) (mkPtok 41 ";" 43 10 116)) (mkPtok 42 "x" 41 16 113) (mkPtok 4 "=" 42 0 114) (VDigits (mkSpan (mkPtok 30 "65535" 43 4 115) (mkPtok 30 "65535" 43 4 115)) (mkPtok 30 "65535" 43 4 115)) (Some (mkPtok 41 ";" 43 10 116))); (mkOptionDecl (mkSpan (mkPtok 42 "crc" 43 12 117) (mkPtok 41 ";" 45 8 123)) (mkPtok 42 "crc" 43 12 117) (mkPtok 4 "=" 43 16 118) (VType (mkSpan (mkPtok 14 "zchar[" 43 18 119) (mkPtok 13 "]" 45 6 122)) (TyFixed (mkSpan (mkPtok 14 "zchar[" 43 18 119) (mkPtok 13 "]" 45 6 122)) (mkFixedString (mkSpan (mkPtok 14 "zchar[" 43 18 119) (mkPtok 13 "]" 45 6 122)) (mkPtok 14 "zchar[" 43 18 119) (mkPtok 30 "7" 45 4 121) (mkPtok 13 "]" 45 6 122)))) (Some (mkPtok 41 ";" 45 8 123))); (mkOptionDecl (mkSpan (mkPtok 42 "metadata" 45 10 124) (mkPtok 41 ";" 46 0 127)) (mkPtok 42 "metadata" 45 10 124) (mkPtok 4 "=" 45 18 125) (VType (mkSpan (mkPtok 16 "char[]" 45 20 126) (mkPtok 16 "char[]" 45 20 126)) (TyDynamic (mkSpan (mkPtok 16 "char[]" 45 20 126) (mkPtok 16 "char[]" 45 20 126)) (mkDynamicString (mkSpan (mkPtok 16 "char[]" 45 20 126) (mkPtok 16 "char[]" 45 20 126)) (mkPtok 16 "char[]" 45 20 126)))) (Some (mkPtok 41 ";" 46 0 127))); (mkOptionDecl (mkSpan (mkPtok 42 "leftPad" 46 2 128) (mkPtok 26 "i32" 48 0 130)) (mkPtok 42 "leftPad" 46 2 128) (mkPtok 4 "=" 47 4 129) (VType (mkSpan (mkPtok 26 "i32" 48 0 130) (mkPtok 26 "i32" 48 0 130)) (TyBasic (mkSpan (mkPtok 26 "i32" 48 0 130) (mkPtok 26 "i32" 48 0 130)) (mkBasicType (mkSpan (mkPtok 26 "i32" 48 0 130) (mkPtok 26 "i32" 48 0 130)) (mkPtok 26 "i32" 48 0 130)))) None)] (mkPtok 3 "}" 48 4 131)))])).
+Eval vm_compute in ("<<<M563>>>" ++ check (runes_of_ascii "root packet // packet A { u8 x, }
+zchar { f32a matchKey
 ,
-    10
-    : packetx , 1 : BodyLength , """ ++ [233]%N ++ runes_of_ascii "t" ++ [233]%N ++ runes_of_ascii """ :zchar 3  :
-// `tick` ""quote"" 'q'
-// packet A { u8 x, }
-As
-""" ++ [233]%N ++ runes_of_ascii "t" ++ [233]%N ++ runes_of_ascii """ : asx	, },
-    match packetx as	lengthOf { """ ++ [233]%N ++ runes_of_ascii "t" ++ [233]%N ++ runes_of_ascii """ :
-    roots , 42 :
-lengthOf [ ""a\""b"" ] :asx // trailing space 
-,},
-}packet calculatedFrom {@calculatedFrom( ""abc"" ) repeat
-u64
-//x
-// @lengthOf(
-stringy , @calculatedFrom(
-""" ++ [233]%N ++ runes_of_ascii "t" ++ [233]%N ++ runes_of_ascii """
-) i32 i8i8 @lengthOf(
-f32a
-    )
-,i8 Pad // a // b
-@calculatedFrom(""a\\"") ,
-char charz`" ++ [28040; 24687; 31867; 22411]%N ++ runes_of_ascii "`,@calculatedFrom(	""" ++ [233]%N ++ runes_of_ascii "t" ++ [233]%N ++ runes_of_ascii """// c
-)
-@tag(4294967296 )rootA //
-msg_type
-    , @calculatedFrom(
-    ""CRC32"" //	t
-)	@tag( 007) @tag( 0
-    )
-uint8 A
-    `crlf
-line` ,
-    char[ 0123456789 ]// " ++ [128512]%N ++ runes_of_ascii " emoji
-repeatCount	`" ++ [233]%N ++ runes_of_ascii "`, packetx@lengthOf( tag
-)	`it's` , @lengthOf(// c
-leftPad  ) @calculatedFrom( ""\n""
-) @leftPad	( )Foo
-    @calculatedFrom( ""a\\"" ) `" ++ [28040; 24687; 31867; 22411]%N ++ runes_of_ascii "` ,} packet metadata
-{ packetx `" ++ [28040; 24687; 31867; 22411]%N ++ runes_of_ascii "`
-, u16 i64_
-@calculatedFrom( ""a\""b"" ) `
-`
-    ,}
-    //	t
-    packet falsey{ //
-@lengthOf(
-//
-// " ++ [128512]%N ++ runes_of_ascii " emoji
-int// @lengthOf(
-)
-// trailing space 
-// " ++ [27880; 37322]%N ++ runes_of_ascii "
-Packet  , @calculatedFrom(
-""packet"" ) @lengthOf( trueish
-    //	t
-    ) @leftPad // " ++ [128512]%N ++ runes_of_ascii " emoji
-()
-A repeatCount
-    ,A `
-`// " ++ [128512]%N ++ runes_of_ascii " emoji
-, repeat  trueish
-    `{ , }` , zchar[
-    /// triple
-    42
-/// triple
-//	t
-] rootA @lengthOf( A ),} root
-    packet u { repeat char[]i8i8 , @tag( 007) body
-    // c
-    { repeat u8x`tab	here`, } ,	@rightPad(
-    // @lengthOf(
-    '\x00'
-    ) i16
-matchKey`it's` ,@lengthOf( trueish
-)
-metadata  @lengthOf(
-lengthOf)
-    ,// `tick` ""quote"" 'q'
-int
-@calculatedFrom( ""`tick`"" ) ,@tag(
-3) match x_y_z	as BodyLength {1 //	t
-:options1
-//	t
-// c
-,
-    } , repeat i64_
-string_	,
-    //
-    u8 trueish , f64
-calculatedFrom ,}")).
-Eval vm_compute in ("<<<M1491>>>" ++ check (runes_of_ascii "packet x  { }
+    }
 ")).
-Eval vm_compute in ("<<<M1523>>>" ++ check (runes_of_ascii "root packet i64_
-{match // packet A { u8 x, }
-options1 as i64_ {""x y"" : BodyLength,
-    } ,
-    }options {chars =3 }	MetaData zchar
-    { u8x float ,uint8 packetx ,	char[] body
-`tab	here` ,
-}
-    root packet	MetaDataX {  options1@lengthOf( metadata
-) // a // b
-`a\`	, }")).
-Eval vm_compute in ("<<<M1555>>>" ++ check (runes_of_ascii "// " ++ [128512]%N ++ runes_of_ascii " emoji
-options { Packet = 4294967296
-//
-// @lengthOf(
-leftPad
-= //	t
-int8 }
-/// triple
-")).
-Eval vm_compute in ("<<<M1587>>>" ++ check (runes_of_ascii "packet// c
-x_y_z
-{ @lengthOf( tag )char[
-    4294967296
-]body,} root
+Eval vm_compute in ("<<<M595>>>" ++ check (runes_of_ascii "// " ++ [27880; 37322]%N ++ runes_of_ascii "
 packet
-Logon { repeat
-zchar[ 007// packet A { u8 x, }
-] stringy , }")).
-Eval vm_compute in ("<<<M1619>>>" ++ check (runes_of_ascii "  root // " ++ [128512]%N ++ runes_of_ascii " emoji
-packet //
-charz { int32 pack	,
-repeat zchar[ 3 ]//
-A ,
+    //	t
+    chars
+{ Z9_, @tag(
+    7
+)//x
+leftPad@lengthOf( asx	) //
+`crlf
+line` ,	char Z9_ `crlf
+line`	,	T
+matchKey ,
+    repeat
+    uint64	crc`
+`	, } root packet Header {
+    @tag( 42 ) len {match asx as len {// trailing space 
+[
+/// triple
+// `tick` ""quote"" 'q'
+65535 , ""\n""
+    ,
+""1"", ""1""  ,4294967296
+    /// triple
+    ,  255 ] : pack
+,
+""\" ++ [233]%N ++ runes_of_ascii """ // trailing space 
+: o
+    // " ++ [128512]%N ++ runes_of_ascii " emoji
+    , },
+// 50% %s
+//
+u32 crc
+    `crlf
+line` , char[
+1 ] int //	t
+, string_	{
+    // packet A { u8 x, }
+    repeat
+leftPad	T `" ++ [233]%N ++ runes_of_ascii "`
+    , match asx	as Pad{ 255//	t
+: packetx 7 :
+/// triple
+// a // b
+trueish
+    , [
+3 ] :
+int , ""// no comment"" :
+    // " ++ [27880; 37322]%N ++ runes_of_ascii "
+    chars//
+}
+    , repeat int16
+Header
+,
+    }, } ,} 	 ")).
+Eval vm_compute in ("<<<M627>>>" ++ check (runes_of_ascii "packet body {zchar[ 1]  x	`it's`, Header
+    `100% of %d` , } MetaData
+a1 {
+/// triple
+// 50% %s
+i8i8 msg_type ,
+int64 asx , T
+    Packet , uint8
+As ,  } options { // " ++ [27880; 37322]%N ++ runes_of_ascii "
+charz =' ' x_y_z /// triple
+=
+//
+//x
+' ' ;
+packetx = ""// no comment"" }")).
+Eval vm_compute in ("<<<M659>>>" ++ check (runes_of_ascii "packet metadata{ @calculatedFrom( ""x y"")
+    roots@lengthOf(
+roots)	,
+    repeatCount chars , @calculatedFrom(""packet"" )repeat int64
+    Z9_ , Logon @calculatedFrom( ""packet""
+),  f32a@calculatedFrom( ""a	b"") `doc` ,
+trueish
+@lengthOf(Z9_), //x
+@tag(4294967296 )
+    // 50% %s
+    repeat i64
+Logon `100% of %d` ,
+    f32a x_y_z
+, }
+    options
+    {pack  =""1"" // a // b
+;
+roots =
+    10 ; falsey =// trailing space 
+false	stringy
+= ' ' ;
+trueish //	t
+=  '\x00' ; } packet i64_
+{ @calculatedFrom( ""abc""
+    )u8 roots
+    , // c
+@leftPad (
+'\x00' ) char[1 ]
+u128  @lengthOf(options1 ) `tab	here` ,
+    @calculatedFrom( """" ) @lengthOf( body
+    ) char[]
+    calculatedFrom ,@lengthOf(	crc ) @lengthOf( _x
+) @rightPad ( ' ' ) // @lengthOf(
+match u8x as A { [""// no comment"" , 0123456789]
+    // packet A { u8 x, }
+    : // trailing space 
+Packet , 007 :asx
+, } ,
+match
+    stringy as	falsey {  7 : stringy /// triple
+}
+    , Header //
+`it's`
+    ,
+    @calculatedFrom( ""\n""	)@rightPad (
+    '0' ) @lengthOf(
+    As )
+    len	T ,@leftPad (
+    '\x00'//
+) leftPad
+{ u @calculatedFrom( ""abc""// c
+) `{ , }` , i8
+    Foo `` ,
+    zchar[
+    1 ] stringy
+`crlf
+line` , },pack `u8 x,` , @rightPad (' ' // " ++ [27880; 37322]%N ++ runes_of_ascii "
+)	match
+    string_
+    as
+o	{ 7: u }, // a // b
+}
+")).
+Eval vm_compute in ("<<<M691>>>" ++ check (runes_of_ascii "root
+packet T{  } MetaData Header {zchar[ 4294967296
+    ]i64_ `" ++ [28040; 24687; 31867; 22411]%N ++ runes_of_ascii "` , } packet
+    leftPad{ @calculatedFrom(
+    ""a\\"" ) match charz as a1
+{
+    /// triple
+    ""`tick`"": As ,
+[10 , 3 ] : u8x ,[ 255 , // c
+0]:  leftPad 10 :
+repeatCount ,
+}
+// trailing space 
+//	t
+, @tag(	007 ) // packet A { u8 x, }
+uint8
+f32a , @rightPad ( ' ' ) @leftPad
+// 50% %s
 // c
+(  '\x00'
+    ) @lengthOf(//
+stringy ) T @lengthOf(
+charz
+    ) ,
+    metadata matchKey , A// " ++ [27880; 37322]%N ++ runes_of_ascii "
+T
+    , @leftPad // `tick` ""quote"" 'q'
+( '0' ) char[ 1] // trailing space 
+Packet ,
+@tag( 7 )
+    @leftPad
+    (
+' ' ) zchar[ 7]
+    rootA @lengthOf(uint8x ) // trailing space 
+,
+    // `tick` ""quote"" 'q'
+    zchar[  0123456789 ] Header `u8 x,` ,char[ 255	] x@lengthOf( MetaDataX
+) `line1
+line2`,}
+
+")).
+Eval vm_compute in ("<<<M723>>>" ++ check (runes_of_ascii "root packet//
+repeatCount // trailing space 
+{_x@calculatedFrom( ""1"" ) ,
+}")).
+Eval vm_compute in ("<<<M755>>>" ++ check (runes_of_ascii "
+root
+packet T{msg_type ,
+    // " ++ [128512]%N ++ runes_of_ascii " emoji
+    }	root
+    packet // trailing space 
+pack {repeat
+int64 lengthOf ,uint16
+    stringy
+    , @calculatedFrom(""\" ++ [233]%N ++ runes_of_ascii """
+) a1 string_ ,
+repeat packetx tag , // packet A { u8 x, }
+match x as
+Foo {
+[4294967296
+    , """ ++ [28040; 24687]%N ++ runes_of_ascii """ ,65535 , 0 ,
+    ""\n"",	""CRC32"" ] : // " ++ [128512]%N ++ runes_of_ascii " emoji
+falsey , [ ""a\\"" , ""{,}"" , ""`tick`""
+,
+    0,
+""x y""
+]  :len , ""\" ++ [233]%N ++ runes_of_ascii """
+: matchKey ""1"":
+    /// triple
+    packetx
+    , 1 : stringy,
+    } , @rightPad
+(' ' ) @lengthOf( a1	) @tag(
+    65535
+    ) int64 tag@calculatedFrom(""packet"" )`two words`// a // b
+,@leftPad ( ' ') // c
+@leftPad (
+    ) chars{
+    string
+zchar `two words`,
+    match tag	as
+    u8x{ 10 // packet A { u8 x, }
+:chars
+// " ++ [27880; 37322]%N ++ runes_of_ascii "
+// trailing space 
+10
+    : chars
+, [ ""// no comment""
+    ,7
+,	""packet""
+,  ""a	b"" , """", 007
+    , 007
+//
+// a // b
+, ""// no comment""
+]
+: MetaDataX
+,// trailing space 
+}
+,
+    } , // " ++ [27880; 37322]%N ++ runes_of_ascii "
+char[]	u8x @lengthOf(
+Z9_
+) `two words`
+    // " ++ [27880; 37322]%N ++ runes_of_ascii "
+    , @rightPad (
+//	t
+// 50% %s
+' ' )  i32 asx@lengthOf( BodyLength
+), @tag( // 50% %s
+3 )  @calculatedFrom(
+""a\\""
+    )
+// c
+//	t
+@leftPad ('0' )
+    //	t
+    repeat
+    // 50% %s
+    Logon	Logon `it's` ,
+}
+")).
+Eval vm_compute in ("<<<T755>>>" ++ terms [mkTok 34 "root" 2 0 false; mkTok 35 "packet" 3 0 false; mkTok 42 "T" 3 7 false; mkTok 2 "{" 3 8 false; mkTok 42 "msg_type" 3 9 false; mkTok 40 "," 3 18 false; mkTok 44 (string_of_bytes [47; 47; 32; 240; 159; 152; 128; 32; 101; 109; 111; 106; 105]%N) 4 4 true; mkTok 3 "}" 5 4 false; mkTok 34 "root" 5 6 false; mkTok 35 "packet" 6 4 false; mkTok 44 "// trailing space " 6 11 true; mkTok 42 "pack" 7 0 false; mkTok 2 "{" 7 5 false; mkTok 36 "repeat" 7 6 false; mkTok 27 "int64" 8 0 false; mkTok 42 "lengthOf" 8 6 false; mkTok 40 "," 8 15 false; mkTok 21 "uint16" 8 16 false; mkTok 42 "stringy" 9 4 false; mkTok 40 "," 10 4 false; mkTok 5 "@calculatedFrom(" 10 6 false; mkTok 31 (string_of_bytes [34; 92; 195; 169; 34]%N) 10 22 false; mkTok 6 ")" 11 0 false; mkTok 42 "a1" 11 2 false; mkTok 42 "string_" 11 5 false; mkTok 40 "," 11 13 false; mkTok 36 "repeat" 12 0 false; mkTok 42 "packetx" 12 7 false; mkTok 42 "tag" 12 15 false; mkTok 40 "," 12 19 false; mkTok 44 "// packet A { u8 x, }" 12 21 true; mkTok 38 "match" 13 0 false; mkTok 42 "x" 13 6 false; mkTok 17 "as" 13 8 false; mkTok 42 "Foo" 14 0 false; mkTok 2 "{" 14 4 false; mkTok 18 "[" 15 0 false; mkTok 30 "4294967296" 15 1 false; mkTok 40 "," 16 4 false; mkTok 31 (string_of_bytes [34; 230; 182; 136; 230; 129; 175; 34]%N) 16 6 false; mkTok 40 "," 16 11 false; mkTok 30 "65535" 16 12 false; mkTok 40 "," 16 18 false; mkTok 30 "0" 16 20 false; mkTok 40 "," 16 22 false; mkTok 31 """\n""" 17 4 false; mkTok 40 "," 17 8 false; mkTok 31 """CRC32""" 17 10 false; mkTok 13 "]" 17 18 false; mkTok 39 ":" 17 20 false; mkTok 44 (string_of_bytes [47; 47; 32; 240; 159; 152; 128; 32; 101; 109; 111; 106; 105]%N) 17 22 true; mkTok 42 "falsey" 18 0 false; mkTok 40 "," 18 7 false; mkTok 18 "[" 18 9 false; mkTok 31 """a\\""" 18 11 false; mkTok 40 "," 18 17 false; mkTok 31 """{,}""" 18 19 false; mkTok 40 "," 18 25 false; mkTok 31 """`tick`""" 18 27 false; mkTok 40 "," 19 0 false; mkTok 30 "0" 20 4 false; mkTok 40 "," 20 5 false; mkTok 31 """x y""" 21 0 false; mkTok 13 "]" 22 0 false; mkTok 39 ":" 22 3 false; mkTok 42 "len" 22 4 false; mkTok 40 "," 22 8 false; mkTok 31 (string_of_bytes [34; 92; 195; 169; 34]%N) 22 10 false; mkTok 39 ":" 23 0 false; mkTok 42 "matchKey" 23 2 false; mkTok 31 """1""" 23 11 false; mkTok 39 ":" 23 14 false; mkTok 44 "/// triple" 24 4 true; mkTok 42 "packetx" 25 4 false; mkTok 40 "," 26 4 false; mkTok 30 "1" 26 6 false; mkTok 39 ":" 26 8 false; mkTok 42 "stringy" 26 10 false; mkTok 40 "," 26 17 false; mkTok 3 "}" 27 4 false; mkTok 40 "," 27 6 false; mkTok 32 "@rightPad" 27 8 false; mkTok 8 "(" 28 0 false; mkTok 33 "' '" 28 1 false; mkTok 6 ")" 28 5 false; mkTok 7 "@lengthOf(" 28 7 false; mkTok 42 "a1" 28 18 false; mkTok 6 ")" 28 21 false; mkTok 9 "@tag(" 28 23 false; mkTok 30 "65535" 29 4 false; mkTok 6 ")" 30 4 false; mkTok 27 "int64" 30 6 false; mkTok 42 "tag" 30 12 false; mkTok 5 "@calculatedFrom(" 30 15 false; mkTok 31 """packet""" 30 31 false; mkTok 6 ")" 30 40 false; mkTok 43 "`two words`" 30 41 false; mkTok 44 "// a // b" 30 52 true; mkTok 40 "," 31 0 false; mkTok 32 "@leftPad" 31 1 false; mkTok 8 "(" 31 10 false; mkTok 33 "' '" 31 12 false; mkTok 6 ")" 31 15 false; mkTok 44 "// c" 31 17 true; mkTok 32 "@leftPad" 32 0 false; mkTok 8 "(" 32 9 false; mkTok 6 ")" 33 4 false; mkTok 42 "chars" 33 6 false; mkTok 2 "{" 33 11 false; mkTok 15 "string" 34 4 false; mkTok 42 "zchar" 35 0 false; mkTok 43 "`two words`" 35 6 false; mkTok 40 "," 35 17 false; mkTok 38 "match" 36 4 false; mkTok 42 "tag" 36 10 false; mkTok 17 "as" 36 14 false; mkTok 42 "u8x" 37 4 false; mkTok 2 "{" 37 7 false; mkTok 30 "10" 37 9 false; mkTok 44 "// packet A { u8 x, }" 37 12 true; mkTok 39 ":" 38 0 false; mkTok 42 "chars" 38 1 false; mkTok 44 (string_of_bytes [47; 47; 32; 230; 179; 168; 233; 135; 138]%N) 39 0 true; mkTok 44 "// trailing space " 40 0 true; mkTok 30 "10" 41 0 false; mkTok 39 ":" 42 4 false; mkTok 42 "chars" 42 6 false; mkTok 40 "," 43 0 false; mkTok 18 "[" 43 2 false; mkTok 31 """// no comment""" 43 4 false; mkTok 40 "," 44 4 false; mkTok 30 "7" 44 5 false; mkTok 40 "," 45 0 false; mkTok 31 """packet""" 45 2 false; mkTok 40 "," 46 0 false; mkTok 31 (string_of_bytes [34; 97; 9; 98; 34]%N) 46 3 false; mkTok 40 "," 46 9 false; mkTok 31 """""" 46 11 false; mkTok 40 "," 46 13 false; mkTok 30 "007" 46 15 false; mkTok 40 "," 47 4 false; mkTok 30 "007" 47 6 false; mkTok 44 "//" 48 0 true; mkTok 44 "// a // b" 49 0 true; mkTok 40 "," 50 0 false; mkTok 31 """// no comment""" 50 2 false; mkTok 13 "]" 51 0 false; mkTok 39 ":" 52 0 false; mkTok 42 "MetaDataX" 52 2 false; mkTok 40 "," 53 0 false; mkTok 44 "// trailing space " 53 1 true; mkTok 3 "}" 54 0 false; mkTok 40 "," 55 0 false; mkTok 3 "}" 56 4 false; mkTok 40 "," 56 6 false; mkTok 44 (string_of_bytes [47; 47; 32; 230; 179; 168; 233; 135; 138]%N) 56 8 true; mkTok 16 "char[]" 57 0 false; mkTok 42 "u8x" 57 7 false; mkTok 7 "@lengthOf(" 57 11 false; mkTok 42 "Z9_" 58 0 false; mkTok 6 ")" 59 0 false; mkTok 43 "`two words`" 59 2 false; mkTok 44 (string_of_bytes [47; 47; 32; 230; 179; 168; 233; 135; 138]%N) 60 4 true; mkTok 40 "," 61 4 false; mkTok 32 "@rightPad" 61 6 false; mkTok 8 "(" 61 16 false; mkTok 44 (string_of_bytes [47; 47; 9; 116]%N) 62 0 true; mkTok 44 "// 50% %s" 63 0 true; mkTok 33 "' '" 64 0 false; mkTok 6 ")" 64 4 false; mkTok 26 "i32" 64 7 false; mkTok 42 "asx" 64 11 false; mkTok 7 "@lengthOf(" 64 14 false; mkTok 42 "BodyLength" 64 25 false; mkTok 6 ")" 65 0 false; mkTok 40 "," 65 1 false; mkTok 9 "@tag(" 65 3 false; mkTok 44 "// 50% %s" 65 9 true; mkTok 30 "3" 66 0 false; mkTok 6 ")" 66 2 false; mkTok 5 "@calculatedFrom(" 66 5 false; mkTok 31 """a\\""" 67 0 false; mkTok 6 ")" 68 4 false; mkTok 44 "// c" 69 0 true; mkTok 44 (string_of_bytes [47; 47; 9; 116]%N) 70 0 true; mkTok 32 "@leftPad" 71 0 false; mkTok 8 "(" 71 9 false; mkTok 33 "'0'" 71 10 false; mkTok 6 ")" 71 14 false; mkTok 44 (string_of_bytes [47; 47; 9; 116]%N) 72 4 true; mkTok 36 "repeat" 73 4 false; mkTok 44 "// 50% %s" 74 4 true; mkTok 42 "Logon" 75 4 false; mkTok 42 "Logon" 75 10 false; mkTok 43 "`it's`" 75 16 false; mkTok 40 "," 75 23 false; mkTok 3 "}" 76 0 false; mkTok 0 "<EOF>" 77 0 false] (mkPacket (mkPtok 34 "root" 2 0 0) (Some (mkPtok 3 "}" 76 0 196)) [(DPacket (mkPacketDef (mkSpan (mkPtok 34 "root" 2 0 0) (mkPtok 3 "}" 5 4 7)) (Some (mkPtok 34 "root" 2 0 0)) (mkPtok 35 "packet" 3 0 1) (mkPtok 42 "T" 3 7 2) (mkPtok 2 "{" 3 8 3) [(mkFieldWithAttr (mkSpan (mkPtok 42 "msg_type" 3 9 4) (mkPtok 40 "," 3 18 5)) [] (ObjectField (mkSpan (mkPtok 42 "msg_type" 3 9 4) (mkPtok 40 "," 3 18 5)) None (mkPtok 42 "msg_type" 3 9 4) None None (mkPtok 40 "," 3 18 5)))] (mkPtok 3 "}" 5 4 7))); (DPacket (mkPacketDef (mkSpan (mkPtok 34 "root" 5 6 8) (mkPtok 3 "}" 76 0 196)) (Some (mkPtok 34 "root" 5 6 8)) (mkPtok 35 "packet" 6 4 9) (mkPtok 42 "pack" 7 0 11) (mkPtok 2 "{" 7 5 12) [(mkFieldWithAttr (mkSpan (mkPtok 36 "repeat" 7 6 13) (mkPtok 40 "," 8 15 16)) [] (MetaField (mkSpan (mkPtok 36 "repeat" 7 6 13) (mkPtok 40 "," 8 15 16)) (Some (mkPtok 36 "repeat" 7 6 13)) (mkMetaDecl (mkSpan (mkPtok 27 "int64" 8 0 14) (mkPtok 40 "," 8 15 16)) (TyBasic (mkSpan (mkPtok 27 "int64" 8 0 14) (mkPtok 27 "int64" 8 0 14)) (mkBasicType (mkSpan (mkPtok 27 "int64" 8 0 14) (mkPtok 27 "int64" 8 0 14)) (mkPtok 27 "int64" 8 0 14))) (mkPtok 42 "lengthOf" 8 6 15) None (mkPtok 40 "," 8 15 16)))); (mkFieldWithAttr (mkSpan (mkPtok 21 "uint16" 8 16 17) (mkPtok 40 "," 10 4 19)) [] (MetaField (mkSpan (mkPtok 21 "uint16" 8 16 17) (mkPtok 40 "," 10 4 19)) None (mkMetaDecl (mkSpan (mkPtok 21 "uint16" 8 16 17) (mkPtok 40 "," 10 4 19)) (TyBasic (mkSpan (mkPtok 21 "uint16" 8 16 17) (mkPtok 21 "uint16" 8 16 17)) (mkBasicType (mkSpan (mkPtok 21 "uint16" 8 16 17) (mkPtok 21 "uint16" 8 16 17)) (mkPtok 21 "uint16" 8 16 17))) (mkPtok 42 "stringy" 9 4 18) None (mkPtok 40 "," 10 4 19)))); (mkFieldWithAttr (mkSpan (mkPtok 5 "@calculatedFrom(" 10 6 20) (mkPtok 40 "," 11 13 25)) [(FACalculatedFrom (mkSpan (mkPtok 5 "@calculatedFrom(" 10 6 20) (mkPtok 6 ")" 11 0 22)) (mkCalculatedFrom (mkSpan (mkPtok 5 "@calculatedFrom(" 10 6 20) (mkPtok 6 ")" 11 0 22)) (mkPtok 5 "@calculatedFrom(" 10 6 20) (mkPtok 31 (string_of_bytes [34; 92; 195; 169; 34]%N) 10 22 21) (mkPtok 6 ")" 11 0 22)))] (ObjectField (mkSpan (mkPtok 42 "a1" 11 2 23) (mkPtok 40 "," 11 13 25)) None (mkPtok 42 "a1" 11 2 23) (Some (mkPtok 42 "string_" 11 5 24)) None (mkPtok 40 "," 11 13 25))); (mkFieldWithAttr (mkSpan (mkPtok 36 "repeat" 12 0 26) (mkPtok 40 "," 12 19 29)) [] (ObjectField (mkSpan (mkPtok 36 "repeat" 12 0 26) (mkPtok 40 "," 12 19 29)) (Some (mkPtok 36 "repeat" 12 0 26)) (mkPtok 42 "packetx" 12 7 27) (Some (mkPtok 42 "tag" 12 15 28)) None (mkPtok 40 "," 12 19 29))); (mkFieldWithAttr (mkSpan (mkPtok 38 "match" 13 0 31) (mkPtok 40 "," 27 6 80)) [] (MatchField (mkSpan (mkPtok 38 "match" 13 0 31) (mkPtok 40 "," 27 6 80)) (mkMatchFieldDecl (mkSpan (mkPtok 38 "match" 13 0 31) (mkPtok 3 "}" 27 4 79)) (mkPtok 38 "match" 13 0 31) (mkPtok 42 "x" 13 6 32) (mkPtok 17 "as" 13 8 33) (mkPtok 42 "Foo" 14 0 34) (mkPtok 2 "{" 14 4 35) [(mkMatchPair (mkSpan (mkPtok 18 "[" 15 0 36) (mkPtok 40 "," 18 7 52)) (MKList (mkKeyList (mkSpan (mkPtok 18 "[" 15 0 36) (mkPtok 13 "]" 17 18 48)) (mkPtok 18 "[" 15 0 36) (mkPtok 30 "4294967296" 15 1 37) [((mkPtok 40 "," 16 4 38), (mkPtok 31 (string_of_bytes [34; 230; 182; 136; 230; 129; 175; 34]%N) 16 6 39)); ((mkPtok 40 "," 16 11 40), (mkPtok 30 "65535" 16 12 41)); ((mkPtok 40 "," 16 18 42), (mkPtok 30 "0" 16 20 43)); ((mkPtok 40 "," 16 22 44), (mkPtok 31 """\n""" 17 4 45)); ((mkPtok 40 "," 17 8 46), (mkPtok 31 """CRC32""" 17 10 47))] (mkPtok 13 "]" 17 18 48))) (mkPtok 39 ":" 17 20 49) (mkPtok 42 "falsey" 18 0 51) (Some (mkPtok 40 "," 18 7 52))); (mkMatchPair (mkSpan (mkPtok 18 "[" 18 9 53) (mkPtok 40 "," 22 8 66)) (MKList (mkKeyList (mkSpan (mkPtok 18 "[" 18 9 53) (mkPtok 13 "]" 22 0 63)) (mkPtok 18 "[" 18 9 53) (mkPtok 31 """a\\""" 18 11 54) [((mkPtok 40 "," 18 17 55), (mkPtok 31 """{,}""" 18 19 56)); ((mkPtok 40 "," 18 25 57), (mkPtok 31 """`tick`""" 18 27 58)); ((mkPtok 40 "," 19 0 59), (mkPtok 30 "0" 20 4 60)); ((mkPtok 40 "," 20 5 61), (mkPtok 31 """x y""" 21 0 62))] (mkPtok 13 "]" 22 0 63))) (mkPtok 39 ":" 22 3 64) (mkPtok 42 "len" 22 4 65) (Some (mkPtok 40 "," 22 8 66))); (mkMatchPair (mkSpan (mkPtok 31 (string_of_bytes [34; 92; 195; 169; 34]%N) 22 10 67) (mkPtok 42 "matchKey" 23 2 69)) (MKString (mkPtok 31 (string_of_bytes [34; 92; 195; 169; 34]%N) 22 10 67)) (mkPtok 39 ":" 23 0 68) (mkPtok 42 "matchKey" 23 2 69) None); (mkMatchPair (mkSpan (mkPtok 31 """1""" 23 11 70) (mkPtok 40 "," 26 4 74)) (MKString (mkPtok 31 """1""" 23 11 70)) (mkPtok 39 ":" 23 14 71) (mkPtok 42 "packetx" 25 4 73) (Some (mkPtok 40 "," 26 4 74))); (mkMatchPair (mkSpan (mkPtok 30 "1" 26 6 75) (mkPtok 40 "," 26 17 78)) (MKDigits (mkPtok 30 "1" 26 6 75)) (mkPtok 39 ":" 26 8 76) (mkPtok 42 "stringy" 26 10 77) (Some (mkPtok 40 "," 26 17 78)))] (mkPtok 3 "}" 27 4 79)) (mkPtok 40 "," 27 6 80))); (mkFieldWithAttr (mkSpan (mkPtok 32 "@rightPad" 27 8 81) (mkPtok 40 "," 31 0 98)) [(FAPadding (mkSpan (mkPtok 32 "@rightPad" 27 8 81) (mkPtok 6 ")" 28 5 84)) (mkPaddingAttr (mkSpan (mkPtok 32 "@rightPad" 27 8 81) (mkPtok 6 ")" 28 5 84)) (mkPtok 32 "@rightPad" 27 8 81) (mkPtok 8 "(" 28 0 82) (Some (mkPtok 33 "' '" 28 1 83)) (mkPtok 6 ")" 28 5 84))); (FALengthOf (mkSpan (mkPtok 7 "@lengthOf(" 28 7 85) (mkPtok 6 ")" 28 21 87)) (mkLengthOf (mkSpan (mkPtok 7 "@lengthOf(" 28 7 85) (mkPtok 6 ")" 28 21 87)) (mkPtok 7 "@lengthOf(" 28 7 85) (mkPtok 42 "a1" 28 18 86) (mkPtok 6 ")" 28 21 87))); (FATag (mkSpan (mkPtok 9 "@tag(" 28 23 88) (mkPtok 6 ")" 30 4 90)) (mkTagAttr (mkSpan (mkPtok 9 "@tag(" 28 23 88) (mkPtok 6 ")" 30 4 90)) (mkPtok 9 "@tag(" 28 23 88) (mkPtok 30 "65535" 29 4 89) (mkPtok 6 ")" 30 4 90)))] (CheckSumField (mkSpan (mkPtok 27 "int64" 30 6 91) (mkPtok 40 "," 31 0 98)) (mkChecksumFieldDecl (mkSpan (mkPtok 27 "int64" 30 6 91) (mkPtok 40 "," 31 0 98)) (Some (TyBasic (mkSpan (mkPtok 27 "int64" 30 6 91) (mkPtok 27 "int64" 30 6 91)) (mkBasicType (mkSpan (mkPtok 27 "int64" 30 6 91) (mkPtok 27 "int64" 30 6 91)) (mkPtok 27 "int64" 30 6 91)))) (mkPtok 42 "tag" 30 12 92) (mkCalculatedFrom (mkSpan (mkPtok 5 "@calculatedFrom(" 30 15 93) (mkPtok 6 ")" 30 40 95)) (mkPtok 5 "@calculatedFrom(" 30 15 93) (mkPtok 31 """packet""" 30 31 94) (mkPtok 6 ")" 30 40 95)) (Some (mkPtok 43 "`two words`" 30 41 96)) (mkPtok 40 "," 31 0 98)))); (mkFieldWithAttr (mkSpan (mkPtok 32 "@leftPad" 31 1 99) (mkPtok 40 "," 56 6 154)) [(FAPadding (mkSpan (mkPtok 32 "@leftPad" 31 1 99) (mkPtok 6 ")" 31 15 102)) (mkPaddingAttr (mkSpan (mkPtok 32 "@leftPad" 31 1 99) (mkPtok 6 ")" 31 15 102)) (mkPtok 32 "@leftPad" 31 1 99) (mkPtok 8 "(" 31 10 100) (Some (mkPtok 33 "' '" 31 12 101)) (mkPtok 6 ")" 31 15 102))); (FAPadding (mkSpan (mkPtok 32 "@leftPad" 32 0 104) (mkPtok 6 ")" 33 4 106)) (mkPaddingAttr (mkSpan (mkPtok 32 "@leftPad" 32 0 104) (mkPtok 6 ")" 33 4 106)) (mkPtok 32 "@leftPad" 32 0 104) (mkPtok 8 "(" 32 9 105) None (mkPtok 6 ")" 33 4 106)))] (InerObjectField (mkSpan (mkPtok 42 "chars" 33 6 107) (mkPtok 40 "," 56 6 154)) None (InerObjectDecl (mkSpan (mkPtok 42 "chars" 33 6 107) (mkPtok 3 "}" 56 4 153)) (mkPtok 42 "chars" 33 6 107) (mkPtok 2 "{" 33 11 108) [(MetaField (mkSpan (mkPtok 15 "string" 34 4 109) (mkPtok 40 "," 35 17 112)) None (mkMetaDecl (mkSpan (mkPtok 15 "string" 34 4 109) (mkPtok 40 "," 35 17 112)) (TyDynamic (mkSpan (mkPtok 15 "string" 34 4 109) (mkPtok 15 "string" 34 4 109)) (mkDynamicString (mkSpan (mkPtok 15 "string" 34 4 109) (mkPtok 15 "string" 34 4 109)) (mkPtok 15 "string" 34 4 109))) (mkPtok 42 "zchar" 35 0 110) (Some (mkPtok 43 "`two words`" 35 6 111)) (mkPtok 40 "," 35 17 112))); (MatchField (mkSpan (mkPtok 38 "match" 36 4 113) (mkPtok 40 "," 55 0 152)) (mkMatchFieldDecl (mkSpan (mkPtok 38 "match" 36 4 113) (mkPtok 3 "}" 54 0 151)) (mkPtok 38 "match" 36 4 113) (mkPtok 42 "tag" 36 10 114) (mkPtok 17 "as" 36 14 115) (mkPtok 42 "u8x" 37 4 116) (mkPtok 2 "{" 37 7 117) [(mkMatchPair (mkSpan (mkPtok 30 "10" 37 9 118) (mkPtok 42 "chars" 38 1 121)) (MKDigits (mkPtok 30 "10" 37 9 118)) (mkPtok 39 ":" 38 0 120) (mkPtok 42 "chars" 38 1 121) None); (mkMatchPair (mkSpan (mkPtok 30 "10" 41 0 124) (mkPtok 40 "," 43 0 127)) (MKDigits (mkPtok 30 "10" 41 0 124)) (mkPtok 39 ":" 42 4 125) (mkPtok 42 "chars" 42 6 126) (Some (mkPtok 40 "," 43 0 127))); (mkMatchPair (mkSpan (mkPtok 18 "[" 43 2 128) (mkPtok 40 "," 53 0 149)) (MKList (mkKeyList (mkSpan (mkPtok 18 "[" 43 2 128) (mkPtok 13 "]" 51 0 146)) (mkPtok 18 "[" 43 2 128) (mkPtok 31 """// no comment""" 43 4 129) [((mkPtok 40 "," 44 4 130), (mkPtok 30 "7" 44 5 131)); ((mkPtok 40 "," 45 0 132), (mkPtok 31 """packet""" 45 2 133)); ((mkPtok 40 "," 46 0 134), (mkPtok 31 (string_of_bytes [34; 97; 9; 98; 34]%N) 46 3 135)); ((mkPtok 40 "," 46 9 136), (mkPtok 31 """""" 46 11 137)); ((mkPtok 40 "," 46 13 138), (mkPtok 30 "007" 46 15 139)); ((mkPtok 40 "," 47 4 140), (mkPtok 30 "007" 47 6 141)); ((mkPtok 40 "," 50 0 144), (mkPtok 31 """// no comment""" 50 2 145))] (mkPtok 13 "]" 51 0 146))) (mkPtok 39 ":" 52 0 147) (mkPtok 42 "MetaDataX" 52 2 148) (Some (mkPtok 40 "," 53 0 149)))] (mkPtok 3 "}" 54 0 151)) (mkPtok 40 "," 55 0 152))] (mkPtok 3 "}" 56 4 153)) (mkPtok 40 "," 56 6 154))); (mkFieldWithAttr (mkSpan (mkPtok 16 "char[]" 57 0 156) (mkPtok 40 "," 61 4 163)) [] (LengthField (mkSpan (mkPtok 16 "char[]" 57 0 156) (mkPtok 40 "," 61 4 163)) (mkLengthFieldDecl (mkSpan (mkPtok 16 "char[]" 57 0 156) (mkPtok 40 "," 61 4 163)) (Some (TyDynamic (mkSpan (mkPtok 16 "char[]" 57 0 156) (mkPtok 16 "char[]" 57 0 156)) (mkDynamicString (mkSpan (mkPtok 16 "char[]" 57 0 156) (mkPtok 16 "char[]" 57 0 156)) (mkPtok 16 "char[]" 57 0 156)))) (mkPtok 42 "u8x" 57 7 157) (mkLengthOf (mkSpan (mkPtok 7 "@lengthOf(" 57 11 158) (mkPtok 6 ")" 59 0 160)) (mkPtok 7 "@lengthOf(" 57 11 158) (mkPtok 42 "Z9_" 58 0 159) (mkPtok 6 ")" 59 0 160)) (Some (mkPtok 43 "`two words`" 59 2 161)) (mkPtok 40 "," 61 4 163)))); (mkFieldWithAttr (mkSpan (mkPtok 32 "@rightPad" 61 6 164) (mkPtok 40 "," 65 1 175)) [(FAPadding (mkSpan (mkPtok 32 "@rightPad" 61 6 164) (mkPtok 6 ")" 64 4 169)) (mkPaddingAttr (mkSpan (mkPtok 32 "@rightPad" 61 6 164) (mkPtok 6 ")" 64 4 169)) (mkPtok 32 "@rightPad" 61 6 164) (mkPtok 8 "(" 61 16 165) (Some (mkPtok 33 "' '" 64 0 168)) (mkPtok 6 ")" 64 4 169)))] (LengthField (mkSpan (mkPtok 26 "i32" 64 7 170) (mkPtok 40 "," 65 1 175)) (mkLengthFieldDecl (mkSpan (mkPtok 26 "i32" 64 7 170) (mkPtok 40 "," 65 1 175)) (Some (TyBasic (mkSpan (mkPtok 26 "i32" 64 7 170) (mkPtok 26 "i32" 64 7 170)) (mkBasicType (mkSpan (mkPtok 26 "i32" 64 7 170) (mkPtok 26 "i32" 64 7 170)) (mkPtok 26 "i32" 64 7 170)))) (mkPtok 42 "asx" 64 11 171) (mkLengthOf (mkSpan (mkPtok 7 "@lengthOf(" 64 14 172) (mkPtok 6 ")" 65 0 174)) (mkPtok 7 "@lengthOf(" 64 14 172) (mkPtok 42 "BodyLength" 64 25 173) (mkPtok 6 ")" 65 0 174)) None (mkPtok 40 "," 65 1 175)))); (mkFieldWithAttr (mkSpan (mkPtok 9 "@tag(" 65 3 176) (mkPtok 40 "," 75 23 195)) [(FATag (mkSpan (mkPtok 9 "@tag(" 65 3 176) (mkPtok 6 ")" 66 2 179)) (mkTagAttr (mkSpan (mkPtok 9 "@tag(" 65 3 176) (mkPtok 6 ")" 66 2 179)) (mkPtok 9 "@tag(" 65 3 176) (mkPtok 30 "3" 66 0 178) (mkPtok 6 ")" 66 2 179))); (FACalculatedFrom (mkSpan (mkPtok 5 "@calculatedFrom(" 66 5 180) (mkPtok 6 ")" 68 4 182)) (mkCalculatedFrom (mkSpan (mkPtok 5 "@calculatedFrom(" 66 5 180) (mkPtok 6 ")" 68 4 182)) (mkPtok 5 "@calculatedFrom(" 66 5 180) (mkPtok 31 """a\\""" 67 0 181) (mkPtok 6 ")" 68 4 182))); (FAPadding (mkSpan (mkPtok 32 "@leftPad" 71 0 185) (mkPtok 6 ")" 71 14 188)) (mkPaddingAttr (mkSpan (mkPtok 32 "@leftPad" 71 0 185) (mkPtok 6 ")" 71 14 188)) (mkPtok 32 "@leftPad" 71 0 185) (mkPtok 8 "(" 71 9 186) (Some (mkPtok 33 "'0'" 71 10 187)) (mkPtok 6 ")" 71 14 188)))] (ObjectField (mkSpan (mkPtok 36 "repeat" 73 4 190) (mkPtok 40 "," 75 23 195)) (Some (mkPtok 36 "repeat" 73 4 190)) (mkPtok 42 "Logon" 75 4 192) (Some (mkPtok 42 "Logon" 75 10 193)) (Some (mkPtok 43 "`it's`" 75 16 194)) (mkPtok 40 "," 75 23 195)))] (mkPtok 3 "}" 76 0 196)))])).
+Eval vm_compute in ("<<<M787>>>" ++ check (runes_of_ascii "
+options { trueish=char[ 255 ] ; }
+")).
+Eval vm_compute in ("<<<M819>>>" ++ check (runes_of_ascii "// " ++ [27880; 37322]%N ++ runes_of_ascii "
+root packet u8x
+    { @rightPad(  '0' )
+// a // b
+// `tick` ""quote"" 'q'
+repeat char[]
+Z9_ // c
+, falsey
+string_ `{ , }`// @lengthOf(
+,match
+    rootA as x_y_z {""" ++ [233]%N ++ runes_of_ascii "t" ++ [233]%N ++ runes_of_ascii """: charz ,
+""" ++ [28040; 24687]%N ++ runes_of_ascii """ :len 0
+: As ,
+42// trailing space 
+:
+// 50% %s
+// c
+packetx
+, } , } packet  int
+{
+    repeat	uint32
+    body , @calculatedFrom(
+""abc""
+) //
+@lengthOf(roots ) @lengthOf( u
+    )char[] Packet `it's`  , }
+
+")).
+Eval vm_compute in ("<<<M851>>>" ++ check (runes_of_ascii "packet charz
 // @lengthOf(
-}  options { As= '0'  } packet i64_
+//
+{ char[	3] Packet
+@lengthOf(
+    pack) ,
+    match falsey
+    as Packet{[""abc""
+,0 // `tick` ""quote"" 'q'
+,
+    ""x y""
 //x
 // " ++ [128512]%N ++ runes_of_ascii " emoji
-{ int64
-    float @lengthOf( options1
-)	, repeat char[ 42 ] u128, @rightPad ( '0'
-)
-roots , @rightPad (
-    '0' )
-    // " ++ [128512]%N ++ runes_of_ascii " emoji
-    zchar[
-65535 ] stringy @lengthOf( charz )`u8 x,`
-,@lengthOf(
-//	t
-// " ++ [128512]%N ++ runes_of_ascii " emoji
-x )
-    @lengthOf(u8x)@leftPad ( ' ')
-    // trailing space 
-    match Pad as As{ 1
-    // c
-    :	roots // " ++ [128512]%N ++ runes_of_ascii " emoji
-,	}
-,}options
-{	o =i64 }
-    root packet  Header {}")).
-Eval vm_compute in ("<<<M1651>>>" ++ check (runes_of_ascii "packet a1
-    { } 	 ")).
-Eval vm_compute in ("<<<T1651>>>" ++ terms [mkTok 35 "packet" 1 0 false; mkTok 42 "a1" 1 7 false; mkTok 2 "{" 2 4 false; mkTok 3 "}" 2 6 false; mkTok 0 "<EOF>" 2 10 false] (mkPacket (mkPtok 35 "packet" 1 0 0) (Some (mkPtok 3 "}" 2 6 3)) [(DPacket (mkPacketDef (mkSpan (mkPtok 35 "packet" 1 0 0) (mkPtok 3 "}" 2 6 3)) None (mkPtok 35 "packet" 1 0 0) (mkPtok 42 "a1" 1 7 1) (mkPtok 2 "{" 2 4 2) [] (mkPtok 3 "}" 2 6 3)))])).
-Eval vm_compute in ("<<<M1683>>>" ++ check (runes_of_ascii "options{
-    falsey= 1 }
-// " ++ [27880; 37322]%N ++ runes_of_ascii "
-// a // b
-MetaData A {
-} // @lengthOf(")).
-Eval vm_compute in ("<<<M1715>>>" ++ check (runes_of_ascii "
-root packet Logon
-{@lengthOf( a1 )  @tag(
-    0 ) @rightPad ( '0' )match A as As {""packet""	: _x ,
-""// no comment"" :  BodyLength
+]:  crc,
+    ""a\""b"" :leftPad , ""a\""b"": options1 ,
+    """ ++ [28040; 24687]%N ++ runes_of_ascii """: repeatCount , 65535	:x_y_z ,} , msg_type {
+u64 Logon , stringy @calculatedFrom(
+    ""it's""  )
+`crlf
+line` , },
+//x
+//
+@lengthOf( rootA ) char[42 // trailing space 
+]
+rootA `line1
+line2` , }
+MetaData rootA// trailing space 
+{
+}packet MetaDataX
+    {	@lengthOf( packetx // @lengthOf(
+)As
+`100% of %d`	, @lengthOf( matchKey) repeat Logon// c
+{  MetaDataX @lengthOf( trueish ) ,
+    uint8
+    asx
+@calculatedFrom(""\" ++ [233]%N ++ runes_of_ascii """
+), metadata
+    //	t
+    { uint8x ,//
+match Logon
+    as string_ { // 50% %s
+[ 42 , 0] : float , },  } ,
+uint16 falsey // " ++ [27880; 37322]%N ++ runes_of_ascii "
+@lengthOf(matchKey
+    )  `line1
+line2`,
+},
+    @lengthOf( u8x	) char[ 7// a // b
+] asx
+    @lengthOf( // a // b
+Logon )`" ++ [233]%N ++ runes_of_ascii "`
 ,
+repeat Packet crc ,  @tag(  10 ) @leftPad ( ' ' )  @lengthOf(
+As
+    )
+    Foo  chars ,
+@calculatedFrom( """" ) i64 u /// triple
+, string
+f32a
+`it's` ,float64 x`" ++ [28040; 24687; 31867; 22411]%N ++ runes_of_ascii "`
+    ,u16 roots ,
+/// triple
+//	t
+} options { int = 4294967296 u8x
+= false ;
 }
-    ,	repeat
-    string body ,	@lengthOf(
-asx ) string
+")).
+Eval vm_compute in ("<<<M883>>>" ++ check (runes_of_ascii "packet
+// trailing space 
+/// triple
+uint8x { match leftPad as float { 0123456789 // " ++ [27880; 37322]%N ++ runes_of_ascii "
+: tag[ 007 ]
+: Logon ,
+    ""it's"" : leftPad  , """ ++ [128512]%N ++ runes_of_ascii """	: lengthOf , }
+    , } // 50% %s
+packet x { @tag(	42 ) // c
+rootA
+    // @lengthOf(
+    chars , @calculatedFrom(
+    ""a\""b"" )
+@rightPad
+    // " ++ [128512]%N ++ runes_of_ascii " emoji
+    ( )@tag(  7)
+    /// triple
+    match A  as matchKey
+{	[42 // packet A { u8 x, }
+] :
+    msg_type""x y""	:lengthOf ""a\\""
+    :
+packetx
+// " ++ [27880; 37322]%N ++ runes_of_ascii "
+// 50% %s
+,  [""`tick`""
+// " ++ [27880; 37322]%N ++ runes_of_ascii "
+// `tick` ""quote"" 'q'
+, ""x y"" , ""a\""b""
+,	""x y"" , 00
+    ,""it's""
+    , 7// `tick` ""quote"" 'q'
+,""""
+]
+    // `tick` ""quote"" 'q'
+    : Logon
+}, @lengthOf(
+falsey )
+repeat
+falsey`" ++ [28040; 24687; 31867; 22411]%N ++ runes_of_ascii "`, u8x { // trailing space 
+int16 lengthOf`100% of %d`
+,
+    match/// triple
+tag
+as f32a {
+    7 :
+x ,}
+    ,	} ,
+}
+")).
+Eval vm_compute in ("<<<M915>>>" ++ check (runes_of_ascii "packet As // `tick` ""quote"" 'q'
+{ lengthOf{
+crc{i16 stringy @calculatedFrom(""packet""
+) , Z9_	{MetaDataX @calculatedFrom( ""a\\"" ) , }
+,
+repeat char[3]	Packet , /// triple
+}
+,
+} ,	@tag(
+// `tick` ""quote"" 'q'
+//x
+1
+)	repeat Z9_
+// " ++ [128512]%N ++ runes_of_ascii " emoji
+// packet A { u8 x, }
+, char[] // c
+falsey ,}
+")).
+Eval vm_compute in ("<<<M947>>>" ++ check (runes_of_ascii "MetaData Logon {
+    zchar[ 0123456789
+]
+metadata, }
+")).
+Eval vm_compute in ("<<<M979>>>" ++ check (runes_of_ascii "MetaData repeatCount	{
+//x
+// @lengthOf(
+}")).
+Eval vm_compute in ("<<<T979>>>" ++ terms [mkTok 37 "MetaData" 1 0 false; mkTok 42 "repeatCount" 1 9 false; mkTok 2 "{" 1 21 false; mkTok 44 "//x" 2 0 true; mkTok 44 "// @lengthOf(" 3 0 true; mkTok 3 "}" 4 0 false; mkTok 0 "<EOF>" 4 1 false] (mkPacket (mkPtok 37 "MetaData" 1 0 0) (Some (mkPtok 3 "}" 4 0 5)) [(DMeta (mkMetaDef (mkSpan (mkPtok 37 "MetaData" 1 0 0) (mkPtok 3 "}" 4 0 5)) (mkPtok 37 "MetaData" 1 0 0) (mkPtok 42 "repeatCount" 1 9 1) (mkPtok 2 "{" 1 21 2) [] (mkPtok 3 "}" 4 0 5)))])).
+Eval vm_compute in ("<<<M1011>>>" ++ check (runes_of_ascii "// " ++ [128512]%N ++ runes_of_ascii " emoji
+options// c
+{repeatCount= '\x00'	}
+// 50% %s
+// packet A { u8 x, }
+MetaData uint8x {	}
+
+")).
+Eval vm_compute in ("<<<M1043>>>" ++ check (runes_of_ascii "
+MetaData
+// c
+// 50% %s
+calculatedFrom {
+    zchar[10
+    ]charz //	t
+`100% of %d` , zchar[
 //
 // " ++ [128512]%N ++ runes_of_ascii " emoji
-zchar `" ++ [28040; 24687; 31867; 22411]%N ++ runes_of_ascii "`, @lengthOf( //
-falsey ) Logon , }packet i64_ { match o
-// " ++ [27880; 37322]%N ++ runes_of_ascii "
-// " ++ [128512]%N ++ runes_of_ascii " emoji
-as stringy{ ""`tick`"" // " ++ [27880; 37322]%N ++ runes_of_ascii "
-: charz, }
+7 ] chars
+,
+o leftPad//
+`
+`, Packet float `
+`  , f32 chars, string u , } packet Foo {
+} root
+packet
+leftPad	{ tag @lengthOf( As ) `crlf
+line` ,
+char[] As `
+` , repeat char[ 007	]
+    // " ++ [27880; 37322]%N ++ runes_of_ascii "
+    u8x, repeat body { stringy { char
+string_
+, }
+    ,} ,
+    }
+    //x
+    root packet Z9_ { }
+    root
+    packet charz
+{
+    //x
+    @tag(// 50% %s
+255 /// triple
+) repeat f32a{
+zchar[ 0 ]// trailing space 
+Z9_
+    // `tick` ""quote"" 'q'
+    @lengthOf(	Z9_ ) `tab	here` , }/// triple
 , }
 ")).
-Eval vm_compute in ("<<<M1747>>>" ++ check (runes_of_ascii "  packet options1 {@lengthOf( _x
-)
-repeat i64_
-    `" ++ [28040; 24687; 31867; 22411]%N ++ runes_of_ascii "` , options1 Foo ,@lengthOf(
-f32a
-) zchar[65535]_x ,	MetaDataX repeatCount  `" ++ [233]%N ++ runes_of_ascii "` // a // b
-, @calculatedFrom( """ ++ [128512]%N ++ runes_of_ascii """ ) char[] // " ++ [128512]%N ++ runes_of_ascii " emoji
-string_
-,string x_y_z @lengthOf(
-    zchar )
-    , match Pad as packetx
-{ [ ""\" ++ [233]%N ++ runes_of_ascii """
-    , ""{,}"" ] :	i8i8// packet A { u8 x, }
-,// `tick` ""quote"" 'q'
-},	repeat
-    i64_ `tab	here` , zchar[ 255 ] // c
-pack
-, crc // `tick` ""quote"" 'q'
-@calculatedFrom( ""1""	), }
-root packet matchKey {
-    }root
-    packet
-    Header { } // `tick` ""quote"" 'q'")).
-Eval vm_compute in ("<<<M1779>>>" ++ check (runes_of_ascii "MetaData falsey{ calculatedFrom
-BodyLength
-`it's` // trailing space 
-, uint32
-//x
-//x
-Logon
-, }")).
-Eval vm_compute in ("<<<M1811>>>" ++ check (runes_of_ascii "options { Packet= ""CRC32""; T	='\x00'A =
-42 ; }//	t
-packet _x {@calculatedFrom(""a\""b"" ) char[]asx  @calculatedFrom( ""\n"") ,
-}
+Eval vm_compute in ("<<<M1075>>>" ++ check (runes_of_ascii "root	packet MetaDataX{@calculatedFrom( ""CRC32"" )	@calculatedFrom(	"""" ) int64 Pad //
+@lengthOf(
+u128 )
+`" ++ [28040; 24687; 31867; 22411]%N ++ runes_of_ascii "`
+    // trailing space 
+    , }")).
+Eval vm_compute in ("<<<M1107>>>" ++ check (runes_of_ascii "
+MetaData
+    _x  {
+    char[ 10 // c
+] A, string
+    u128 ,  char[ 42 ] int, zchar[
+    65535 // 50% %s
+] MetaDataX ,
+char[
+    42
+] u
+    `line1
+line2` , }
+// @lengthOf(
 ")).
-Eval vm_compute in ("<<<M1843>>>" ++ check (runes_of_ascii "packet
-// c
-// trailing space 
-trueish
+Eval vm_compute in ("<<<M1139>>>" ++ check (runes_of_ascii "packet
+    //x
+    Foo{BodyLength body`" ++ [28040; 24687; 31867; 22411]%N ++ runes_of_ascii "` , match calculatedFrom as// @lengthOf(
+_x {42 ://
+zchar , },leftPad
+    // @lengthOf(
+    @calculatedFrom(""a	b"" )  `two words` , zchar[ 3] lengthOf, repeat  float64	Pad
+, repeat tag	{ char[] lengthOf `// not a comment` ,
+    Foo {  uint8x
+    roots ,
+u8x
+    @calculatedFrom(
+""`tick`"" ) // `tick` ""quote"" 'q'
+`100% of %d`
+,
+    repeat
+Packet // " ++ [27880; 37322]%N ++ runes_of_ascii "
+{ zchar[  0 ]As @calculatedFrom(
+    // c
+    """ ++ [128512]%N ++ runes_of_ascii """
     // " ++ [128512]%N ++ runes_of_ascii " emoji
-    {}// " ++ [27880; 37322]%N ++ runes_of_ascii "
-packet a1	{	repeat
-i64_// `tick` ""quote"" 'q'
-{	i64_
-`line1
-line2`
-    ,
-    },tag @lengthOf( Z9_ ) `u8 x,` ,
-    } packet leftPad
-{ @calculatedFrom(""CRC32"" ) @lengthOf( Pad
-    )f32
-A@calculatedFrom( ""a\\"" ) `say ""hi""`
-    , @tag( 007 // c
-) // packet A { u8 x, }
-repeat uint64 pack ,}")).
-Eval vm_compute in ("<<<M1875>>>" ++ check (@nil rune)).
-Eval vm_compute in ("<<<T1875>>>" ++ terms [mkTok 0 "<EOF>" 1 0 false] (mkPacket (mkPtok 0 "<EOF>" 1 0 0) None [])).
-Eval vm_compute in ("<<<M1907>>>" ++ check (runes_of_ascii "packet
-tag
-{ @lengthOf(repeatCount
-)@lengthOf( len )
-@tag( 1 ) repeat	repeatCount
-rootA ,msg_type u `" ++ [233]%N ++ runes_of_ascii "`,zchar[ 7 ] Logon , @leftPad
-(' ' ) lengthOf
-    @calculatedFrom( ""it's"") `doc` , repeat crc {
-// `tick` ""quote"" 'q'
-// `tick` ""quote"" 'q'
-u zchar ,
-calculatedFrom,// " ++ [128512]%N ++ runes_of_ascii " emoji
-}, string uint8x
-// c
-// `tick` ""quote"" 'q'
-`say ""hi""`, }
-")).
-Eval vm_compute in ("<<<M1939>>>" ++ check (runes_of_ascii "// " ++ [128512]%N ++ runes_of_ascii " emoji
-packet x_y_z {}
-packet	options1 // " ++ [27880; 37322]%N ++ runes_of_ascii "
-{ @tag(
-00 ) float64
-a1
-@calculatedFrom(
+    ), } , roots @calculatedFrom(""x y"" // 50% %s
+),} , },_x@calculatedFrom(	""`tick`""
+)
+`{ , }`, // packet A { u8 x, }
+@rightPad
+( ' ' ) uint64 x_y_z , }")).
+Eval vm_compute in ("<<<M1171>>>" ++ check (runes_of_ascii "root// 50% %s
+packet falsey
+{
+    repeat
+    zchar[  255 ]
+//x
 // packet A { u8 x, }
+calculatedFrom
+, matchKey /// triple
+options1 ,
+    @tag(	0 ) uint64 o ,// a // b
+@tag( 255
+    )
+// " ++ [128512]%N ++ runes_of_ascii " emoji
 //	t
-""x y"" ) ,} //	t")).
-Eval vm_compute in ("<<<M1971>>>" ++ check (runes_of_ascii "
-MetaData  Foo { char[ 3 ]
-    //
-    packetx `" ++ [28040; 24687; 31867; 22411]%N ++ runes_of_ascii "`,
+repeat i64
+_x, uint16
+    // `tick` ""quote"" 'q'
+    leftPad `// not a comment` , x , @leftPad ('0' )
+repeat Z9_// `tick` ""quote"" 'q'
+{
+    zchar[ 1 ]
+Z9_ @lengthOf( zchar ) `line1
+line2` , repeat float32 u
+    ,
+int {
+u {
+    repeat
+asx
+Z9_ `
+` , } ,
+char[] metadata @lengthOf(len ) `u8 x,` , uint16 //x
+i8i8
+    // a // b
+    , /// triple
+} , } ,@calculatedFrom( ""x y"" ) Logon{
+    // 50% %s
+    char[ 0
+] Header
+, } , @lengthOf(
+    i8i8)
+match uint8x	as
+body
+    { ""it's"" :
+pack , } ,@leftPad
+    (
+    '\x00' // 50% %s
+)char[] Foo `u8 x,` , } packet leftPad { }packet float{ @tag(	3
+) roots @calculatedFrom( ""1"" )
+    , }")).
+Eval vm_compute in ("<<<M1203>>>" ++ check (runes_of_ascii "root packet pack
+// " ++ [128512]%N ++ runes_of_ascii " emoji
+//x
+{ Header { matchKey
+@lengthOf( metadata ) `doc` ,
+zchar[
+    4294967296 ]  stringy ,}, }
+")).
+Eval vm_compute in ("<<<T1203>>>" ++ terms [mkTok 34 "root" 1 0 false; mkTok 35 "packet" 1 5 false; mkTok 42 "pack" 1 12 false; mkTok 44 (string_of_bytes [47; 47; 32; 240; 159; 152; 128; 32; 101; 109; 111; 106; 105]%N) 2 0 true; mkTok 44 "//x" 3 0 true; mkTok 2 "{" 4 0 false; mkTok 42 "Header" 4 2 false; mkTok 2 "{" 4 9 false; mkTok 42 "matchKey" 4 11 false; mkTok 7 "@lengthOf(" 5 0 false; mkTok 42 "metadata" 5 11 false; mkTok 6 ")" 5 20 false; mkTok 43 "`doc`" 5 22 false; mkTok 40 "," 5 28 false; mkTok 14 "zchar[" 6 0 false; mkTok 30 "4294967296" 7 4 false; mkTok 13 "]" 7 15 false; mkTok 42 "stringy" 7 18 false; mkTok 40 "," 7 26 false; mkTok 3 "}" 7 27 false; mkTok 40 "," 7 28 false; mkTok 3 "}" 7 30 false; mkTok 0 "<EOF>" 8 0 false] (mkPacket (mkPtok 34 "root" 1 0 0) (Some (mkPtok 3 "}" 7 30 21)) [(DPacket (mkPacketDef (mkSpan (mkPtok 34 "root" 1 0 0) (mkPtok 3 "}" 7 30 21)) (Some (mkPtok 34 "root" 1 0 0)) (mkPtok 35 "packet" 1 5 1) (mkPtok 42 "pack" 1 12 2) (mkPtok 2 "{" 4 0 5) [(mkFieldWithAttr (mkSpan (mkPtok 42 "Header" 4 2 6) (mkPtok 40 "," 7 28 20)) [] (InerObjectField (mkSpan (mkPtok 42 "Header" 4 2 6) (mkPtok 40 "," 7 28 20)) None (InerObjectDecl (mkSpan (mkPtok 42 "Header" 4 2 6) (mkPtok 3 "}" 7 27 19)) (mkPtok 42 "Header" 4 2 6) (mkPtok 2 "{" 4 9 7) [(LengthField (mkSpan (mkPtok 42 "matchKey" 4 11 8) (mkPtok 40 "," 5 28 13)) (mkLengthFieldDecl (mkSpan (mkPtok 42 "matchKey" 4 11 8) (mkPtok 40 "," 5 28 13)) None (mkPtok 42 "matchKey" 4 11 8) (mkLengthOf (mkSpan (mkPtok 7 "@lengthOf(" 5 0 9) (mkPtok 6 ")" 5 20 11)) (mkPtok 7 "@lengthOf(" 5 0 9) (mkPtok 42 "metadata" 5 11 10) (mkPtok 6 ")" 5 20 11)) (Some (mkPtok 43 "`doc`" 5 22 12)) (mkPtok 40 "," 5 28 13))); (MetaField (mkSpan (mkPtok 14 "zchar[" 6 0 14) (mkPtok 40 "," 7 26 18)) None (mkMetaDecl (mkSpan (mkPtok 14 "zchar[" 6 0 14) (mkPtok 40 "," 7 26 18)) (TyFixed (mkSpan (mkPtok 14 "zchar[" 6 0 14) (mkPtok 13 "]" 7 15 16)) (mkFixedString (mkSpan (mkPtok 14 "zchar[" 6 0 14) (mkPtok 13 "]" 7 15 16)) (mkPtok 14 "zchar[" 6 0 14) (mkPtok 30 "4294967296" 7 4 15) (mkPtok 13 "]" 7 15 16))) (mkPtok 42 "stringy" 7 18 17) None (mkPtok 40 "," 7 26 18)))] (mkPtok 3 "}" 7 27 19)) (mkPtok 40 "," 7 28 20)))] (mkPtok 3 "}" 7 30 21)))])).
+Eval vm_compute in ("<<<M1235>>>" ++ check (runes_of_ascii "options	{  x
+= ""{,}""
+} packet
+charz { @calculatedFrom(
+    """ ++ [28040; 24687]%N ++ runes_of_ascii """
+) packetx
+,
+}
+options
+{ } packet asx
+{ repeat
+    MetaDataX // " ++ [27880; 37322]%N ++ runes_of_ascii "
+leftPad
+    , }root
+//
+/// triple
+packet Header {lengthOf
+{ string_ float  ,
+leftPad , float32
+roots
+    ,repeat i8i8 { // @lengthOf(
+calculatedFrom lengthOf ,
+    zchar[ 0
+    // @lengthOf(
+    ] calculatedFrom @calculatedFrom(  ""\n"" ) ,
+roots
+    { char[0123456789	]roots `doc`  , } // " ++ [27880; 37322]%N ++ runes_of_ascii "
+, string tag @calculatedFrom(  ""a	b"" ) ,} // trailing space 
+,
+    } , string_ repeatCount ,i8 // " ++ [128512]%N ++ runes_of_ascii " emoji
+zchar
+    @lengthOf( i64_ ),	T `// not a comment` , @lengthOf(
+x_y_z
+) match o as chars { [ 007
+,
+10 ,
+""a\\"" , 00 ,""`tick`"" , 007 ,	""{,}"" ,// a // b
+""a\\""
+    ]
+    :
+// 50% %s
+// " ++ [128512]%N ++ runes_of_ascii " emoji
+lengthOf ,
+}
+    ,
+calculatedFrom stringy , @lengthOf( i8i8) @tag( 3)
+//
+//	t
+chars
+{
+x_y_z@calculatedFrom(
+""it's"") ,
+string
+i64_	, int32
+zchar, u8x , } , matchKey trueish	, // " ++ [128512]%N ++ runes_of_ascii " emoji
+@calculatedFrom(""" ++ [233]%N ++ runes_of_ascii "t" ++ [233]%N ++ runes_of_ascii """) char[] Header
+, match options1// trailing space 
+as Foo  { 3
+: zchar
+, 1
+: crc, }
+    ,} //	t")).
+Eval vm_compute in ("<<<M1267>>>" ++ check (runes_of_ascii "root packet f32a
+    {@tag( 1
+)@lengthOf( trueish	) @tag( 4294967296)
+u8x
+`{ , }`,
+    }
+")).
+Eval vm_compute in ("<<<M1299>>>" ++ check (runes_of_ascii "packet //	t
+len
+{  @leftPad( ' ' )	string_ f32a
+,
+// " ++ [128512]%N ++ runes_of_ascii " emoji
+// 50% %s
+}
+//x
+// @lengthOf(
+MetaData As
+{char[
+    42 ]  string_ `say ""hi""`	,
+i8 Logon,MetaDataX f32a,} options{  pack =
+    zchar[42 ]; x_y_z = zchar[ 10 ] ;
+int=
+    ""1"" ; x_y_z
+=
+// `tick` ""quote"" 'q'
+// `tick` ""quote"" 'q'
+""packet"" matchKey =' ' }
+")).
+Eval vm_compute in ("<<<M1331>>>" ++ check (runes_of_ascii "packet _x
+    {string lengthOf  `two words` , @rightPad  (	)uint32 calculatedFrom , @lengthOf(
+float )
+    len leftPad ,i32 A ,
+@lengthOf( i64_
+    )	options1 @lengthOf(u) `" ++ [28040; 24687; 31867; 22411]%N ++ runes_of_ascii "`
+// 50% %s
+// 50% %s
+,@tag( 1
+    )
+@tag(//
+7 ) @calculatedFrom( ""a	b"" )match Z9_ as
+crc{ [65535
+    , 255
+,
+    """"
+    ,
+    4294967296
+    ,
+    007 ] : u128 ,
+42 :int , [ 0  ]: i8i8 """ ++ [128512]%N ++ runes_of_ascii """
+    // c
+    :	Foo ,
+[ 4294967296
+] :float , 255// packet A { u8 x, }
+: Foo
+, } , options1`it's`
+, char[] matchKey  @calculatedFrom(	""1"" )  `
+`	, uint16
+    a1`it's` , }
+
+")).
+Eval vm_compute in ("<<<M1363>>>" ++ check (runes_of_ascii "packet x_y_z
+    {uint16 asx
+    ,  } 	 ")).
+Eval vm_compute in ("<<<M1395>>>" ++ check (runes_of_ascii "root packet packetx {}
+")).
+Eval vm_compute in ("<<<M1427>>>" ++ check (runes_of_ascii "
+packet BodyLength  {
+match
+// " ++ [128512]%N ++ runes_of_ascii " emoji
+// trailing space 
+i64_ as asx
+{ [10,
+    ""\" ++ [233]%N ++ runes_of_ascii """  , 0 , 1, ""CRC32"" ,0, 007,""" ++ [233]%N ++ runes_of_ascii "t" ++ [233]%N ++ runes_of_ascii """
+    ] :
+// c
+// packet A { u8 x, }
+options1 , 007 :trueish, 00:  metadata ,
+    [ ""it's""]
+:
+    msg_type
+// `tick` ""quote"" 'q'
+/// triple
+,},
+    @tag( 65535 )  repeat string repeatCount //
+, @lengthOf( tag
+) @leftPad ( '\x00'	)
+@lengthOf( A	)  i16 asx@lengthOf(
+    // c
+    string_ )
+`
+` ,
+    @calculatedFrom(""// no comment""
+) match packetx
+as
+x_y_z
+{  [ 007
+, 255 , ""x y""	, // trailing space 
+42 ]
+    : i64_ // " ++ [128512]%N ++ runes_of_ascii " emoji
+, """ ++ [233]%N ++ runes_of_ascii "t" ++ [233]%N ++ runes_of_ascii """
+    :
+f32a [
+""packet"" // trailing space 
+, ""a\\"" , 7,""it's"" ]: rootA ""a\""b"" : MetaDataX ,	255 : i64_  ""CRC32""
+:repeatCount ,} ,@tag( 0123456789
+)@rightPad ( ' ') @leftPad( '\x00'// `tick` ""quote"" 'q'
+)
+roots `100% of %d` ,repeat
+x {
+repeat char[]  pack ,
+    char[  00
+] Packet // @lengthOf(
+@calculatedFrom( ""\" ++ [233]%N ++ runes_of_ascii """ )
+    `two words`,// c
+MetaDataX , }, match
+    u as zchar { 65535 : A , [00
+, 4294967296
+// `tick` ""quote"" 'q'
+//x
+,""// no comment"" , 65535,""a\""b""  , 255
+, 0 , 7 ]
+    : a1 , [ ""{,}"" ]
+: Header ,}
+, @rightPad ( ' ' ) match i64_ as Z9_ { [ """ ++ [128512]%N ++ runes_of_ascii """ ,
+    ""// no comment"" , ""packet""
+, 255 , 65535	] :  stringy , [
+""""
+    , // @lengthOf(
+007
+    , // c
+""it's""// " ++ [27880; 37322]%N ++ runes_of_ascii "
+] : Z9_  [ """ ++ [128512]%N ++ runes_of_ascii """ ] : calculatedFrom
+, 1 :T ,} , @tag( 0123456789
+    )@calculatedFrom(
+""{,}"" )
+@leftPad// trailing space 
+( )
+repeat i8i8 i8i8
+    ,string
+    Z9_ ,
     }")).
+Eval vm_compute in ("<<<T1427>>>" ++ terms [mkTok 35 "packet" 2 0 false; mkTok 42 "BodyLength" 2 7 false; mkTok 2 "{" 2 19 false; mkTok 38 "match" 3 0 false; mkTok 44 (string_of_bytes [47; 47; 32; 240; 159; 152; 128; 32; 101; 109; 111; 106; 105]%N) 4 0 true; mkTok 44 "// trailing space " 5 0 true; mkTok 42 "i64_" 6 0 false; mkTok 17 "as" 6 5 false; mkTok 42 "asx" 6 8 false; mkTok 2 "{" 7 0 false; mkTok 18 "[" 7 2 false; mkTok 30 "10" 7 3 false; mkTok 40 "," 7 5 false; mkTok 31 (string_of_bytes [34; 92; 195; 169; 34]%N) 8 4 false; mkTok 40 "," 8 10 false; mkTok 30 "0" 8 12 false; mkTok 40 "," 8 14 false; mkTok 30 "1" 8 16 false; mkTok 40 "," 8 17 false; mkTok 31 """CRC32""" 8 19 false; mkTok 40 "," 8 27 false; mkTok 30 "0" 8 28 false; mkTok 40 "," 8 29 false; mkTok 30 "007" 8 31 false; mkTok 40 "," 8 34 false; mkTok 31 (string_of_bytes [34; 195; 169; 116; 195; 169; 34]%N) 8 35 false; mkTok 13 "]" 9 4 false; mkTok 39 ":" 9 6 false; mkTok 44 "// c" 10 0 true; mkTok 44 "// packet A { u8 x, }" 11 0 true; mkTok 42 "options1" 12 0 false; mkTok 40 "," 12 9 false; mkTok 30 "007" 12 11 false; mkTok 39 ":" 12 15 false; mkTok 42 "trueish" 12 16 false; mkTok 40 "," 12 23 false; mkTok 30 "00" 12 25 false; mkTok 39 ":" 12 27 false; mkTok 42 "metadata" 12 30 false; mkTok 40 "," 12 39 false; mkTok 18 "[" 13 4 false; mkTok 31 """it's""" 13 6 false; mkTok 13 "]" 13 12 false; mkTok 39 ":" 14 0 false; mkTok 42 "msg_type" 15 4 false; mkTok 44 "// `tick` ""quote"" 'q'" 16 0 true; mkTok 44 "/// triple" 17 0 true; mkTok 40 "," 18 0 false; mkTok 3 "}" 18 1 false; mkTok 40 "," 18 2 false; mkTok 9 "@tag(" 19 4 false; mkTok 30 "65535" 19 10 false; mkTok 6 ")" 19 16 false; mkTok 36 "repeat" 19 19 false; mkTok 15 "string" 19 26 false; mkTok 42 "repeatCount" 19 33 false; mkTok 44 "//" 19 45 true; mkTok 40 "," 20 0 false; mkTok 7 "@lengthOf(" 20 2 false; mkTok 42 "tag" 20 13 false; mkTok 6 ")" 21 0 false; mkTok 32 "@leftPad" 21 2 false; mkTok 8 "(" 21 11 false; mkTok 33 "'\x00'" 21 13 false; mkTok 6 ")" 21 20 false; mkTok 7 "@lengthOf(" 22 0 false; mkTok 42 "A" 22 11 false; mkTok 6 ")" 22 13 false; mkTok 25 "i16" 22 16 false; mkTok 42 "asx" 22 20 false; mkTok 7 "@lengthOf(" 22 23 false; mkTok 44 "// c" 23 4 true; mkTok 42 "string_" 24 4 false; mkTok 6 ")" 24 12 false; mkTok 43 (string_of_bytes [96; 10; 96]%N) 25 0 false; mkTok 40 "," 26 2 false; mkTok 5 "@calculatedFrom(" 27 4 false; mkTok 31 """// no comment""" 27 20 false; mkTok 6 ")" 28 0 false; mkTok 38 "match" 28 2 false; mkTok 42 "packetx" 28 8 false; mkTok 17 "as" 29 0 false; mkTok 42 "x_y_z" 30 0 false; mkTok 2 "{" 31 0 false; mkTok 18 "[" 31 3 false; mkTok 30 "007" 31 5 false; mkTok 40 "," 32 0 false; mkTok 30 "255" 32 2 false; mkTok 40 "," 32 6 false; mkTok 31 """x y""" 32 8 false; mkTok 40 "," 32 14 false; mkTok 44 "// trailing space " 32 16 true; mkTok 30 "42" 33 0 false; mkTok 13 "]" 33 3 false; mkTok 39 ":" 34 4 false; mkTok 42 "i64_" 34 6 false; mkTok 44 (string_of_bytes [47; 47; 32; 240; 159; 152; 128; 32; 101; 109; 111; 106; 105]%N) 34 11 true; mkTok 40 "," 35 0 false; mkTok 31 (string_of_bytes [34; 195; 169; 116; 195; 169; 34]%N) 35 2 false; mkTok 39 ":" 36 4 false; mkTok 42 "f32a" 37 0 false; mkTok 18 "[" 37 5 false; mkTok 31 """packet""" 38 0 false; mkTok 44 "// trailing space " 38 9 true; mkTok 40 "," 39 0 false; mkTok 31 """a\\""" 39 2 false; mkTok 40 "," 39 8 false; mkTok 30 "7" 39 10 false; mkTok 40 "," 39 11 false; mkTok 31 """it's""" 39 12 false; mkTok 13 "]" 39 19 false; mkTok 39 ":" 39 20 false; mkTok 42 "rootA" 39 22 false; mkTok 31 """a\""b""" 39 28 false; mkTok 39 ":" 39 35 false; mkTok 42 "MetaDataX" 39 37 false; mkTok 40 "," 39 47 false; mkTok 30 "255" 39 49 false; mkTok 39 ":" 39 53 false; mkTok 42 "i64_" 39 55 false; mkTok 31 """CRC32""" 39 61 false; mkTok 39 ":" 40 0 false; mkTok 42 "repeatCount" 40 1 false; mkTok 40 "," 40 13 false; mkTok 3 "}" 40 14 false; mkTok 40 "," 40 16 false; mkTok 9 "@tag(" 40 17 false; mkTok 30 "0123456789" 40 23 false; mkTok 6 ")" 41 0 false; mkTok 32 "@rightPad" 41 1 false; mkTok 8 "(" 41 11 false; mkTok 33 "' '" 41 13 false; mkTok 6 ")" 41 16 false; mkTok 32 "@leftPad" 41 18 false; mkTok 8 "(" 41 26 false; mkTok 33 "'\x00'" 41 28 false; mkTok 44 "// `tick` ""quote"" 'q'" 41 34 true; mkTok 6 ")" 42 0 false; mkTok 42 "roots" 43 0 false; mkTok 43 "`100% of %d`" 43 6 false; mkTok 40 "," 43 19 false; mkTok 36 "repeat" 43 20 false; mkTok 42 "x" 44 0 false; mkTok 2 "{" 44 2 false; mkTok 36 "repeat" 45 0 false; mkTok 16 "char[]" 45 7 false; mkTok 42 "pack" 45 15 false; mkTok 40 "," 45 20 false; mkTok 12 "char[" 46 4 false; mkTok 30 "00" 46 11 false; mkTok 13 "]" 47 0 false; mkTok 42 "Packet" 47 2 false; mkTok 44 "// @lengthOf(" 47 9 true; mkTok 5 "@calculatedFrom(" 48 0 false; mkTok 31 (string_of_bytes [34; 92; 195; 169; 34]%N) 48 17 false; mkTok 6 ")" 48 22 false; mkTok 43 "`two words`" 49 4 false; mkTok 40 "," 49 15 false; mkTok 44 "// c" 49 16 true; mkTok 42 "MetaDataX" 50 0 false; mkTok 40 "," 50 10 false; mkTok 3 "}" 50 12 false; mkTok 40 "," 50 13 false; mkTok 38 "match" 50 15 false; mkTok 42 "u" 51 4 false; mkTok 17 "as" 51 6 false; mkTok 42 "zchar" 51 9 false; mkTok 2 "{" 51 15 false; mkTok 30 "65535" 51 17 false; mkTok 39 ":" 51 23 false; mkTok 42 "A" 51 25 false; mkTok 40 "," 51 27 false; mkTok 18 "[" 51 29 false; mkTok 30 "00" 51 30 false; mkTok 40 "," 52 0 false; mkTok 30 "4294967296" 52 2 false; mkTok 44 "// `tick` ""quote"" 'q'" 53 0 true; mkTok 44 "//x" 54 0 true; mkTok 40 "," 55 0 false; mkTok 31 """// no comment""" 55 1 false; mkTok 40 "," 55 17 false; mkTok 30 "65535" 55 19 false; mkTok 40 "," 55 24 false; mkTok 31 """a\""b""" 55 25 false; mkTok 40 "," 55 33 false; mkTok 30 "255" 55 35 false; mkTok 40 "," 56 0 false; mkTok 30 "0" 56 2 false; mkTok 40 "," 56 4 false; mkTok 30 "7" 56 6 false; mkTok 13 "]" 56 8 false; mkTok 39 ":" 57 4 false; mkTok 42 "a1" 57 6 false; mkTok 40 "," 57 9 false; mkTok 18 "[" 57 11 false; mkTok 31 """{,}""" 57 13 false; mkTok 13 "]" 57 19 false; mkTok 39 ":" 58 0 false; mkTok 42 "Header" 58 2 false; mkTok 40 "," 58 9 false; mkTok 3 "}" 58 10 false; mkTok 40 "," 59 0 false; mkTok 32 "@rightPad" 59 2 false; mkTok 8 "(" 59 12 false; mkTok 33 "' '" 59 14 false; mkTok 6 ")" 59 18 false; mkTok 38 "match" 59 20 false; mkTok 42 "i64_" 59 26 false; mkTok 17 "as" 59 31 false; mkTok 42 "Z9_" 59 34 false; mkTok 2 "{" 59 38 false; mkTok 18 "[" 59 40 false; mkTok 31 (string_of_bytes [34; 240; 159; 152; 128; 34]%N) 59 42 false; mkTok 40 "," 59 46 false; mkTok 31 """// no comment""" 60 4 false; mkTok 40 "," 60 20 false; mkTok 31 """packet""" 60 22 false; mkTok 40 "," 61 0 false; mkTok 30 "255" 61 2 false; mkTok 40 "," 61 6 false; mkTok 30 "65535" 61 8 false; mkTok 13 "]" 61 14 false; mkTok 39 ":" 61 16 false; mkTok 42 "stringy" 61 19 false; mkTok 40 "," 61 27 false; mkTok 18 "[" 61 29 false; mkTok 31 """""" 62 0 false; mkTok 40 "," 63 4 false; mkTok 44 "// @lengthOf(" 63 6 true; mkTok 30 "007" 64 0 false; mkTok 40 "," 65 4 false; mkTok 44 "// c" 65 6 true; mkTok 31 """it's""" 66 0 false; mkTok 44 (string_of_bytes [47; 47; 32; 230; 179; 168; 233; 135; 138]%N) 66 6 true; mkTok 13 "]" 67 0 false; mkTok 39 ":" 67 2 false; mkTok 42 "Z9_" 67 4 false; mkTok 18 "[" 67 9 false; mkTok 31 (string_of_bytes [34; 240; 159; 152; 128; 34]%N) 67 11 false; mkTok 13 "]" 67 15 false; mkTok 39 ":" 67 17 false; mkTok 42 "calculatedFrom" 67 19 false; mkTok 40 "," 68 0 false; mkTok 30 "1" 68 2 false; mkTok 39 ":" 68 4 false; mkTok 42 "T" 68 5 false; mkTok 40 "," 68 7 false; mkTok 3 "}" 68 8 false; mkTok 40 "," 68 10 false; mkTok 9 "@tag(" 68 12 false; mkTok 30 "0123456789" 68 18 false; mkTok 6 ")" 69 4 false; mkTok 5 "@calculatedFrom(" 69 5 false; mkTok 31 """{,}""" 70 0 false; mkTok 6 ")" 70 6 false; mkTok 32 "@leftPad" 71 0 false; mkTok 44 "// trailing space " 71 8 true; mkTok 8 "(" 72 0 false; mkTok 6 ")" 72 2 false; mkTok 36 "repeat" 73 0 false; mkTok 42 "i8i8" 73 7 false; mkTok 42 "i8i8" 73 12 false; mkTok 40 "," 74 4 false; mkTok 15 "string" 74 5 false; mkTok 42 "Z9_" 75 4 false; mkTok 40 "," 75 8 false; mkTok 3 "}" 76 4 false; mkTok 0 "<EOF>" 76 5 false] (mkPacket (mkPtok 35 "packet" 2 0 0) (Some (mkPtok 3 "}" 76 4 266)) [(DPacket (mkPacketDef (mkSpan (mkPtok 35 "packet" 2 0 0) (mkPtok 3 "}" 76 4 266)) None (mkPtok 35 "packet" 2 0 0) (mkPtok 42 "BodyLength" 2 7 1) (mkPtok 2 "{" 2 19 2) [(mkFieldWithAttr (mkSpan (mkPtok 38 "match" 3 0 3) (mkPtok 40 "," 18 2 49)) [] (MatchField (mkSpan (mkPtok 38 "match" 3 0 3) (mkPtok 40 "," 18 2 49)) (mkMatchFieldDecl (mkSpan (mkPtok 38 "match" 3 0 3) (mkPtok 3 "}" 18 1 48)) (mkPtok 38 "match" 3 0 3) (mkPtok 42 "i64_" 6 0 6) (mkPtok 17 "as" 6 5 7) (mkPtok 42 "asx" 6 8 8) (mkPtok 2 "{" 7 0 9) [(mkMatchPair (mkSpan (mkPtok 18 "[" 7 2 10) (mkPtok 40 "," 12 9 31)) (MKList (mkKeyList (mkSpan (mkPtok 18 "[" 7 2 10) (mkPtok 13 "]" 9 4 26)) (mkPtok 18 "[" 7 2 10) (mkPtok 30 "10" 7 3 11) [((mkPtok 40 "," 7 5 12), (mkPtok 31 (string_of_bytes [34; 92; 195; 169; 34]%N) 8 4 13)); ((mkPtok 40 "," 8 10 14), (mkPtok 30 "0" 8 12 15)); ((mkPtok 40 "," 8 14 16), (mkPtok 30 "1" 8 16 17)); ((mkPtok 40 "," 8 17 18), (mkPtok 31 """CRC32""" 8 19 19)); ((mkPtok 40 "," 8 27 20), (mkPtok 30 "0" 8 28 21)); ((mkPtok 40 "," 8 29 22), (mkPtok 30 "007" 8 31 23)); ((mkPtok 40 "," 8 34 24), (mkPtok 31 (string_of_bytes [34; 195; 169; 116; 195; 169; 34]%N) 8 35 25))] (mkPtok 13 "]" 9 4 26))) (mkPtok 39 ":" 9 6 27) (mkPtok 42 "options1" 12 0 30) (Some (mkPtok 40 "," 12 9 31))); (mkMatchPair (mkSpan (mkPtok 30 "007" 12 11 32) (mkPtok 40 "," 12 23 35)) (MKDigits (mkPtok 30 "007" 12 11 32)) (mkPtok 39 ":" 12 15 33) (mkPtok 42 "trueish" 12 16 34) (Some (mkPtok 40 "," 12 23 35))); (mkMatchPair (mkSpan (mkPtok 30 "00" 12 25 36) (mkPtok 40 "," 12 39 39)) (MKDigits (mkPtok 30 "00" 12 25 36)) (mkPtok 39 ":" 12 27 37) (mkPtok 42 "metadata" 12 30 38) (Some (mkPtok 40 "," 12 39 39))); (mkMatchPair (mkSpan (mkPtok 18 "[" 13 4 40) (mkPtok 40 "," 18 0 47)) (MKList (mkKeyList (mkSpan (mkPtok 18 "[" 13 4 40) (mkPtok 13 "]" 13 12 42)) (mkPtok 18 "[" 13 4 40) (mkPtok 31 """it's""" 13 6 41) [] (mkPtok 13 "]" 13 12 42))) (mkPtok 39 ":" 14 0 43) (mkPtok 42 "msg_type" 15 4 44) (Some (mkPtok 40 "," 18 0 47)))] (mkPtok 3 "}" 18 1 48)) (mkPtok 40 "," 18 2 49))); (mkFieldWithAttr (mkSpan (mkPtok 9 "@tag(" 19 4 50) (mkPtok 40 "," 20 0 57)) [(FATag (mkSpan (mkPtok 9 "@tag(" 19 4 50) (mkPtok 6 ")" 19 16 52)) (mkTagAttr (mkSpan (mkPtok 9 "@tag(" 19 4 50) (mkPtok 6 ")" 19 16 52)) (mkPtok 9 "@tag(" 19 4 50) (mkPtok 30 "65535" 19 10 51) (mkPtok 6 ")" 19 16 52)))] (MetaField (mkSpan (mkPtok 36 "repeat" 19 19 53) (mkPtok 40 "," 20 0 57)) (Some (mkPtok 36 "repeat" 19 19 53)) (mkMetaDecl (mkSpan (mkPtok 15 "string" 19 26 54) (mkPtok 40 "," 20 0 57)) (TyDynamic (mkSpan (mkPtok 15 "string" 19 26 54) (mkPtok 15 "string" 19 26 54)) (mkDynamicString (mkSpan (mkPtok 15 "string" 19 26 54) (mkPtok 15 "string" 19 26 54)) (mkPtok 15 "string" 19 26 54))) (mkPtok 42 "repeatCount" 19 33 55) None (mkPtok 40 "," 20 0 57)))); (mkFieldWithAttr (mkSpan (mkPtok 7 "@lengthOf(" 20 2 58) (mkPtok 40 "," 26 2 75)) [(FALengthOf (mkSpan (mkPtok 7 "@lengthOf(" 20 2 58) (mkPtok 6 ")" 21 0 60)) (mkLengthOf (mkSpan (mkPtok 7 "@lengthOf(" 20 2 58) (mkPtok 6 ")" 21 0 60)) (mkPtok 7 "@lengthOf(" 20 2 58) (mkPtok 42 "tag" 20 13 59) (mkPtok 6 ")" 21 0 60))); (FAPadding (mkSpan (mkPtok 32 "@leftPad" 21 2 61) (mkPtok 6 ")" 21 20 64)) (mkPaddingAttr (mkSpan (mkPtok 32 "@leftPad" 21 2 61) (mkPtok 6 ")" 21 20 64)) (mkPtok 32 "@leftPad" 21 2 61) (mkPtok 8 "(" 21 11 62) (Some (mkPtok 33 "'\x00'" 21 13 63)) (mkPtok 6 ")" 21 20 64))); (FALengthOf (mkSpan (mkPtok 7 "@lengthOf(" 22 0 65) (mkPtok 6 ")" 22 13 67)) (mkLengthOf (mkSpan (mkPtok 7 "@lengthOf(" 22 0 65) (mkPtok 6 ")" 22 13 67)) (mkPtok 7 "@lengthOf(" 22 0 65) (mkPtok 42 "A" 22 11 66) (mkPtok 6 ")" 22 13 67)))] (LengthField (mkSpan (mkPtok 25 "i16" 22 16 68) (mkPtok 40 "," 26 2 75)) (mkLengthFieldDecl (mkSpan (mkPtok 25 "i16" 22 16 68) (mkPtok 40 "," 26 2 75)) (Some (TyBasic (mkSpan (mkPtok 25 "i16" 22 16 68) (mkPtok 25 "i16" 22 16 68)) (mkBasicType (mkSpan (mkPtok 25 "i16" 22 16 68) (mkPtok 25 "i16" 22 16 68)) (mkPtok 25 "i16" 22 16 68)))) (mkPtok 42 "asx" 22 20 69) (mkLengthOf (mkSpan (mkPtok 7 "@lengthOf(" 22 23 70) (mkPtok 6 ")" 24 12 73)) (mkPtok 7 "@lengthOf(" 22 23 70) (mkPtok 42 "string_" 24 4 72) (mkPtok 6 ")" 24 12 73)) (Some (mkPtok 43 (string_of_bytes [96; 10; 96]%N) 25 0 74)) (mkPtok 40 "," 26 2 75)))); (mkFieldWithAttr (mkSpan (mkPtok 5 "@calculatedFrom(" 27 4 76) (mkPtok 40 "," 40 16 125)) [(FACalculatedFrom (mkSpan (mkPtok 5 "@calculatedFrom(" 27 4 76) (mkPtok 6 ")" 28 0 78)) (mkCalculatedFrom (mkSpan (mkPtok 5 "@calculatedFrom(" 27 4 76) (mkPtok 6 ")" 28 0 78)) (mkPtok 5 "@calculatedFrom(" 27 4 76) (mkPtok 31 """// no comment""" 27 20 77) (mkPtok 6 ")" 28 0 78)))] (MatchField (mkSpan (mkPtok 38 "match" 28 2 79) (mkPtok 40 "," 40 16 125)) (mkMatchFieldDecl (mkSpan (mkPtok 38 "match" 28 2 79) (mkPtok 3 "}" 40 14 124)) (mkPtok 38 "match" 28 2 79) (mkPtok 42 "packetx" 28 8 80) (mkPtok 17 "as" 29 0 81) (mkPtok 42 "x_y_z" 30 0 82) (mkPtok 2 "{" 31 0 83) [(mkMatchPair (mkSpan (mkPtok 18 "[" 31 3 84) (mkPtok 40 "," 35 0 97)) (MKList (mkKeyList (mkSpan (mkPtok 18 "[" 31 3 84) (mkPtok 13 "]" 33 3 93)) (mkPtok 18 "[" 31 3 84) (mkPtok 30 "007" 31 5 85) [((mkPtok 40 "," 32 0 86), (mkPtok 30 "255" 32 2 87)); ((mkPtok 40 "," 32 6 88), (mkPtok 31 """x y""" 32 8 89)); ((mkPtok 40 "," 32 14 90), (mkPtok 30 "42" 33 0 92))] (mkPtok 13 "]" 33 3 93))) (mkPtok 39 ":" 34 4 94) (mkPtok 42 "i64_" 34 6 95) (Some (mkPtok 40 "," 35 0 97))); (mkMatchPair (mkSpan (mkPtok 31 (string_of_bytes [34; 195; 169; 116; 195; 169; 34]%N) 35 2 98) (mkPtok 42 "f32a" 37 0 100)) (MKString (mkPtok 31 (string_of_bytes [34; 195; 169; 116; 195; 169; 34]%N) 35 2 98)) (mkPtok 39 ":" 36 4 99) (mkPtok 42 "f32a" 37 0 100) None); (mkMatchPair (mkSpan (mkPtok 18 "[" 37 5 101) (mkPtok 42 "rootA" 39 22 112)) (MKList (mkKeyList (mkSpan (mkPtok 18 "[" 37 5 101) (mkPtok 13 "]" 39 19 110)) (mkPtok 18 "[" 37 5 101) (mkPtok 31 """packet""" 38 0 102) [((mkPtok 40 "," 39 0 104), (mkPtok 31 """a\\""" 39 2 105)); ((mkPtok 40 "," 39 8 106), (mkPtok 30 "7" 39 10 107)); ((mkPtok 40 "," 39 11 108), (mkPtok 31 """it's""" 39 12 109))] (mkPtok 13 "]" 39 19 110))) (mkPtok 39 ":" 39 20 111) (mkPtok 42 "rootA" 39 22 112) None); (mkMatchPair (mkSpan (mkPtok 31 """a\""b""" 39 28 113) (mkPtok 40 "," 39 47 116)) (MKString (mkPtok 31 """a\""b""" 39 28 113)) (mkPtok 39 ":" 39 35 114) (mkPtok 42 "MetaDataX" 39 37 115) (Some (mkPtok 40 "," 39 47 116))); (mkMatchPair (mkSpan (mkPtok 30 "255" 39 49 117) (mkPtok 42 "i64_" 39 55 119)) (MKDigits (mkPtok 30 "255" 39 49 117)) (mkPtok 39 ":" 39 53 118) (mkPtok 42 "i64_" 39 55 119) None); (mkMatchPair (mkSpan (mkPtok 31 """CRC32""" 39 61 120) (mkPtok 40 "," 40 13 123)) (MKString (mkPtok 31 """CRC32""" 39 61 120)) (mkPtok 39 ":" 40 0 121) (mkPtok 42 "repeatCount" 40 1 122) (Some (mkPtok 40 "," 40 13 123)))] (mkPtok 3 "}" 40 14 124)) (mkPtok 40 "," 40 16 125))); (mkFieldWithAttr (mkSpan (mkPtok 9 "@tag(" 40 17 126) (mkPtok 40 "," 43 19 140)) [(FATag (mkSpan (mkPtok 9 "@tag(" 40 17 126) (mkPtok 6 ")" 41 0 128)) (mkTagAttr (mkSpan (mkPtok 9 "@tag(" 40 17 126) (mkPtok 6 ")" 41 0 128)) (mkPtok 9 "@tag(" 40 17 126) (mkPtok 30 "0123456789" 40 23 127) (mkPtok 6 ")" 41 0 128))); (FAPadding (mkSpan (mkPtok 32 "@rightPad" 41 1 129) (mkPtok 6 ")" 41 16 132)) (mkPaddingAttr (mkSpan (mkPtok 32 "@rightPad" 41 1 129) (mkPtok 6 ")" 41 16 132)) (mkPtok 32 "@rightPad" 41 1 129) (mkPtok 8 "(" 41 11 130) (Some (mkPtok 33 "' '" 41 13 131)) (mkPtok 6 ")" 41 16 132))); (FAPadding (mkSpan (mkPtok 32 "@leftPad" 41 18 133) (mkPtok 6 ")" 42 0 137)) (mkPaddingAttr (mkSpan (mkPtok 32 "@leftPad" 41 18 133) (mkPtok 6 ")" 42 0 137)) (mkPtok 32 "@leftPad" 41 18 133) (mkPtok 8 "(" 41 26 134) (Some (mkPtok 33 "'\x00'" 41 28 135)) (mkPtok 6 ")" 42 0 137)))] (ObjectField (mkSpan (mkPtok 42 "roots" 43 0 138) (mkPtok 40 "," 43 19 140)) None (mkPtok 42 "roots" 43 0 138) None (Some (mkPtok 43 "`100% of %d`" 43 6 139)) (mkPtok 40 "," 43 19 140))); (mkFieldWithAttr (mkSpan (mkPtok 36 "repeat" 43 20 141) (mkPtok 40 "," 50 13 162)) [] (InerObjectField (mkSpan (mkPtok 36 "repeat" 43 20 141) (mkPtok 40 "," 50 13 162)) (Some (mkPtok 36 "repeat" 43 20 141)) (InerObjectDecl (mkSpan (mkPtok 42 "x" 44 0 142) (mkPtok 3 "}" 50 12 161)) (mkPtok 42 "x" 44 0 142) (mkPtok 2 "{" 44 2 143) [(MetaField (mkSpan (mkPtok 36 "repeat" 45 0 144) (mkPtok 40 "," 45 20 147)) (Some (mkPtok 36 "repeat" 45 0 144)) (mkMetaDecl (mkSpan (mkPtok 16 "char[]" 45 7 145) (mkPtok 40 "," 45 20 147)) (TyDynamic (mkSpan (mkPtok 16 "char[]" 45 7 145) (mkPtok 16 "char[]" 45 7 145)) (mkDynamicString (mkSpan (mkPtok 16 "char[]" 45 7 145) (mkPtok 16 "char[]" 45 7 145)) (mkPtok 16 "char[]" 45 7 145))) (mkPtok 42 "pack" 45 15 146) None (mkPtok 40 "," 45 20 147))); (CheckSumField (mkSpan (mkPtok 12 "char[" 46 4 148) (mkPtok 40 "," 49 15 157)) (mkChecksumFieldDecl (mkSpan (mkPtok 12 "char[" 46 4 148) (mkPtok 40 "," 49 15 157)) (Some (TyFixed (mkSpan (mkPtok 12 "char[" 46 4 148) (mkPtok 13 "]" 47 0 150)) (mkFixedString (mkSpan (mkPtok 12 "char[" 46 4 148) (mkPtok 13 "]" 47 0 150)) (mkPtok 12 "char[" 46 4 148) (mkPtok 30 "00" 46 11 149) (mkPtok 13 "]" 47 0 150)))) (mkPtok 42 "Packet" 47 2 151) (mkCalculatedFrom (mkSpan (mkPtok 5 "@calculatedFrom(" 48 0 153) (mkPtok 6 ")" 48 22 155)) (mkPtok 5 "@calculatedFrom(" 48 0 153) (mkPtok 31 (string_of_bytes [34; 92; 195; 169; 34]%N) 48 17 154) (mkPtok 6 ")" 48 22 155)) (Some (mkPtok 43 "`two words`" 49 4 156)) (mkPtok 40 "," 49 15 157))); (ObjectField (mkSpan (mkPtok 42 "MetaDataX" 50 0 159) (mkPtok 40 "," 50 10 160)) None (mkPtok 42 "MetaDataX" 50 0 159) None None (mkPtok 40 "," 50 10 160))] (mkPtok 3 "}" 50 12 161)) (mkPtok 40 "," 50 13 162))); (mkFieldWithAttr (mkSpan (mkPtok 38 "match" 50 15 163) (mkPtok 40 "," 59 0 201)) [] (MatchField (mkSpan (mkPtok 38 "match" 50 15 163) (mkPtok 40 "," 59 0 201)) (mkMatchFieldDecl (mkSpan (mkPtok 38 "match" 50 15 163) (mkPtok 3 "}" 58 10 200)) (mkPtok 38 "match" 50 15 163) (mkPtok 42 "u" 51 4 164) (mkPtok 17 "as" 51 6 165) (mkPtok 42 "zchar" 51 9 166) (mkPtok 2 "{" 51 15 167) [(mkMatchPair (mkSpan (mkPtok 30 "65535" 51 17 168) (mkPtok 40 "," 51 27 171)) (MKDigits (mkPtok 30 "65535" 51 17 168)) (mkPtok 39 ":" 51 23 169) (mkPtok 42 "A" 51 25 170) (Some (mkPtok 40 "," 51 27 171))); (mkMatchPair (mkSpan (mkPtok 18 "[" 51 29 172) (mkPtok 40 "," 57 9 193)) (MKList (mkKeyList (mkSpan (mkPtok 18 "[" 51 29 172) (mkPtok 13 "]" 56 8 190)) (mkPtok 18 "[" 51 29 172) (mkPtok 30 "00" 51 30 173) [((mkPtok 40 "," 52 0 174), (mkPtok 30 "4294967296" 52 2 175)); ((mkPtok 40 "," 55 0 178), (mkPtok 31 """// no comment""" 55 1 179)); ((mkPtok 40 "," 55 17 180), (mkPtok 30 "65535" 55 19 181)); ((mkPtok 40 "," 55 24 182), (mkPtok 31 """a\""b""" 55 25 183)); ((mkPtok 40 "," 55 33 184), (mkPtok 30 "255" 55 35 185)); ((mkPtok 40 "," 56 0 186), (mkPtok 30 "0" 56 2 187)); ((mkPtok 40 "," 56 4 188), (mkPtok 30 "7" 56 6 189))] (mkPtok 13 "]" 56 8 190))) (mkPtok 39 ":" 57 4 191) (mkPtok 42 "a1" 57 6 192) (Some (mkPtok 40 "," 57 9 193))); (mkMatchPair (mkSpan (mkPtok 18 "[" 57 11 194) (mkPtok 40 "," 58 9 199)) (MKList (mkKeyList (mkSpan (mkPtok 18 "[" 57 11 194) (mkPtok 13 "]" 57 19 196)) (mkPtok 18 "[" 57 11 194) (mkPtok 31 """{,}""" 57 13 195) [] (mkPtok 13 "]" 57 19 196))) (mkPtok 39 ":" 58 0 197) (mkPtok 42 "Header" 58 2 198) (Some (mkPtok 40 "," 58 9 199)))] (mkPtok 3 "}" 58 10 200)) (mkPtok 40 "," 59 0 201))); (mkFieldWithAttr (mkSpan (mkPtok 32 "@rightPad" 59 2 202) (mkPtok 40 "," 68 10 248)) [(FAPadding (mkSpan (mkPtok 32 "@rightPad" 59 2 202) (mkPtok 6 ")" 59 18 205)) (mkPaddingAttr (mkSpan (mkPtok 32 "@rightPad" 59 2 202) (mkPtok 6 ")" 59 18 205)) (mkPtok 32 "@rightPad" 59 2 202) (mkPtok 8 "(" 59 12 203) (Some (mkPtok 33 "' '" 59 14 204)) (mkPtok 6 ")" 59 18 205)))] (MatchField (mkSpan (mkPtok 38 "match" 59 20 206) (mkPtok 40 "," 68 10 248)) (mkMatchFieldDecl (mkSpan (mkPtok 38 "match" 59 20 206) (mkPtok 3 "}" 68 8 247)) (mkPtok 38 "match" 59 20 206) (mkPtok 42 "i64_" 59 26 207) (mkPtok 17 "as" 59 31 208) (mkPtok 42 "Z9_" 59 34 209) (mkPtok 2 "{" 59 38 210) [(mkMatchPair (mkSpan (mkPtok 18 "[" 59 40 211) (mkPtok 40 "," 61 27 224)) (MKList (mkKeyList (mkSpan (mkPtok 18 "[" 59 40 211) (mkPtok 13 "]" 61 14 221)) (mkPtok 18 "[" 59 40 211) (mkPtok 31 (string_of_bytes [34; 240; 159; 152; 128; 34]%N) 59 42 212) [((mkPtok 40 "," 59 46 213), (mkPtok 31 """// no comment""" 60 4 214)); ((mkPtok 40 "," 60 20 215), (mkPtok 31 """packet""" 60 22 216)); ((mkPtok 40 "," 61 0 217), (mkPtok 30 "255" 61 2 218)); ((mkPtok 40 "," 61 6 219), (mkPtok 30 "65535" 61 8 220))] (mkPtok 13 "]" 61 14 221))) (mkPtok 39 ":" 61 16 222) (mkPtok 42 "stringy" 61 19 223) (Some (mkPtok 40 "," 61 27 224))); (mkMatchPair (mkSpan (mkPtok 18 "[" 61 29 225) (mkPtok 42 "Z9_" 67 4 236)) (MKList (mkKeyList (mkSpan (mkPtok 18 "[" 61 29 225) (mkPtok 13 "]" 67 0 234)) (mkPtok 18 "[" 61 29 225) (mkPtok 31 """""" 62 0 226) [((mkPtok 40 "," 63 4 227), (mkPtok 30 "007" 64 0 229)); ((mkPtok 40 "," 65 4 230), (mkPtok 31 """it's""" 66 0 232))] (mkPtok 13 "]" 67 0 234))) (mkPtok 39 ":" 67 2 235) (mkPtok 42 "Z9_" 67 4 236) None); (mkMatchPair (mkSpan (mkPtok 18 "[" 67 9 237) (mkPtok 40 "," 68 0 242)) (MKList (mkKeyList (mkSpan (mkPtok 18 "[" 67 9 237) (mkPtok 13 "]" 67 15 239)) (mkPtok 18 "[" 67 9 237) (mkPtok 31 (string_of_bytes [34; 240; 159; 152; 128; 34]%N) 67 11 238) [] (mkPtok 13 "]" 67 15 239))) (mkPtok 39 ":" 67 17 240) (mkPtok 42 "calculatedFrom" 67 19 241) (Some (mkPtok 40 "," 68 0 242))); (mkMatchPair (mkSpan (mkPtok 30 "1" 68 2 243) (mkPtok 40 "," 68 7 246)) (MKDigits (mkPtok 30 "1" 68 2 243)) (mkPtok 39 ":" 68 4 244) (mkPtok 42 "T" 68 5 245) (Some (mkPtok 40 "," 68 7 246)))] (mkPtok 3 "}" 68 8 247)) (mkPtok 40 "," 68 10 248))); (mkFieldWithAttr (mkSpan (mkPtok 9 "@tag(" 68 12 249) (mkPtok 40 "," 74 4 262)) [(FATag (mkSpan (mkPtok 9 "@tag(" 68 12 249) (mkPtok 6 ")" 69 4 251)) (mkTagAttr (mkSpan (mkPtok 9 "@tag(" 68 12 249) (mkPtok 6 ")" 69 4 251)) (mkPtok 9 "@tag(" 68 12 249) (mkPtok 30 "0123456789" 68 18 250) (mkPtok 6 ")" 69 4 251))); (FACalculatedFrom (mkSpan (mkPtok 5 "@calculatedFrom(" 69 5 252) (mkPtok 6 ")" 70 6 254)) (mkCalculatedFrom (mkSpan (mkPtok 5 "@calculatedFrom(" 69 5 252) (mkPtok 6 ")" 70 6 254)) (mkPtok 5 "@calculatedFrom(" 69 5 252) (mkPtok 31 """{,}""" 70 0 253) (mkPtok 6 ")" 70 6 254))); (FAPadding (mkSpan (mkPtok 32 "@leftPad" 71 0 255) (mkPtok 6 ")" 72 2 258)) (mkPaddingAttr (mkSpan (mkPtok 32 "@leftPad" 71 0 255) (mkPtok 6 ")" 72 2 258)) (mkPtok 32 "@leftPad" 71 0 255) (mkPtok 8 "(" 72 0 257) None (mkPtok 6 ")" 72 2 258)))] (ObjectField (mkSpan (mkPtok 36 "repeat" 73 0 259) (mkPtok 40 "," 74 4 262)) (Some (mkPtok 36 "repeat" 73 0 259)) (mkPtok 42 "i8i8" 73 7 260) (Some (mkPtok 42 "i8i8" 73 12 261)) None (mkPtok 40 "," 74 4 262))); (mkFieldWithAttr (mkSpan (mkPtok 15 "string" 74 5 263) (mkPtok 40 "," 75 8 265)) [] (MetaField (mkSpan (mkPtok 15 "string" 74 5 263) (mkPtok 40 "," 75 8 265)) None (mkMetaDecl (mkSpan (mkPtok 15 "string" 74 5 263) (mkPtok 40 "," 75 8 265)) (TyDynamic (mkSpan (mkPtok 15 "string" 74 5 263) (mkPtok 15 "string" 74 5 263)) (mkDynamicString (mkSpan (mkPtok 15 "string" 74 5 263) (mkPtok 15 "string" 74 5 263)) (mkPtok 15 "string" 74 5 263))) (mkPtok 42 "Z9_" 75 4 264) None (mkPtok 40 "," 75 8 265))))] (mkPtok 3 "}" 76 4 266)))])).
+Eval vm_compute in ("<<<M1459>>>" ++ check (runes_of_ascii "
+")).
+Eval vm_compute in ("<<<M1491>>>" ++ check (runes_of_ascii "packet falsey{	match x_y_z as Z9_ { ""CRC32"":
+metadata ,	""CRC32""
+    :u
+,
+    10	: Logon, ""it's"":repeatCount 7
+: options1
+    ,
+    }	, @calculatedFrom(  ""a\\"" )zchar[
+    0	] zchar
+    @calculatedFrom(
+    ""a\\""
+)`say ""hi""`
+, } MetaData matchKey { u32 // 50% %s
+matchKey`doc`
+, }")).
+Eval vm_compute in ("<<<M1523>>>" ++ check (runes_of_ascii "
+")).
+Eval vm_compute in ("<<<M1555>>>" ++ check (runes_of_ascii "packet Pad
+{repeat  rootA//	t
+`{ , }` , options1  `" ++ [233]%N ++ runes_of_ascii "` , }")).
+Eval vm_compute in ("<<<M1587>>>" ++ check (runes_of_ascii "packet zchar{
+// packet A { u8 x, }
+// 50% %s
+@tag(7 // packet A { u8 x, }
+) // c
+rootA { x `// not a comment` , }
+//
+// " ++ [128512]%N ++ runes_of_ascii " emoji
+, @lengthOf( chars	) zchar[
+65535] zchar
+@calculatedFrom(// " ++ [128512]%N ++ runes_of_ascii " emoji
+""`tick`"" )`{ , }`
+    ,repeat uint64 // @lengthOf(
+charz // packet A { u8 x, }
+,}
+    packet x
+{ u64	zchar`two words`
+//	t
+//	t
+, }
+
+")).
+Eval vm_compute in ("<<<M1619>>>" ++ check (runes_of_ascii "
+options {	As = """ ++ [28040; 24687]%N ++ runes_of_ascii """
+    //	t
+    ; } packet a1 { char[] i64_ , }
+")).
+Eval vm_compute in ("<<<M1651>>>" ++ check (runes_of_ascii "//x
+MetaData charz { // trailing space 
+i8i8 _x`" ++ [28040; 24687; 31867; 22411]%N ++ runes_of_ascii "` ,
+    //
+    char[42  ] body
+``, } 	 ")).
+Eval vm_compute in ("<<<T1651>>>" ++ terms [mkTok 44 "//x" 1 0 true; mkTok 37 "MetaData" 2 0 false; mkTok 42 "charz" 2 9 false; mkTok 2 "{" 2 15 false; mkTok 44 "// trailing space " 2 17 true; mkTok 42 "i8i8" 3 0 false; mkTok 42 "_x" 3 5 false; mkTok 43 (string_of_bytes [96; 230; 182; 136; 230; 129; 175; 231; 177; 187; 229; 158; 139; 96]%N) 3 7 false; mkTok 40 "," 3 14 false; mkTok 44 "//" 4 4 true; mkTok 12 "char[" 5 4 false; mkTok 30 "42" 5 9 false; mkTok 13 "]" 5 13 false; mkTok 42 "body" 5 15 false; mkTok 43 "``" 6 0 false; mkTok 40 "," 6 2 false; mkTok 3 "}" 6 4 false; mkTok 0 "<EOF>" 6 8 false] (mkPacket (mkPtok 37 "MetaData" 2 0 1) (Some (mkPtok 3 "}" 6 4 16)) [(DMeta (mkMetaDef (mkSpan (mkPtok 37 "MetaData" 2 0 1) (mkPtok 3 "}" 6 4 16)) (mkPtok 37 "MetaData" 2 0 1) (mkPtok 42 "charz" 2 9 2) (mkPtok 2 "{" 2 15 3) [(MIRef (mkRefMetaDecl (mkSpan (mkPtok 42 "i8i8" 3 0 5) (mkPtok 40 "," 3 14 8)) (mkPtok 42 "i8i8" 3 0 5) (mkPtok 42 "_x" 3 5 6) (Some (mkPtok 43 (string_of_bytes [96; 230; 182; 136; 230; 129; 175; 231; 177; 187; 229; 158; 139; 96]%N) 3 7 7)) (mkPtok 40 "," 3 14 8))); (MIDecl (mkMetaDecl (mkSpan (mkPtok 12 "char[" 5 4 10) (mkPtok 40 "," 6 2 15)) (TyFixed (mkSpan (mkPtok 12 "char[" 5 4 10) (mkPtok 13 "]" 5 13 12)) (mkFixedString (mkSpan (mkPtok 12 "char[" 5 4 10) (mkPtok 13 "]" 5 13 12)) (mkPtok 12 "char[" 5 4 10) (mkPtok 30 "42" 5 9 11) (mkPtok 13 "]" 5 13 12))) (mkPtok 42 "body" 5 15 13) (Some (mkPtok 43 "``" 6 0 14)) (mkPtok 40 "," 6 2 15)))] (mkPtok 3 "}" 6 4 16)))])).
+Eval vm_compute in ("<<<M1683>>>" ++ check (runes_of_ascii "packet zchar {
+// " ++ [128512]%N ++ runes_of_ascii " emoji
+// packet A { u8 x, }
+repeat
+    string_	{  i64 Foo , match x
+    as tag { ""// no comment""
+    : pack
+    [0 ,
+255 ]
+    :roots
+, }, char[3
+] len // `tick` ""quote"" 'q'
+,
+}
+    , @lengthOf( stringy ) // " ++ [27880; 37322]%N ++ runes_of_ascii "
+f32 Foo// 50% %s
+,
+    //
+    @tag(
+0123456789) //
+int64 trueish
+,	}
+packet Packet { Foo options1, @lengthOf( Packet
+) u8 float,
+// a // b
+// c
+roots @calculatedFrom( ""a\""b"" )	`line1
+line2` , }")).
+Eval vm_compute in ("<<<M1715>>>" ++ check (runes_of_ascii "packet matchKey
+{
+zchar[255 ]Pad ,trueish
+len  , @tag(	65535) match Z9_ as msg_type	{ [ ""a\""b""  ] : packetx
+    ,
+""{,}"" :Foo ,} , @tag( 42) char[255
+    // c
+    ] // " ++ [27880; 37322]%N ++ runes_of_ascii "
+float
+,
+match trueish as
+    crc { [3 ,
+    """"] :Packet, }, @leftPad (
+    '0'
+    )  zchar[ 0123456789
+    ]Header @lengthOf(	T
+) `it's`, }MetaData As { char[ 007 ] x`it's`,} packet A { match x as Header {	[ ""x y"" ,	""a\\""
+]  : x_y_z ,	65535:
+    lengthOf }
+    , calculatedFrom,float64 x_y_z
+`tab	here`
+    // trailing space 
+    , i8i8 @lengthOf( float) `a\` ,
+@calculatedFrom( """ ++ [28040; 24687]%N ++ runes_of_ascii """)zchar[ 10  ] asx
+`100% of %d`, @tag(1)
+float As `crlf
+line`
+//	t
+// " ++ [27880; 37322]%N ++ runes_of_ascii "
+,  repeat char[ 1 ] trueish , zchar[ 0123456789
+] crc @calculatedFrom( ""packet"" )`
+`	, // trailing space 
+@tag( 3	) calculatedFrom { i64
+    trueish
+    , Packet
+    @lengthOf(options1 ) `{ , }` ,crc `a\`
+    , }
+// " ++ [128512]%N ++ runes_of_ascii " emoji
+// @lengthOf(
+, matchKey
+    A `line1
+line2` , }
+")).
+Eval vm_compute in ("<<<M1747>>>" ++ check (runes_of_ascii "MetaData
+    pack
+    { x  u// c
+,MetaDataX
+    string_ , zchar[
+00 ] pack,/// triple
+}")).
+Eval vm_compute in ("<<<M1779>>>" ++ check (runes_of_ascii "
+")).
+Eval vm_compute in ("<<<M1811>>>" ++ check (@nil rune)).
+Eval vm_compute in ("<<<M1843>>>" ++ check (runes_of_ascii "root packet  x //
+{@calculatedFrom(
+""\" ++ [233]%N ++ runes_of_ascii """ ) @lengthOf( // " ++ [128512]%N ++ runes_of_ascii " emoji
+i8i8 )  @tag(255 )	u128 `crlf
+line`,	uint8
+asx,
+    a1	,
+    o	@calculatedFrom( ""abc"" )	,match packetx  as i8i8
+{ 42
+: f32a//
+, ""1"" : msg_type , },
+    @calculatedFrom(""it's""  ) @lengthOf(
+    As ) A { u8x  len
+`// not a comment` , crc
+{
+    u16
+    charz,}
+    , match
+pack
+as
+u8x {[ ""// no comment""//x
+]
+: options1 , """ ++ [233]%N ++ runes_of_ascii "t" ++ [233]%N ++ runes_of_ascii """ : x , ""1""//
+:
+int  ,
+""" ++ [233]%N ++ runes_of_ascii "t" ++ [233]%N ++ runes_of_ascii """
+: uint8x } // packet A { u8 x, }
+,
+    match leftPad as trueish {	[ // " ++ [27880; 37322]%N ++ runes_of_ascii "
+42] : u128 }
+    // @lengthOf(
+    ,
+    } , int32 asx @calculatedFrom(
+    ""`tick`""
+) ,	}")).
+Eval vm_compute in ("<<<M1875>>>" ++ check (runes_of_ascii "packet stringy{ repeat trueish	{	repeat char[
+    007
+]f32a `// not a comment`, len
+    // @lengthOf(
+    BodyLength  , u,	u64 BodyLength , }, repeat len	{zchar[ 42 ] calculatedFrom , match _x as
+    //x
+    leftPad {
+    """ ++ [128512]%N ++ runes_of_ascii """:// trailing space 
+stringy
+    , // packet A { u8 x, }
+[42,
+    ""// no comment"" ]
+: /// triple
+A, [""a	b"" // 50% %s
+] :
+packetx 007 // trailing space 
+: len
+//x
+// c
+[""CRC32""	]
+    :
+    // trailing space 
+    MetaDataX
+    ,
+    },
+repeat _x
+    Pad `say ""hi""`
+    // " ++ [27880; 37322]%N ++ runes_of_ascii "
+    ,}
+    ,	repeat x
+`tab	here` , match // c
+pack as
+    BodyLength {42	: uint8x } ,
+// 50% %s
+// a // b
+}	packet body {i8i8 @lengthOf( crc
+)
+`a\`	,  @calculatedFrom( ""// no comment""
+)  @lengthOf( uint8x	)  repeat tag { repeat o packetx // " ++ [27880; 37322]%N ++ runes_of_ascii "
+,f32a
+@lengthOf( charz ),
+} , @leftPad
+    (	'0' ) i8  As ,
+}")).
+Eval vm_compute in ("<<<T1875>>>" ++ terms [mkTok 35 "packet" 1 0 false; mkTok 42 "stringy" 1 7 false; mkTok 2 "{" 1 14 false; mkTok 36 "repeat" 1 16 false; mkTok 42 "trueish" 1 23 false; mkTok 2 "{" 1 31 false; mkTok 36 "repeat" 1 33 false; mkTok 12 "char[" 1 40 false; mkTok 30 "007" 2 4 false; mkTok 13 "]" 3 0 false; mkTok 42 "f32a" 3 1 false; mkTok 43 "`// not a comment`" 3 6 false; mkTok 40 "," 3 24 false; mkTok 42 "len" 3 26 false; mkTok 44 "// @lengthOf(" 4 4 true; mkTok 42 "BodyLength" 5 4 false; mkTok 40 "," 5 16 false; mkTok 42 "u" 5 18 false; mkTok 40 "," 5 19 false; mkTok 23 "u64" 5 21 false; mkTok 42 "BodyLength" 5 25 false; mkTok 40 "," 5 36 false; mkTok 3 "}" 5 38 false; mkTok 40 "," 5 39 false; mkTok 36 "repeat" 5 41 false; mkTok 42 "len" 5 48 false; mkTok 2 "{" 5 52 false; mkTok 14 "zchar[" 5 53 false; mkTok 30 "42" 5 60 false; mkTok 13 "]" 5 63 false; mkTok 42 "calculatedFrom" 5 65 false; mkTok 40 "," 5 80 false; mkTok 38 "match" 5 82 false; mkTok 42 "_x" 5 88 false; mkTok 17 "as" 5 91 false; mkTok 44 "//x" 6 4 true; mkTok 42 "leftPad" 7 4 false; mkTok 2 "{" 7 12 false; mkTok 31 (string_of_bytes [34; 240; 159; 152; 128; 34]%N) 8 4 false; mkTok 39 ":" 8 7 false; mkTok 44 "// trailing space " 8 8 true; mkTok 42 "stringy" 9 0 false; mkTok 40 "," 10 4 false; mkTok 44 "// packet A { u8 x, }" 10 6 true; mkTok 18 "[" 11 0 false; mkTok 30 "42" 11 1 false; mkTok 40 "," 11 3 false; mkTok 31 """// no comment""" 12 4 false; mkTok 13 "]" 12 20 false; mkTok 39 ":" 13 0 false; mkTok 44 "/// triple" 13 2 true; mkTok 42 "A" 14 0 false; mkTok 40 "," 14 1 false; mkTok 18 "[" 14 3 false; mkTok 31 (string_of_bytes [34; 97; 9; 98; 34]%N) 14 4 false; mkTok 44 "// 50% %s" 14 10 true; mkTok 13 "]" 15 0 false; mkTok 39 ":" 15 2 false; mkTok 42 "packetx" 16 0 false; mkTok 30 "007" 16 8 false; mkTok 44 "// trailing space " 16 12 true; mkTok 39 ":" 17 0 false; mkTok 42 "len" 17 2 false; mkTok 44 "//x" 18 0 true; mkTok 44 "// c" 19 0 true; mkTok 18 "[" 20 0 false; mkTok 31 """CRC32""" 20 1 false; mkTok 13 "]" 20 9 false; mkTok 39 ":" 21 4 false; mkTok 44 "// trailing space " 22 4 true; mkTok 42 "MetaDataX" 23 4 false; mkTok 40 "," 24 4 false; mkTok 3 "}" 25 4 false; mkTok 40 "," 25 5 false; mkTok 36 "repeat" 26 0 false; mkTok 42 "_x" 26 7 false; mkTok 42 "Pad" 27 4 false; mkTok 43 "`say ""hi""`" 27 8 false; mkTok 44 (string_of_bytes [47; 47; 32; 230; 179; 168; 233; 135; 138]%N) 28 4 true; mkTok 40 "," 29 4 false; mkTok 3 "}" 29 5 false; mkTok 40 "," 30 4 false; mkTok 36 "repeat" 30 6 false; mkTok 42 "x" 30 13 false; mkTok 43 (string_of_bytes [96; 116; 97; 98; 9; 104; 101; 114; 101; 96]%N) 31 0 false; mkTok 40 "," 31 11 false; mkTok 38 "match" 31 13 false; mkTok 44 "// c" 31 19 true; mkTok 42 "pack" 32 0 false; mkTok 17 "as" 32 5 false; mkTok 42 "BodyLength" 33 4 false; mkTok 2 "{" 33 15 false; mkTok 30 "42" 33 16 false; mkTok 39 ":" 33 19 false; mkTok 42 "uint8x" 33 21 false; mkTok 3 "}" 33 28 false; mkTok 40 "," 33 30 false; mkTok 44 "// 50% %s" 34 0 true; mkTok 44 "// a // b" 35 0 true; mkTok 3 "}" 36 0 false; mkTok 35 "packet" 36 2 false; mkTok 42 "body" 36 9 false; mkTok 2 "{" 36 14 false; mkTok 42 "i8i8" 36 15 false; mkTok 7 "@lengthOf(" 36 20 false; mkTok 42 "crc" 36 31 false; mkTok 6 ")" 37 0 false; mkTok 43 "`a\`" 38 0 false; mkTok 40 "," 38 5 false; mkTok 5 "@calculatedFrom(" 38 8 false; mkTok 31 """// no comment""" 38 25 false; mkTok 6 ")" 39 0 false; mkTok 7 "@lengthOf(" 39 3 false; mkTok 42 "uint8x" 39 14 false; mkTok 6 ")" 39 21 false; mkTok 36 "repeat" 39 24 false; mkTok 42 "tag" 39 31 false; mkTok 2 "{" 39 35 false; mkTok 36 "repeat" 39 37 false; mkTok 42 "o" 39 44 false; mkTok 42 "packetx" 39 46 false; mkTok 44 (string_of_bytes [47; 47; 32; 230; 179; 168; 233; 135; 138]%N) 39 54 true; mkTok 40 "," 40 0 false; mkTok 42 "f32a" 40 1 false; mkTok 7 "@lengthOf(" 41 0 false; mkTok 42 "charz" 41 11 false; mkTok 6 ")" 41 17 false; mkTok 40 "," 41 18 false; mkTok 3 "}" 42 0 false; mkTok 40 "," 42 2 false; mkTok 32 "@leftPad" 42 4 false; mkTok 8 "(" 43 4 false; mkTok 33 "'0'" 43 6 false; mkTok 6 ")" 43 10 false; mkTok 24 "i8" 43 12 false; mkTok 42 "As" 43 16 false; mkTok 40 "," 43 19 false; mkTok 3 "}" 44 0 false; mkTok 0 "<EOF>" 44 1 false] (mkPacket (mkPtok 35 "packet" 1 0 0) (Some (mkPtok 3 "}" 44 0 137)) [(DPacket (mkPacketDef (mkSpan (mkPtok 35 "packet" 1 0 0) (mkPtok 3 "}" 36 0 99)) None (mkPtok 35 "packet" 1 0 0) (mkPtok 42 "stringy" 1 7 1) (mkPtok 2 "{" 1 14 2) [(mkFieldWithAttr (mkSpan (mkPtok 36 "repeat" 1 16 3) (mkPtok 40 "," 5 39 23)) [] (InerObjectField (mkSpan (mkPtok 36 "repeat" 1 16 3) (mkPtok 40 "," 5 39 23)) (Some (mkPtok 36 "repeat" 1 16 3)) (InerObjectDecl (mkSpan (mkPtok 42 "trueish" 1 23 4) (mkPtok 3 "}" 5 38 22)) (mkPtok 42 "trueish" 1 23 4) (mkPtok 2 "{" 1 31 5) [(MetaField (mkSpan (mkPtok 36 "repeat" 1 33 6) (mkPtok 40 "," 3 24 12)) (Some (mkPtok 36 "repeat" 1 33 6)) (mkMetaDecl (mkSpan (mkPtok 12 "char[" 1 40 7) (mkPtok 40 "," 3 24 12)) (TyFixed (mkSpan (mkPtok 12 "char[" 1 40 7) (mkPtok 13 "]" 3 0 9)) (mkFixedString (mkSpan (mkPtok 12 "char[" 1 40 7) (mkPtok 13 "]" 3 0 9)) (mkPtok 12 "char[" 1 40 7) (mkPtok 30 "007" 2 4 8) (mkPtok 13 "]" 3 0 9))) (mkPtok 42 "f32a" 3 1 10) (Some (mkPtok 43 "`// not a comment`" 3 6 11)) (mkPtok 40 "," 3 24 12))); (ObjectField (mkSpan (mkPtok 42 "len" 3 26 13) (mkPtok 40 "," 5 16 16)) None (mkPtok 42 "len" 3 26 13) (Some (mkPtok 42 "BodyLength" 5 4 15)) None (mkPtok 40 "," 5 16 16)); (ObjectField (mkSpan (mkPtok 42 "u" 5 18 17) (mkPtok 40 "," 5 19 18)) None (mkPtok 42 "u" 5 18 17) None None (mkPtok 40 "," 5 19 18)); (MetaField (mkSpan (mkPtok 23 "u64" 5 21 19) (mkPtok 40 "," 5 36 21)) None (mkMetaDecl (mkSpan (mkPtok 23 "u64" 5 21 19) (mkPtok 40 "," 5 36 21)) (TyBasic (mkSpan (mkPtok 23 "u64" 5 21 19) (mkPtok 23 "u64" 5 21 19)) (mkBasicType (mkSpan (mkPtok 23 "u64" 5 21 19) (mkPtok 23 "u64" 5 21 19)) (mkPtok 23 "u64" 5 21 19))) (mkPtok 42 "BodyLength" 5 25 20) None (mkPtok 40 "," 5 36 21)))] (mkPtok 3 "}" 5 38 22)) (mkPtok 40 "," 5 39 23))); (mkFieldWithAttr (mkSpan (mkPtok 36 "repeat" 5 41 24) (mkPtok 40 "," 30 4 81)) [] (InerObjectField (mkSpan (mkPtok 36 "repeat" 5 41 24) (mkPtok 40 "," 30 4 81)) (Some (mkPtok 36 "repeat" 5 41 24)) (InerObjectDecl (mkSpan (mkPtok 42 "len" 5 48 25) (mkPtok 3 "}" 29 5 80)) (mkPtok 42 "len" 5 48 25) (mkPtok 2 "{" 5 52 26) [(MetaField (mkSpan (mkPtok 14 "zchar[" 5 53 27) (mkPtok 40 "," 5 80 31)) None (mkMetaDecl (mkSpan (mkPtok 14 "zchar[" 5 53 27) (mkPtok 40 "," 5 80 31)) (TyFixed (mkSpan (mkPtok 14 "zchar[" 5 53 27) (mkPtok 13 "]" 5 63 29)) (mkFixedString (mkSpan (mkPtok 14 "zchar[" 5 53 27) (mkPtok 13 "]" 5 63 29)) (mkPtok 14 "zchar[" 5 53 27) (mkPtok 30 "42" 5 60 28) (mkPtok 13 "]" 5 63 29))) (mkPtok 42 "calculatedFrom" 5 65 30) None (mkPtok 40 "," 5 80 31))); (MatchField (mkSpan (mkPtok 38 "match" 5 82 32) (mkPtok 40 "," 25 5 73)) (mkMatchFieldDecl (mkSpan (mkPtok 38 "match" 5 82 32) (mkPtok 3 "}" 25 4 72)) (mkPtok 38 "match" 5 82 32) (mkPtok 42 "_x" 5 88 33) (mkPtok 17 "as" 5 91 34) (mkPtok 42 "leftPad" 7 4 36) (mkPtok 2 "{" 7 12 37) [(mkMatchPair (mkSpan (mkPtok 31 (string_of_bytes [34; 240; 159; 152; 128; 34]%N) 8 4 38) (mkPtok 40 "," 10 4 42)) (MKString (mkPtok 31 (string_of_bytes [34; 240; 159; 152; 128; 34]%N) 8 4 38)) (mkPtok 39 ":" 8 7 39) (mkPtok 42 "stringy" 9 0 41) (Some (mkPtok 40 "," 10 4 42))); (mkMatchPair (mkSpan (mkPtok 18 "[" 11 0 44) (mkPtok 40 "," 14 1 52)) (MKList (mkKeyList (mkSpan (mkPtok 18 "[" 11 0 44) (mkPtok 13 "]" 12 20 48)) (mkPtok 18 "[" 11 0 44) (mkPtok 30 "42" 11 1 45) [((mkPtok 40 "," 11 3 46), (mkPtok 31 """// no comment""" 12 4 47))] (mkPtok 13 "]" 12 20 48))) (mkPtok 39 ":" 13 0 49) (mkPtok 42 "A" 14 0 51) (Some (mkPtok 40 "," 14 1 52))); (mkMatchPair (mkSpan (mkPtok 18 "[" 14 3 53) (mkPtok 42 "packetx" 16 0 58)) (MKList (mkKeyList (mkSpan (mkPtok 18 "[" 14 3 53) (mkPtok 13 "]" 15 0 56)) (mkPtok 18 "[" 14 3 53) (mkPtok 31 (string_of_bytes [34; 97; 9; 98; 34]%N) 14 4 54) [] (mkPtok 13 "]" 15 0 56))) (mkPtok 39 ":" 15 2 57) (mkPtok 42 "packetx" 16 0 58) None); (mkMatchPair (mkSpan (mkPtok 30 "007" 16 8 59) (mkPtok 42 "len" 17 2 62)) (MKDigits (mkPtok 30 "007" 16 8 59)) (mkPtok 39 ":" 17 0 61) (mkPtok 42 "len" 17 2 62) None); (mkMatchPair (mkSpan (mkPtok 18 "[" 20 0 65) (mkPtok 40 "," 24 4 71)) (MKList (mkKeyList (mkSpan (mkPtok 18 "[" 20 0 65) (mkPtok 13 "]" 20 9 67)) (mkPtok 18 "[" 20 0 65) (mkPtok 31 """CRC32""" 20 1 66) [] (mkPtok 13 "]" 20 9 67))) (mkPtok 39 ":" 21 4 68) (mkPtok 42 "MetaDataX" 23 4 70) (Some (mkPtok 40 "," 24 4 71)))] (mkPtok 3 "}" 25 4 72)) (mkPtok 40 "," 25 5 73)); (ObjectField (mkSpan (mkPtok 36 "repeat" 26 0 74) (mkPtok 40 "," 29 4 79)) (Some (mkPtok 36 "repeat" 26 0 74)) (mkPtok 42 "_x" 26 7 75) (Some (mkPtok 42 "Pad" 27 4 76)) (Some (mkPtok 43 "`say ""hi""`" 27 8 77)) (mkPtok 40 "," 29 4 79))] (mkPtok 3 "}" 29 5 80)) (mkPtok 40 "," 30 4 81))); (mkFieldWithAttr (mkSpan (mkPtok 36 "repeat" 30 6 82) (mkPtok 40 "," 31 11 85)) [] (ObjectField (mkSpan (mkPtok 36 "repeat" 30 6 82) (mkPtok 40 "," 31 11 85)) (Some (mkPtok 36 "repeat" 30 6 82)) (mkPtok 42 "x" 30 13 83) None (Some (mkPtok 43 (string_of_bytes [96; 116; 97; 98; 9; 104; 101; 114; 101; 96]%N) 31 0 84)) (mkPtok 40 "," 31 11 85))); (mkFieldWithAttr (mkSpan (mkPtok 38 "match" 31 13 86) (mkPtok 40 "," 33 30 96)) [] (MatchField (mkSpan (mkPtok 38 "match" 31 13 86) (mkPtok 40 "," 33 30 96)) (mkMatchFieldDecl (mkSpan (mkPtok 38 "match" 31 13 86) (mkPtok 3 "}" 33 28 95)) (mkPtok 38 "match" 31 13 86) (mkPtok 42 "pack" 32 0 88) (mkPtok 17 "as" 32 5 89) (mkPtok 42 "BodyLength" 33 4 90) (mkPtok 2 "{" 33 15 91) [(mkMatchPair (mkSpan (mkPtok 30 "42" 33 16 92) (mkPtok 42 "uint8x" 33 21 94)) (MKDigits (mkPtok 30 "42" 33 16 92)) (mkPtok 39 ":" 33 19 93) (mkPtok 42 "uint8x" 33 21 94) None)] (mkPtok 3 "}" 33 28 95)) (mkPtok 40 "," 33 30 96)))] (mkPtok 3 "}" 36 0 99))); (DPacket (mkPacketDef (mkSpan (mkPtok 35 "packet" 36 2 100) (mkPtok 3 "}" 44 0 137)) None (mkPtok 35 "packet" 36 2 100) (mkPtok 42 "body" 36 9 101) (mkPtok 2 "{" 36 14 102) [(mkFieldWithAttr (mkSpan (mkPtok 42 "i8i8" 36 15 103) (mkPtok 40 "," 38 5 108)) [] (LengthField (mkSpan (mkPtok 42 "i8i8" 36 15 103) (mkPtok 40 "," 38 5 108)) (mkLengthFieldDecl (mkSpan (mkPtok 42 "i8i8" 36 15 103) (mkPtok 40 "," 38 5 108)) None (mkPtok 42 "i8i8" 36 15 103) (mkLengthOf (mkSpan (mkPtok 7 "@lengthOf(" 36 20 104) (mkPtok 6 ")" 37 0 106)) (mkPtok 7 "@lengthOf(" 36 20 104) (mkPtok 42 "crc" 36 31 105) (mkPtok 6 ")" 37 0 106)) (Some (mkPtok 43 "`a\`" 38 0 107)) (mkPtok 40 "," 38 5 108)))); (mkFieldWithAttr (mkSpan (mkPtok 5 "@calculatedFrom(" 38 8 109) (mkPtok 40 "," 42 2 129)) [(FACalculatedFrom (mkSpan (mkPtok 5 "@calculatedFrom(" 38 8 109) (mkPtok 6 ")" 39 0 111)) (mkCalculatedFrom (mkSpan (mkPtok 5 "@calculatedFrom(" 38 8 109) (mkPtok 6 ")" 39 0 111)) (mkPtok 5 "@calculatedFrom(" 38 8 109) (mkPtok 31 """// no comment""" 38 25 110) (mkPtok 6 ")" 39 0 111))); (FALengthOf (mkSpan (mkPtok 7 "@lengthOf(" 39 3 112) (mkPtok 6 ")" 39 21 114)) (mkLengthOf (mkSpan (mkPtok 7 "@lengthOf(" 39 3 112) (mkPtok 6 ")" 39 21 114)) (mkPtok 7 "@lengthOf(" 39 3 112) (mkPtok 42 "uint8x" 39 14 113) (mkPtok 6 ")" 39 21 114)))] (InerObjectField (mkSpan (mkPtok 36 "repeat" 39 24 115) (mkPtok 40 "," 42 2 129)) (Some (mkPtok 36 "repeat" 39 24 115)) (InerObjectDecl (mkSpan (mkPtok 42 "tag" 39 31 116) (mkPtok 3 "}" 42 0 128)) (mkPtok 42 "tag" 39 31 116) (mkPtok 2 "{" 39 35 117) [(ObjectField (mkSpan (mkPtok 36 "repeat" 39 37 118) (mkPtok 40 "," 40 0 122)) (Some (mkPtok 36 "repeat" 39 37 118)) (mkPtok 42 "o" 39 44 119) (Some (mkPtok 42 "packetx" 39 46 120)) None (mkPtok 40 "," 40 0 122)); (LengthField (mkSpan (mkPtok 42 "f32a" 40 1 123) (mkPtok 40 "," 41 18 127)) (mkLengthFieldDecl (mkSpan (mkPtok 42 "f32a" 40 1 123) (mkPtok 40 "," 41 18 127)) None (mkPtok 42 "f32a" 40 1 123) (mkLengthOf (mkSpan (mkPtok 7 "@lengthOf(" 41 0 124) (mkPtok 6 ")" 41 17 126)) (mkPtok 7 "@lengthOf(" 41 0 124) (mkPtok 42 "charz" 41 11 125) (mkPtok 6 ")" 41 17 126)) None (mkPtok 40 "," 41 18 127)))] (mkPtok 3 "}" 42 0 128)) (mkPtok 40 "," 42 2 129))); (mkFieldWithAttr (mkSpan (mkPtok 32 "@leftPad" 42 4 130) (mkPtok 40 "," 43 19 136)) [(FAPadding (mkSpan (mkPtok 32 "@leftPad" 42 4 130) (mkPtok 6 ")" 43 10 133)) (mkPaddingAttr (mkSpan (mkPtok 32 "@leftPad" 42 4 130) (mkPtok 6 ")" 43 10 133)) (mkPtok 32 "@leftPad" 42 4 130) (mkPtok 8 "(" 43 4 131) (Some (mkPtok 33 "'0'" 43 6 132)) (mkPtok 6 ")" 43 10 133)))] (MetaField (mkSpan (mkPtok 24 "i8" 43 12 134) (mkPtok 40 "," 43 19 136)) None (mkMetaDecl (mkSpan (mkPtok 24 "i8" 43 12 134) (mkPtok 40 "," 43 19 136)) (TyBasic (mkSpan (mkPtok 24 "i8" 43 12 134) (mkPtok 24 "i8" 43 12 134)) (mkBasicType (mkSpan (mkPtok 24 "i8" 43 12 134) (mkPtok 24 "i8" 43 12 134)) (mkPtok 24 "i8" 43 12 134))) (mkPtok 42 "As" 43 16 135) None (mkPtok 40 "," 43 19 136))))] (mkPtok 3 "}" 44 0 137)))])).
+Eval vm_compute in ("<<<M1907>>>" ++ check (runes_of_ascii "root packet Pad{
+matchKey@calculatedFrom( ""abc"" )
+, }
+")).
+Eval vm_compute in ("<<<M1939>>>" ++ check (runes_of_ascii "packet Z9_{
+repeat pack , repeat
+char[// 50% %s
+3
+]
+repeatCount `" ++ [28040; 24687; 31867; 22411]%N ++ runes_of_ascii "` ,
+repeat
+zchar[
+007 ] msg_type // 50% %s
+, char i64_ `// not a comment`, }
+options { crc = true ; falsey = false ; Z9_=true metadata
+= f32 }
+")).
+Eval vm_compute in ("<<<M1971>>>" ++ check (runes_of_ascii "
+root packet // trailing space 
+Z9_  {
+options1 {
+string
+int @lengthOf(//
+u128)
+    `" ++ [28040; 24687; 31867; 22411]%N ++ runes_of_ascii "` ,len
+    { char[ 0123456789
+    ]
+roots
+    //
+    @calculatedFrom(
+""packet""	)
+// c
+//x
+`
+` ,
+    } ,char[ 0123456789
+// " ++ [27880; 37322]%N ++ runes_of_ascii "
+//x
+] u128,float As `crlf
+line` ,  },
+match Logon as asx	{ 10 : Header , 42: Header , 7
+: a1 , 1  : asx, [
+    0123456789
+, 0123456789 ,""" ++ [28040; 24687]%N ++ runes_of_ascii """ ,42  , 7  ]  : MetaDataX,
+    ""a	b""	: matchKey
+    },
+    // `tick` ""quote"" 'q'
+    match int as
+falsey { 00 :
+MetaDataX
+    ,
+    } , }
+")).
 Eval vm_compute in ("<<<M2003>>>" ++ check (runes_of_ascii "options {
     StringPrefixLenType = u16;
     ArrayPrefixLenType = u16;
@@ -1457,425 +1527,407 @@ packet Detail {
     string RuleName `" ++ [35268; 21017; 21517; 31216]%N ++ runes_of_ascii "`,
     u16 Code `" ++ [21407; 22240; 20195; 30721]%N ++ runes_of_ascii "`,
 }")).
-Eval vm_compute in ("<<<M2035>>>" ++ check (runes_of_ascii "options{ i64_ = string ; ; trueish =
-    '\x00'
-    leftPad = ""a\\"" /// triple
-; crc
-    = 255; uint8x
-=
-""abc""
-    ;}")).
-Eval vm_compute in ("<<<M2067>>>" ++ check (runes_of_ascii "options{ i64_ = string ; trueish =
-    '\x00'
-    leftPad = ] /// triple
-; crc
-    = 255; uint8x
-=
-""abc""
-    ;}")).
-Eval vm_compute in ("<<<M2099>>>" ++ check (runes_of_ascii "options{ i64_ = string ; trueish =
-    '\x00'
-    leftPad = ""a\\"" /// triple
-; crc
-    = 255; uint8x
+Eval vm_compute in ("<<<M2035>>>" ++ check (runes_of_ascii "MetaData repeatCount { float64 packetx, ,
+} root packet  metadata {
+char _x @lengthOf( trueish ), @leftPad
+( ' '// " ++ [27880; 37322]%N ++ runes_of_ascii "
+)/// triple
+char[] len`doc` , // packet A { u8 x, }
+repeatCount , }
+")).
+Eval vm_compute in ("<<<M2067>>>" ++ check (runes_of_ascii "MetaData repeatCount { float64 packetx,
+} root packet  metadata {
+{ _x @lengthOf( trueish ), @leftPad
+( ' '// " ++ [27880; 37322]%N ++ runes_of_ascii "
+)/// triple
+char[] len`doc` , // packet A { u8 x, }
+repeatCount , }
+")).
+Eval vm_compute in ("<<<M2099>>>" ++ check (runes_of_ascii "MetaData repeatCount { float64 packetx,
+} root packet  metadata {
+char _x @lengthOf( trueish ), @leftPad
+ ' '// " ++ [27880; 37322]%N ++ runes_of_ascii "
+)/// triple
+char[] len`doc` , // packet A { u8 x, }
+repeatCount , }
+")).
+Eval vm_compute in ("<<<M2131>>>" ++ check (runes_of_ascii "MetaData repeatCount { float64 packetx,
+} root packet  metadata {
+char _x @lengthOf( trueish ), @leftPad
+( ' '// " ++ [27880; 37322]%N ++ runes_of_ascii "
+)/// triple
+char[] len`doc` repeatCount // packet A { u8 x, }
+, , }
+")).
+Eval vm_compute in ("<<<M2163>>>" ++ check (runes_of_ascii "MetaData repeatCount { float64 packetx,
+} root packet  metadata " ++ [65279]%N ++ runes_of_ascii " {
+char _x @lengthOf( trueish ), @leftPad
+( ' '// " ++ [27880; 37322]%N ++ runes_of_ascii "
+)/// triple
+char[] len`doc` , // packet A { u8 x, }
+repeatCount , }
+")).
+Eval vm_compute in ("<<<M2195>>>" ++ check (runes_of_ascii "options{
+leftPad
+    =65535
 
-""abc""
-    ;}")).
-Eval vm_compute in ("<<<M2131>>>" ++ check (runes_of_ascii "options{ i64_ = string ; trueish =
-    '\x00'
-    leftPad = ""a\\"" /// triple
-; crc
-    "" = 255; uint8x
-=
-""abc""
-    ;}")).
-Eval vm_compute in ("<<<M2163>>>" ++ check (runes_of_ascii "  packet
-asx
-{
-/// triple
-// @lengthOf(
-u32 =
-`" ++ [28040; 24687; 31867; 22411]%N ++ runes_of_ascii "` ,} MetaData
-    A {string  _x, zchar Header `a\`
-// @lengthOf(
-// packet A { u8 x, }
-, char[] MetaDataX
-,zchar[ 1 ]
-    matchKey
-    , char[] //
-u,	char[0123456789 ]
-    matchKey
-    `{ , }`, }
-")).
-Eval vm_compute in ("<<<M2195>>>" ++ check (runes_of_ascii "  packet
-asx
-{
-/// triple
-// @lengthOf(
-u32 stringy
-`" ++ [28040; 24687; 31867; 22411]%N ++ runes_of_ascii "` ,} MetaData
-    A {  _x, zchar Header `a\`
-// @lengthOf(
-// packet A { u8 x, }
-, char[] MetaDataX
-,zchar[ 1 ]
-    matchKey
-    , char[] //
-u,	char[0123456789 ]
-    matchKey
-    `{ , }`, }
-")).
-Eval vm_compute in ("<<<M2227>>>" ++ check (runes_of_ascii "  packet
-asx
-{
-/// triple
-// @lengthOf(
-u32 stringy
-`" ++ [28040; 24687; 31867; 22411]%N ++ runes_of_ascii "` ,} MetaData
-    A {string  _x, zchar Header `a\`
-// @lengthOf(
-// packet A { u8 x, }
-char[] , MetaDataX
-,zchar[ 1 ]
-    matchKey
-    , char[] //
-u,	char[0123456789 ]
-    matchKey
-    `{ , }`, }
-")).
-Eval vm_compute in ("<<<M2259>>>" ++ check (runes_of_ascii "  packet
-asx
-{
-/// triple
-// @lengthOf(
-u32 stringy
-`" ++ [28040; 24687; 31867; 22411]%N ++ runes_of_ascii "` ,} MetaData
-    A {string  _x, zchar Header `a\`
-// @lengthOf(
-// packet A { u8 x, }
-, char[] MetaDataX
-,zchar[ 1")).
-Eval vm_compute in ("<<<M2291>>>" ++ check (runes_of_ascii "  packet
-asx
-{
-/// triple
-// @lengthOf(
-u32 stringy
-`" ++ [28040; 24687; 31867; 22411]%N ++ runes_of_ascii "` ,} MetaData
-    A {string  _x, zchar Header `a\`
-// @lengthOf(
-// packet A { u8 x, }
-, char[] MetaDataX
-,zchar[ 1 ]
-    matchKey
-    , char[] //
-u,	char[0123456789 0123456789 ]
-    matchKey
-    `{ , }`, }
-")).
-Eval vm_compute in ("<<<M2323>>>" ++ check (runes_of_ascii "  packet
-asx
-{
-/// triple
-// @lengt")).
-Eval vm_compute in ("<<<M2355>>>" ++ check (runes_of_ascii "root
-    packet")).
-Eval vm_compute in ("<<<M2387>>>" ++ check (runes_of_ascii "root
-    packet
-Packet
-{ // trailing space 
-| matchKey `tab	here` ,}")).
-Eval vm_compute in ("<<<M2419>>>" ++ check (runes_of_ascii "options{ falsey // a // b
-'0'
-    = } options { repeatCount =
-true ; string_// a // b
-=
-// c
-// " ++ [27880; 37322]%N ++ runes_of_ascii "
-int64
-// trailing space 
-/// triple
-; } // @lengthOf(")).
-Eval vm_compute in ("<<<M2451>>>" ++ check (runes_of_ascii "options{ falsey // a // b
-=
-    '0' } options { repeatCount")).
-Eval vm_compute in ("<<<M2483>>>" ++ check (runes_of_ascii "options{ falsey // a // b
-=
-    '0' } options { repeatCount =
-true ; string_// a // b
-=
-// c
-// " ++ [27880; 37322]%N ++ runes_of_ascii "
-int64
-// trailing space 
-/// triple
-; } } // @lengthOf(")).
-Eval vm_compute in ("<<<M2515>>>" ++ check (runes_of_ascii "options}{root packet
-metadata {
-@lengthOf(x ) float32
-body ``, }
-    MetaData
-Z9_
-    {
-    string string_ , Logon x
-,
-uint32
-    // packet A { u8 x, }
-    Z9_,asx
-_x
-    `tab	here` , }
-")).
-Eval vm_compute in ("<<<M2547>>>" ++ check (runes_of_ascii "options{}root packet
-metadata {")).
-Eval vm_compute in ("<<<M2579>>>" ++ check (runes_of_ascii "options{}root packet
-metadata {
-@lengthOf(x ) float32
-body ``, } }
-    MetaData
-Z9_
-    {
-    string string_ , Logon x
-,
-uint32
-    // packet A { u8 x, }
-    Z9_,asx
-_x
-    `tab	here` , }
-")).
-Eval vm_compute in ("<<<M2611>>>" ++ check (runes_of_ascii "options{}root packet
-metadata {
-@lengthOf(x ) float32
-body ``, }
-    MetaData
-Z9_
-    {
-    string string_ match Logon x
-,
-uint32
-    // packet A { u8 x, }
-    Z9_,asx
-_x
-    `tab	here` , }
-")).
-Eval vm_compute in ("<<<M2643>>>" ++ check (runes_of_ascii "options{}root packet
-metadata {
-@lengthOf(x ) float32
-body ``, }
-    MetaData
-Z9_
-    {
-    string string_ , Logon x
-,
-uint32
-    // packet A { u8 x, }
-    Z9_,
-_x
-    `tab	here` , }
-")).
-Eval vm_compute in ("<<<M2675>>>" ++ check (runes_of_ascii "options{}root packet
-metadata {
-@lengthOf(x ) float32
-body ``, }
-    MetaD<ata
-Z9_
-    {
-    string string_ , Logon x
-,
-uint32
-    // packet A { u8 x, }
-    Z9_,asx
-_x
-    `tab	here` , }
-")).
-Eval vm_compute in ("<<<M2707>>>" ++ check (runes_of_ascii "options {
-    falsey' '
-""a\\"" ; }")).
-Eval vm_compute in ("<<<M2739>>>" ++ check (runes_of_ascii "options {
-    fal#sey=
-""a\\"" ; }")).
-Eval vm_compute in ("<<<M2771>>>" ++ check (runes_of_ascii "MetaData f32a
-{
-    //	t
-    }root
-    packet packet tag  {
-}
-")).
-Eval vm_compute in ("<<<M2803>>>" ++ check (runes_of_ascii "MetaData f32a
-{
-    //	t
-    }root
-    packet tag  {'\x01'
-}
-")).
-Eval vm_compute in ("<<<M2835>>>" ++ check (runes_of_ascii "
-options
-    {msg_type =")).
-Eval vm_compute in ("<<<M2867>>>" ++ check (runes_of_ascii "
-options
-    {msg_type =
-    float32  }root
-packet Z9_{ char /// triple
-crc crc @lengthOf(
-options1 ) //
-,} MetaData a1{}
-")).
-Eval vm_compute in ("<<<M2899>>>" ++ check (runes_of_ascii "
-options
-    {msg_type =
-    float32  }root
-packet Z9_{ char /// triple
-crc @lengthOf(
-options1 ) //
-,} string a1{}
-")).
-Eval vm_compute in ("<<<M2931>>>" ++ check (runes_of_ascii "
-options
-    {msg_type =
-    float32  }root
-packet Z9_{ char /// triple
-crc @lengthOf(
-options1 ) //
-,} %MetaData a1{}
-")).
-Eval vm_compute in ("<<<M2963>>>" ++ check (runes_of_ascii "packet crc{ // " ++ [128512]%N ++ runes_of_ascii " emoji
-repeat string i8i8 i8i8
-`a\`, }
-")).
-Eval vm_compute in ("<<<M2995>>>" ++ check (runes_of_ascii "packet crc{ // " ++ [128512]%N ++ runes_of_ascii " emoji
-re?peat string i8i8
-`a\`, }
-")).
-Eval vm_compute in ("<<<M3027>>>" ++ check (runes_of_ascii "packet BodyLength {}")).
-Eval vm_compute in ("<<<M3059>>>" ++ check (runes_of_ascii "packet BodyLength {} MetaData zchar{ zchar[// @lengthOf(
-42 ]
-    pack , , string_
-A , char[]crc , _x trueish ,
-// " ++ [27880; 37322]%N ++ runes_of_ascii "
-// " ++ [128512]%N ++ runes_of_ascii " emoji
-zchar[
-    3 ]	T // trailing space 
-, } packet body
-{
-    }
-")).
-Eval vm_compute in ("<<<M3091>>>" ++ check (runes_of_ascii "packet BodyLength {} MetaData zchar{ zchar[// @lengthOf(
-42 ]
-    pack , string_
-A , char[]crc } _x trueish ,
-// " ++ [27880; 37322]%N ++ runes_of_ascii "
-// " ++ [128512]%N ++ runes_of_ascii " emoji
-zchar[
-    3 ]	T // trailing space 
-, } packet body
-{
-    }
-")).
-Eval vm_compute in ("<<<M3123>>>" ++ check (runes_of_ascii "packet BodyLength {} MetaData zchar{ zchar[// @lengthOf(
-42 ]
-    pack , string_
-A , char[]crc , _x trueish ,
-// " ++ [27880; 37322]%N ++ runes_of_ascii "
-// " ++ [128512]%N ++ runes_of_ascii " emoji
-zchar[
-    3 ]	 // trailing space 
-, } packet body
-{
-    }
-")).
-Eval vm_compute in ("<<<M3155>>>" ++ check (runes_of_ascii "packet BodyLength {} MetaData zchar{ zchar[// @lengthOf(
-42 ]
-    pack , string_
-A , char[]crc , _x trueish ,
-// " ++ [27880; 37322]%N ++ runes_of_ascii "
-// " ++ [128512]%N ++ runes_of_ascii " emoji
-zchar[
-    3 ]	T // trailing space 
-, } packet body
-{
-    char[
-")).
-Eval vm_compute in ("<<<M3187>>>" ++ check (runes_of_ascii "packet
-' ' {@lengthOf( int ) match packetx as f32a {
-    1 :	calculatedFrom , }  ,
-    } packet len
-    //	t
-    { @calculatedFrom( """ ++ [233]%N ++ runes_of_ascii "t" ++ [233]%N ++ runes_of_ascii """ ) body Header , char[] lengthOf  `two words` ,chars{repeat string_ matchKey ,
-    } ,
-    }
-")).
-Eval vm_compute in ("<<<M3219>>>" ++ check (runes_of_ascii "packet
-string_ {@lengthOf( int ) match packetx  f32a {
-    1 :	calculatedFrom , }  ,
-    } packet len
-    //	t
-    { @calculatedFrom( """ ++ [233]%N ++ runes_of_ascii "t" ++ [233]%N ++ runes_of_ascii """ ) body Header , char[] lengthOf  `two words` ,chars{repeat string_ matchKey ,
-    } ,
-    }
-")).
-Eval vm_compute in ("<<<M3251>>>" ++ check (runes_of_ascii "packet
-string_ {@lengthOf( int ) match packetx as f32a {
-    1 :	calculatedFrom } ,  ,
-    } packet len
-    //	t
-    { @calculatedFrom( """ ++ [233]%N ++ runes_of_ascii "t" ++ [233]%N ++ runes_of_ascii """ ) body Header , char[] lengthOf  `two words` ,chars{repeat string_ matchKey ,
-    } ,
-    }
-")).
-Eval vm_compute in ("<<<M3283>>>" ++ check (runes_of_ascii "packet
-string_ {@lengthOf( int ) match packetx as f32a {
-    1 :	calculatedFrom , }  ,
-    } packet len")).
-Eval vm_compute in ("<<<M3315>>>" ++ check (runes_of_ascii "packet
-string_ {@lengthOf( int ) match packetx as f32a {
-    1 :	calculatedFrom , }  ,
-    } packet len
-    //	t
-    { @calculatedFrom( """ ++ [233]%N ++ runes_of_ascii "t" ++ [233]%N ++ runes_of_ascii """ ) body Header , char[] char[] lengthOf  `two words` ,chars{repeat string_ matchKey ,
-    } ,
-    }
-")).
-Eval vm_compute in ("<<<M3347>>>" ++ check (runes_of_ascii "packet
-string_ {@lengthOf( int ) match packetx as f32a {
-    1 :	calculatedFrom , }  ,
-    } packet len
-    //	t
-    { @calculatedFrom( """ ++ [233]%N ++ runes_of_ascii "t" ++ [233]%N ++ runes_of_ascii """ ) body Header , char[] lengthOf  `two words` ,chars{@lengthOf( string_ matchKey ,
-    } ,
-    }
-")).
-Eval vm_compute in ("<<<M3379>>>" ++ check (runes_of_ascii "packet
-string_ {@lengthOf( int ) match packetx as f32a {
-    1 :	calculatedFrom , }  ,
-    } packet len
-    //	t
-    { @calculatedFrom( """ ++ [233]%N ++ runes_of_ascii "t" ++ [233]%N ++ runes_of_ascii """ ) body Header , char[] lengthOf  `two words` ,chars{repe")).
-Eval vm_compute in ("<<<M3411>>>" ++ check (runes_of_ascii "/// trip")).
-Eval vm_compute in ("<<<M3443>>>" ++ check (runes_of_ascii "/// triple
-root
+a1 = true ; packetx=  '\x00' ; packetx
+=  """ ++ [28040; 24687]%N ++ runes_of_ascii """MetaDataX= // " ++ [27880; 37322]%N ++ runes_of_ascii "
+false }root // c
 packet // packet A { u8 x, }
-chars { @lengthOf(charz )
-stringy,  @tag(  0 ) // a // b
-asx
-    As
-,
-// trailing space 
-// trailing space 
-x_y_z {
-repeat i16 charz , , } ,	int16  crc ,}
+Pad { repeat
+u8 Header
+// packet A { u8 x, }
+//	t
+`{ , }`
+// a // b
+//x
+, }
 ")).
-Eval vm_compute in ("<<<M3475>>>" ++ check (runes_of_ascii "/// triple
-packet
-root // packet A { u8 x, }
-chars { @lengthOf(charz )
-stringy,  @tag(  0 ) // a // b
-asx
-    As
-,
-// trailing space 
-// trailing space 
-x_y_z {
-repeat i16 charz , } ,	int16  crc ,}
+Eval vm_compute in ("<<<M2227>>>" ++ check (runes_of_ascii "options{
+leftPad
+    =65535
+;
+a1 = true ; packetx'\x00'  = ; packetx
+=  """ ++ [28040; 24687]%N ++ runes_of_ascii """MetaDataX= // " ++ [27880; 37322]%N ++ runes_of_ascii "
+false }root // c
+packet // packet A { u8 x, }
+Pad { repeat
+u8 Header
+// packet A { u8 x, }
+//	t
+`{ , }`
+// a // b
+//x
+, }
 ")).
+Eval vm_compute in ("<<<M2259>>>" ++ check (runes_of_ascii "options{
+leftPad
+    =65535
+;
+a1 = true ; packetx=  '\x00' ; packetx
+=  """ ++ [28040; 24687]%N ++ runes_of_ascii """")).
+Eval vm_compute in ("<<<M2291>>>" ++ check (runes_of_ascii "options{
+leftPad
+    =65535
+;
+a1 = true ; packetx=  '\x00' ; packetx
+=  """ ++ [28040; 24687]%N ++ runes_of_ascii """MetaDataX= // " ++ [27880; 37322]%N ++ runes_of_ascii "
+false }root // c
+packet // packet A { u8 x, }
+Pad { { repeat
+u8 Header
+// packet A { u8 x, }
+//	t
+`{ , }`
+// a // b
+//x
+, }
+")).
+Eval vm_compute in ("<<<M2323>>>" ++ check (runes_of_ascii "options{
+leftPad
+    =65535
+;
+a1 = true ; packetx=  '\x00' ; packetx
+=  """ ++ [28040; 24687]%N ++ runes_of_ascii """MetaDataX= // " ++ [27880; 37322]%N ++ runes_of_ascii "
+false }root // c
+packet // packet A { u8 x, }
+Pad { repeat
+u8 Header
+// packet A { u8 x, }
+//	t
+`{ , }`
+// a // b
+//x
+,")).
+Eval vm_compute in ("<<<M2355>>>" ++ check (runes_of_ascii "
+packet")).
+Eval vm_compute in ("<<<M2387>>>" ++ check (runes_of_ascii "
+packet float
+{	@calculatedFrom( """ ++ [233]%N ++ runes_of_ascii "t" ++ [233]%N ++ runes_of_ascii """ )
+@rightPad ( '\x00' '\x00' )
+    @calculatedFrom( ""x y"" ) string chars  ,
+    // a // b
+    char[0 ]
+    u	@lengthOf( i8i8 ) `{ , }` ,repeat char[] o //x
+`// not a comment`, } // c")).
+Eval vm_compute in ("<<<M2419>>>" ++ check (runes_of_ascii "
+packet float
+{	@calculatedFrom( """ ++ [233]%N ++ runes_of_ascii "t" ++ [233]%N ++ runes_of_ascii """ )
+@rightPad ( '\x00' )
+    @calculatedFrom( ""x y"" ) string ,  ,
+    // a // b
+    char[0 ]
+    u	@lengthOf( i8i8 ) `{ , }` ,repeat char[] o //x
+`// not a comment`, } // c")).
+Eval vm_compute in ("<<<M2451>>>" ++ check (runes_of_ascii "
+packet float
+{	@calculatedFrom( """ ++ [233]%N ++ runes_of_ascii "t" ++ [233]%N ++ runes_of_ascii """ )
+@rightPad ( '\x00' )
+    @calculatedFrom( ""x y"" ) string chars  ,
+    // a // b
+    char[0 ]
+    u	@lengthOf(  ) `{ , }` ,repeat char[] o //x
+`// not a comment`, } // c")).
+Eval vm_compute in ("<<<M2483>>>" ++ check (runes_of_ascii "
+packet float
+{	@calculatedFrom( """ ++ [233]%N ++ runes_of_ascii "t" ++ [233]%N ++ runes_of_ascii """ )
+@rightPad ( '\x00' )
+    @calculatedFrom( ""x y"" ) string chars  ,
+    // a // b
+    char[0 ]
+    u	@lengthOf( i8i8 ) `{ , }` ,repeat char[] `// not a comment` //x
+o, } // c")).
+Eval vm_compute in ("<<<M2515>>>" ++ check (runes_of_ascii "
+packet float
+{	@calculatedFrom( """ ++ [233]%N ++ runes_of_ascii "t" ++ [233]%N ++ runes_of_ascii """ )
+@rightPad ( '\x00' )
+    @calculatedFrom( ""x y"" ) string chars  ,
+    // a // b
+    char[0 ]
+    u	@lengthOf( i8i8 ) `{ , }` ,repeat char[] o //x
+<`// not a comment`, } // c")).
+Eval vm_compute in ("<<<M2547>>>" ++ check (runes_of_ascii "root packet u128{
+    repeat
+     65535 ] u `" ++ [28040; 24687; 31867; 22411]%N ++ runes_of_ascii "` ,// `tick` ""quote"" 'q'
+} packet i64_ {repeatCount
+    `
+` ,	} // " ++ [128512]%N ++ runes_of_ascii " emoji")).
+Eval vm_compute in ("<<<M2579>>>" ++ check (runes_of_ascii "root packet u128{
+    repeat
+    zchar[ 65535 ] u `" ++ [28040; 24687; 31867; 22411]%N ++ runes_of_ascii "` ,// `tick` ""quote"" 'q'
+packet } i64_ {repeatCount
+    `
+` ,	} // " ++ [128512]%N ++ runes_of_ascii " emoji")).
+Eval vm_compute in ("<<<M2611>>>" ++ check (runes_of_ascii "root packet u128{
+    repeat
+    zchar[ 65535 ] u `" ++ [28040; 24687; 31867; 22411]%N ++ runes_of_ascii "` ,// `tick` ""quote"" 'q'
+} packet i64_ {repeatCount
+    `
+`")).
+Eval vm_compute in ("<<<M2643>>>" ++ check (runes_of_ascii "
+MetaData
+ { int8
+    BodyLength ,//	t
+}
+")).
+Eval vm_compute in ("<<<M2675>>>" ++ check (runes_of_ascii "
+MetaData
+r")).
+Eval vm_compute in ("<<<M2707>>>" ++ check (runes_of_ascii "options {u32 = ""CRC32""i8i8 = false; leftPad =
+    '\x00'
+    // `tick` ""quote"" 'q'
+    ; o=255  ;
+    // packet A { u8 x, }
+    }")).
+Eval vm_compute in ("<<<M2739>>>" ++ check (runes_of_ascii "options {Packet = ""CRC32""i8i8 = false;  =
+    '\x00'
+    // `tick` ""quote"" 'q'
+    ; o=255  ;
+    // packet A { u8 x, }
+    }")).
+Eval vm_compute in ("<<<M2771>>>" ++ check (runes_of_ascii "options {Packet = ""CRC32""i8i8 = false; leftPad =
+    '\x00'
+    // `tick` ""quote"" 'q'
+    ; o=;  255
+    // packet A { u8 x, }
+    }")).
+Eval vm_compute in ("<<<M2803>>>" ++ check (runes_of_ascii "options {Packet = ""CRC32""na" ++ [239]%N ++ runes_of_ascii "ve = false; leftPad =
+    '\x00'
+    // `tick` ""quote"" 'q'
+    ; o=255  ;
+    // packet A { u8 x, }
+    }")).
+Eval vm_compute in ("<<<M2835>>>" ++ check (runes_of_ascii "
+packet metadata { @rightPad (
+    // packet A { u8 x, }
+    ' '  repeat u32	A
+,matchKey ,
+    @lengthOf( string_ ) @lengthOf( body )
+    // a // b
+    @lengthOf(float  )	repeat
+int32 u8x
+    // c
+    `tab	here`
+, } // a // b")).
+Eval vm_compute in ("<<<M2867>>>" ++ check (runes_of_ascii "
+packet metadata { @rightPad (
+    // packet A { u8 x, }
+    ' ' ) repeat u32	A
+,matchKey @lengthOf(
+    , string_ ) @lengthOf( body )
+    // a // b
+    @lengthOf(float  )	repeat
+int32 u8x
+    // c
+    `tab	here`
+, } // a // b")).
+Eval vm_compute in ("<<<M2899>>>" ++ check (runes_of_ascii "
+packet metadata { @rightPad (
+    // packet A { u8 x, }
+    ' ' ) repeat u32	A
+,matchKey ,
+    @lengthOf( string_ ) @lengthOf( body")).
+Eval vm_compute in ("<<<M2931>>>" ++ check (runes_of_ascii "
+packet metadata { @rightPad (
+    // packet A { u8 x, }
+    ' ' ) repeat u32	A
+,matchKey ,
+    @lengthOf( string_ ) @lengthOf( body )
+    // a // b
+    @lengthOf(float  )	repeat
+int32 u8x
+    // c
+    `tab	here` `tab	here`
+, } // a // b")).
+Eval vm_compute in ("<<<M2963>>>" ++ check (runes_of_ascii "
+packet " ++ [21517; 23383]%N ++ runes_of_ascii " { @rightPad (
+    // packet A { u8 x, }
+    ' ' ) repeat u32	A
+,matchKey ,
+    @lengthOf( string_ ) @lengthOf( body )
+    // a // b
+    @lengthOf(float  )	repeat
+int32 u8x
+    // c
+    `tab	here`
+, } // a // b")).
+Eval vm_compute in ("<<<M2995>>>" ++ check (runes_of_ascii "packet x{
+string
+zchar")).
+Eval vm_compute in ("<<<M3027>>>" ++ check (runes_of_ascii "
+MetaData 
+{ // c
+}root packet
+    Pad {
+    } options
+{
+u
+    =
+    ""CRC32""
+    // " ++ [128512]%N ++ runes_of_ascii " emoji
+    i64_ = u16;
+T =65535 x = ' '
+    ; u128
+= true ; }")).
+Eval vm_compute in ("<<<M3059>>>" ++ check (runes_of_ascii "
+MetaData Logon
+{ // c
+}root packet
+    Pad }
+    { options
+{
+u
+    =
+    ""CRC32""
+    // " ++ [128512]%N ++ runes_of_ascii " emoji
+    i64_ = u16;
+T =65535 x = ' '
+    ; u128
+= true ; }")).
+Eval vm_compute in ("<<<M3091>>>" ++ check (runes_of_ascii "
+MetaData Logon
+{ // c
+}root packet
+    Pad {
+    } options
+{
+u
+    =")).
+Eval vm_compute in ("<<<M3123>>>" ++ check (runes_of_ascii "
+MetaData Logon
+{ // c
+}root packet
+    Pad {
+    } options
+{
+u
+    =
+    ""CRC32""
+    // " ++ [128512]%N ++ runes_of_ascii " emoji
+    i64_ = u16;
+T =65535 65535 x = ' '
+    ; u128
+= true ; }")).
+Eval vm_compute in ("<<<M3155>>>" ++ check (runes_of_ascii "
+MetaData Logon
+{ // c
+}root packet
+    Pad {
+    } options
+{
+u
+    =
+    ""CRC32""
+    // " ++ [128512]%N ++ runes_of_ascii " emoji
+    i64_ = u16;
+T =65535 x = ' '
+    ; u128
+packet true ; }")).
+Eval vm_compute in ("<<<M3187>>>" ++ check (runes_of_ascii "
+MetaData Logon
+{ // c
+}root packet
+    Pad {
+    } options
+{
+u
+    =
+    ""CRC32""
+    // " ++ [128512]%N ++ runes_of_ascii " emoji
+    i64_ = u16;
+T =65535 x = ' '
+  @leftpad  ; u128
+= true ; }")).
+Eval vm_compute in ("<<<M3219>>>" ++ check (runes_of_ascii "MetaData body{}
+packet	Packet Packet { x_y_z @calculatedFrom(  ""a\\"")// `tick` ""quote"" 'q'
+, }
+")).
+Eval vm_compute in ("<<<M3251>>>" ++ check (runes_of_ascii "MetaData body{}
+packet	Packet { x_y_z @calculatedFrom(  ""a\\"")// `tick` ""quote"" 'q'
+i32 }
+")).
+Eval vm_compute in ("<<<M3283>>>" ++ check (@nil rune)).
+Eval vm_compute in ("<<<M3315>>>" ++ check (runes_of_ascii "packet f32a {} root packet len { {repeat u // " ++ [128512]%N ++ runes_of_ascii " emoji
+`{ , }` , }
+")).
+Eval vm_compute in ("<<<M3347>>>" ++ check (runes_of_ascii "packet ")).
+Eval vm_compute in ("<<<M3379>>>" ++ check (runes_of_ascii "options{ _x=""\" ++ [233]%N ++ runes_of_ascii """;
+    Logon = 10	; Foo= 7;
+i64_= char[]} options {
+matchKey = ""// no comment"" // a // b
+falsey = string
+; trueish =
+    4294967296
+options1=
+    ""it's"" string_	= true }  {
+    /// triple
+    }")).
+Eval vm_compute in ("<<<M3411>>>" ++ check (runes_of_ascii "options{ _x=""\" ++ [233]%N ++ runes_of_ascii """;
+    Logon = 10	; Foo= 7;
+i64_= char[]} options {
+matchKey = ""// no comment"" // a // b
+falsey = string
+; = trueish
+    4294967296
+options1=
+    ""it's"" string_	= true } options {
+    /// triple
+    }")).
+Eval vm_compute in ("<<<M3443>>>" ++ check (runes_of_ascii "options{ _x=""\" ++ [233]%N ++ runes_of_ascii """;
+    Logon = 10	; Foo= 7;
+i64_=")).
+Eval vm_compute in ("<<<M3475>>>" ++ check (runes_of_ascii "options{ _x=""\" ++ [233]%N ++ runes_of_ascii """;
+    Logon = 10	; Foo= 7
+i64_= char[]} options {
+matchKey = ""// no comment"" // a // b
+falsey = string
+; trueish =
+    4294967296
+options1=
+    ""it's"" string_	= true } options {
+    /// triple
+    }")).
 Eval vm_compute in ("<<<M3507>>>" ++ check (runes_of_ascii "u")).
 Eval vm_compute in ("<<<M3539>>>" ++ check (runes_of_ascii "'\x00'")).
 Eval vm_compute in ("<<<M3571>>>" ++ check (runes_of_ascii "// ab
@@ -1886,10 +1938,10 @@ Eval vm_compute in ("<<<M3667>>>" ++ check (runes_of_ascii "packet A { B { @tag(
 Eval vm_compute in ("<<<M3699>>>" ++ check (runes_of_ascii "packet A { } root")).
 Eval vm_compute in ("<<<M3731>>>" ++ check (runes_of_ascii "options { a = 1, }")).
 Eval vm_compute in ("<<<M3763>>>" ++ check (runes_of_ascii " " ++ [12]%N ++ runes_of_ascii " ")).
-Eval vm_compute in ("<<<M3795>>>" ++ check (runes_of_ascii "u64 }")).
-Eval vm_compute in ("<<<M3827>>>" ++ check (runes_of_ascii "' ' ""a	b"" f64 : ( f64 : packet @lengthOf( options MetaData")).
-Eval vm_compute in ("<<<M3859>>>" ++ check (runes_of_ascii "u16")).
-Eval vm_compute in ("<<<M3891>>>" ++ check (runes_of_ascii "i16 char[] '0' i64 root , packet } """ ++ [28040; 24687]%N ++ runes_of_ascii """ char[ match ,")).
-Eval vm_compute in ("<<<M3923>>>" ++ check (runes_of_ascii "root ] = len uint8")).
-Eval vm_compute in ("<<<M3955>>>" ++ check (runes_of_ascii "[ ; @calculatedFrom( match zchar[ ; ; [ = , {")).
-Eval vm_compute in ("<<<M3987>>>" ++ check (runes_of_ascii "@calculatedFrom( ( options @lengthOf( '\x00' root string { u32 @calculatedFrom(")).
+Eval vm_compute in ("<<<M3795>>>" ++ check (runes_of_ascii """{,}"" string char[] u16 repeat packet : uint8")).
+Eval vm_compute in ("<<<M3827>>>" ++ check (runes_of_ascii "{ } string ""CRC32""")).
+Eval vm_compute in ("<<<M3859>>>" ++ check (runes_of_ascii "uint16 zchar[ string options uint16 i64 int16 ; i16 uint32 repeat root string")).
+Eval vm_compute in ("<<<M3891>>>" ++ check (runes_of_ascii "repeatCount { uint16 options u128 : { @tag( ]")).
+Eval vm_compute in ("<<<M3923>>>" ++ check (runes_of_ascii "as options { @calculatedFrom( ; @lengthOf( @calculatedFrom( @tag( '0' [ ;")).
+Eval vm_compute in ("<<<M3955>>>" ++ check (runes_of_ascii "char[] @tag( char[] ""x y"" Header")).
+Eval vm_compute in ("<<<M3987>>>" ++ check (runes_of_ascii ", ) @rightPad")).
